@@ -154,12 +154,13 @@ Xfer(tw, wl, fca) ==
     ip = [t \in Threads |-> 1],                  \* client program counter
     mw = [t \in Threads |-> 0],                  \* the thread's cached waiter (0 = none yet): common.c waiter_for_thread
     pool = <<>>, nalloc = 0,                     \* common.c free_waiters (first..), number of waiter structs ever allocated
+    nq = 0,                                      \* ghost: how many waits (cv, conditional, wait_n) have queued themselves so far (scenario gates)
     muFreed = FALSE, refs = N,  \* C13 reference-count pattern
     nwalive = [t \in Threads |-> FALSE],        \* the nsync_wait_n record of t is live (call in progress)
     taint3 = FALSE;                              \* known finding 6.3: a wait_n dequeued a record a waker had already unlinked
 
   define { CurOp(t) == Prog[t][ip[t]]
-           GateOK(k) == (word & SPIN) = 0 /\ (cvword & CVSPIN) = 0 /\ Len(queue) + Len(cvq) >= k
+           GateOK(k) == nq >= k
            W(t) == mw[t]
            SemOf(x) == IF x > 0 THEN x ELSE nwsem[-x]
            ThreadOf(x) == IF x < 0 THEN -x ELSE CHOOSE u \in Threads : mw[u] = x }
@@ -367,7 +368,7 @@ Xfer(tw, wl, fca) ==
    mw_5_cas: if (word = old) {
                word := Clr(((old | SPIN) | WAITING) | (IF c # 0 THEN CONDB ELSE 0), ALLF);
                hadw := (old & (DESIG + WAITING)) = WAITING;
-               if (first) { sc := Merge(sc, wc, Last(queue), W(self)); queue := Append(queue, W(self)); }
+               if (first) { sc := Merge(sc, wc, Last(queue), W(self)); queue := Append(queue, W(self)); nq := IF nq < N THEN nq + 1 ELSE nq; }
                else { sc := Merge(sc, wc, W(self), First(queue)); queue := <<W(self)>> \o queue; };
                first := FALSE;
                held[self] := 0;                                                  \* RWLOCK_RELEASE
@@ -467,7 +468,7 @@ Xfer(tw, wl, fca) ==
              cvmu[W(self)] := TRUE; wl[W(self)] := lt;
    cw_3_ld:  old := cvword;                                                      \* cv.c:228 nsync_spin_test_and_set_
              if ((old & CVSPIN) # 0) { goto cw_3_d; };
-   cw_4_cas: if (cvword = old) { cvword := (old | CVSPIN) | CVNE; cvq := Append(cvq, W(self)); goto cw_5_ld; }
+   cw_4_cas: if (cvword = old) { cvword := (old | CVSPIN) | CVNE; cvq := Append(cvq, W(self)); nq := IF nq < N THEN nq + 1 ELSE nq; goto cw_5_ld; }
              else { goto cw_3_d; };
    cw_3_d:   goto cw_3_ld;
    cw_5_ld:  rc := rmc[W(self)];                                                    \* cv.c:230
@@ -494,7 +495,7 @@ Xfer(tw, wl, fca) ==
    cw_15_st: cvword := old;                                                      \* cv.c:279 ATM_STORE_REL
    cw_16_ld: if (waiting[W(self)] # 0) { goto cw_16_d; } else { goto cw_7_ld; };    \* cv.c:282
    cw_16_d:  goto cw_7_ld;
-   cw_17_l:  if (~cvmu[W(self)]) {                                                  \* cv.c:292 transferred to the mutex queue and woken
+   cw_17_l:  if (~gen /\ ~cvmu[W(self)]) {                                                  \* cv.c:292 transferred to the mutex queue and woken
                call lock_slow(lt, DESIG);
              } else { call mu_lock(lt); };
    cw_18_l:  ret[self] := out; return;
@@ -507,7 +508,7 @@ Xfer(tw, wl, fca) ==
    wn_1_st:  nww[self] := 0; picked[self] := FALSE; nwalive[self] := TRUE; nwsem[self] := W(self);                              \* wait.c:54 ATM_STORE
    wn_2_ld:  old := cvword;                                                      \* cv.c:463 nsync_spin_test_and_set_
              if ((old & CVSPIN) # 0) { goto wn_2_d; };
-   wn_3_cas: if (cvword = old) { cvword := old | CVSPIN; cvq := Append(cvq, -self); goto wn_4_st; } else { goto wn_2_d; };
+   wn_3_cas: if (cvword = old) { cvword := old | CVSPIN; cvq := Append(cvq, -self); nq := IF nq < N THEN nq + 1 ELSE nq; goto wn_4_st; } else { goto wn_2_d; };
    wn_2_d:   goto wn_2_ld;
    wn_4_st:  nww[self] := 1;                                                     \* cv.c:465 ATM_STORE
    wn_5_st:  cvword := old | CVNE;                                               \* cv.c:467 ATM_STORE_REL
@@ -595,37 +596,38 @@ Xfer(tw, wl, fca) ==
   }
 } *)
 \* BEGIN TRANSLATION
-\* Procedure variable old of procedure lock_slow at line 177 col 15 changed to old_
-\* Procedure variable old of procedure unlock_slow at line 216 col 15 changed to old_u
-\* Procedure variable rmq of procedure unlock_slow at line 216 col 101 changed to rmq_
-\* Procedure variable old of procedure mu_lock at line 277 col 15 changed to old_m
-\* Procedure variable old of procedure mu_trylock at line 290 col 15 changed to old_mu
-\* Procedure variable old of procedure mu_unlock at line 301 col 15 changed to old_mu_
-\* Procedure variable old of procedure try_acquire at line 331 col 15 changed to old_t
-\* Procedure variable old of procedure mu_wait at line 358 col 15 changed to old_mu_w
-\* Procedure variable lt of procedure mu_wait at line 358 col 24 changed to lt_
-\* Procedure variable out of procedure mu_wait at line 358 col 46 changed to out_
-\* Procedure variable rc of procedure mu_wait at line 358 col 55 changed to rc_
-\* Procedure variable so of procedure mu_wait at line 358 col 86 changed to so_
-\* Procedure variable old of procedure cv_wake at line 429 col 15 changed to old_c
-\* Procedure variable old of procedure cv_wait at line 461 col 15 changed to old_cv
-\* Procedure variable lt of procedure cv_wait at line 461 col 24 changed to lt_c
-\* Procedure variable rc of procedure cv_wait at line 461 col 32 changed to rc_c
-\* Parameter lt of procedure lock_slow at line 176 col 23 changed to lt_l
-\* Parameter lt of procedure unlock_slow at line 215 col 25 changed to lt_u
-\* Parameter lt of procedure mu_lock at line 276 col 21 changed to lt_m
-\* Parameter lt of procedure mu_trylock at line 289 col 24 changed to lt_mu
-\* Parameter lt of procedure mu_unlock at line 300 col 23 changed to lt_mu_
-\* Parameter dl of procedure mu_wait at line 357 col 24 changed to dl_
-\* Parameter cn of procedure mu_wait at line 357 col 28 changed to cn_
+\* Procedure variable old of procedure lock_slow at line 178 col 15 changed to old_
+\* Procedure variable old of procedure unlock_slow at line 217 col 15 changed to old_u
+\* Procedure variable rmq of procedure unlock_slow at line 217 col 101 changed to rmq_
+\* Procedure variable old of procedure mu_lock at line 278 col 15 changed to old_m
+\* Procedure variable old of procedure mu_trylock at line 291 col 15 changed to old_mu
+\* Procedure variable old of procedure mu_unlock at line 302 col 15 changed to old_mu_
+\* Procedure variable old of procedure try_acquire at line 332 col 15 changed to old_t
+\* Procedure variable old of procedure mu_wait at line 359 col 15 changed to old_mu_w
+\* Procedure variable lt of procedure mu_wait at line 359 col 24 changed to lt_
+\* Procedure variable out of procedure mu_wait at line 359 col 46 changed to out_
+\* Procedure variable rc of procedure mu_wait at line 359 col 55 changed to rc_
+\* Procedure variable so of procedure mu_wait at line 359 col 86 changed to so_
+\* Procedure variable old of procedure cv_wake at line 430 col 15 changed to old_c
+\* Procedure variable old of procedure cv_wait at line 462 col 15 changed to old_cv
+\* Procedure variable lt of procedure cv_wait at line 462 col 24 changed to lt_c
+\* Procedure variable rc of procedure cv_wait at line 462 col 32 changed to rc_c
+\* Parameter lt of procedure lock_slow at line 177 col 23 changed to lt_l
+\* Parameter lt of procedure unlock_slow at line 216 col 25 changed to lt_u
+\* Parameter lt of procedure mu_lock at line 277 col 21 changed to lt_m
+\* Parameter lt of procedure mu_trylock at line 290 col 24 changed to lt_mu
+\* Parameter lt of procedure mu_unlock at line 301 col 23 changed to lt_mu_
+\* Parameter dl of procedure mu_wait at line 358 col 24 changed to dl_
+\* Parameter cn of procedure mu_wait at line 358 col 28 changed to cn_
 CONSTANT defaultInitValue
 VARIABLES pc, word, queue, cvword, cvq, waiting, rmc, cvmu, wl, wc, sc, nww, 
           nwsem, sem, data, now, note, nreg, held, ret, sres, picked, sleeps, 
-          inlock, ip, mw, pool, nalloc, muFreed, refs, nwalive, taint3, stack
+          inlock, ip, mw, pool, nalloc, nq, muFreed, refs, nwalive, taint3, 
+          stack
 
 (* define statement *)
 CurOp(t) == Prog[t][ip[t]]
-GateOK(k) == (word & SPIN) = 0 /\ (cvword & CVSPIN) = 0 /\ Len(queue) + Len(cvq) >= k
+GateOK(k) == nq >= k
 W(t) == mw[t]
 SemOf(x) == IF x > 0 THEN x ELSE nwsem[-x]
 ThreadOf(x) == IF x < 0 THEN -x ELSE CHOOSE u \in Threads : mw[u] = x
@@ -639,7 +641,7 @@ VARIABLES lt_l, clear, old_, zlo, zhi, wcnt, lw, lt_u, old_u, tc, nwl, wtrs,
 
 vars == << pc, word, queue, cvword, cvq, waiting, rmc, cvmu, wl, wc, sc, nww, 
            nwsem, sem, data, now, note, nreg, held, ret, sres, picked, sleeps, 
-           inlock, ip, mw, pool, nalloc, muFreed, refs, nwalive, taint3, 
+           inlock, ip, mw, pool, nalloc, nq, muFreed, refs, nwalive, taint3, 
            stack, lt_l, clear, old_, zlo, zhi, wcnt, lw, lt_u, old_u, tc, nwl, 
            wtrs, wake, wty, sor, cor, rmq_, late, lt_m, old_m, lt_mu, old_mu, 
            lt_mu_, ww, old_mu_, sdl, scn, lt, rc, old_t, c, dl_, cn_, 
@@ -677,6 +679,7 @@ Init == (* Global variables *)
         /\ mw = [t \in Threads |-> 0]
         /\ pool = <<>>
         /\ nalloc = 0
+        /\ nq = 0
         /\ muFreed = FALSE
         /\ refs = N
         /\ nwalive = [t \in Threads |-> FALSE]
@@ -777,22 +780,23 @@ ls_1_ld(self) == /\ pc[self] = "ls_1_ld"
                  /\ UNCHANGED << word, queue, cvword, cvq, waiting, rmc, sc, 
                                  nww, nwsem, sem, data, now, note, nreg, held, 
                                  ret, sres, picked, sleeps, inlock, ip, mw, 
-                                 pool, nalloc, muFreed, refs, nwalive, taint3, 
-                                 stack, lt_l, clear, wcnt, lw, lt_u, old_u, tc, 
-                                 nwl, wtrs, wake, wty, sor, cor, rmq_, late, 
-                                 lt_m, old_m, lt_mu, old_mu, lt_mu_, ww, 
-                                 old_mu_, sdl, scn, lt, rc, old_t, c, dl_, cn_, 
-                                 old_mu_w, lt_, first, out_, rc_, hadw, ata, 
-                                 so_, havel, tw, allr, omw, fca, sorw, all, 
-                                 old_c, tws, alr, rmq, dl, cn, gen, old_cv, 
-                                 lt_c, rc_c, so, out, ndl, old, wq, dw, k >>
+                                 pool, nalloc, nq, muFreed, refs, nwalive, 
+                                 taint3, stack, lt_l, clear, wcnt, lw, lt_u, 
+                                 old_u, tc, nwl, wtrs, wake, wty, sor, cor, 
+                                 rmq_, late, lt_m, old_m, lt_mu, old_mu, 
+                                 lt_mu_, ww, old_mu_, sdl, scn, lt, rc, old_t, 
+                                 c, dl_, cn_, old_mu_w, lt_, first, out_, rc_, 
+                                 hadw, ata, so_, havel, tw, allr, omw, fca, 
+                                 sorw, all, old_c, tws, alr, rmq, dl, cn, gen, 
+                                 old_cv, lt_c, rc_c, so, out, ndl, old, wq, dw, 
+                                 k >>
 
 ls_d(self) == /\ pc[self] = "ls_d"
               /\ pc' = [pc EXCEPT ![self] = "ls_1_ld"]
               /\ UNCHANGED << word, queue, cvword, cvq, waiting, rmc, cvmu, wl, 
                               wc, sc, nww, nwsem, sem, data, now, note, nreg, 
                               held, ret, sres, picked, sleeps, inlock, ip, mw, 
-                              pool, nalloc, muFreed, refs, nwalive, taint3, 
+                              pool, nalloc, nq, muFreed, refs, nwalive, taint3, 
                               stack, lt_l, clear, old_, zlo, zhi, wcnt, lw, 
                               lt_u, old_u, tc, nwl, wtrs, wake, wty, sor, cor, 
                               rmq_, late, lt_m, old_m, lt_mu, old_mu, lt_mu_, 
@@ -822,15 +826,15 @@ ls_2_cas(self) == /\ pc[self] = "ls_2_cas"
                   /\ UNCHANGED << queue, cvword, cvq, waiting, rmc, cvmu, wl, 
                                   wc, sc, nww, nwsem, sem, data, now, note, 
                                   nreg, ret, sres, picked, sleeps, ip, mw, 
-                                  pool, nalloc, muFreed, refs, nwalive, taint3, 
-                                  lt_u, old_u, tc, nwl, wtrs, wake, wty, sor, 
-                                  cor, rmq_, late, lt_m, old_m, lt_mu, old_mu, 
-                                  lt_mu_, ww, old_mu_, sdl, scn, lt, rc, old_t, 
-                                  c, dl_, cn_, old_mu_w, lt_, first, out_, rc_, 
-                                  hadw, ata, so_, havel, tw, allr, omw, fca, 
-                                  sorw, all, old_c, tws, alr, rmq, dl, cn, gen, 
-                                  old_cv, lt_c, rc_c, so, out, ndl, old, wq, 
-                                  dw, k >>
+                                  pool, nalloc, nq, muFreed, refs, nwalive, 
+                                  taint3, lt_u, old_u, tc, nwl, wtrs, wake, 
+                                  wty, sor, cor, rmq_, late, lt_m, old_m, 
+                                  lt_mu, old_mu, lt_mu_, ww, old_mu_, sdl, scn, 
+                                  lt, rc, old_t, c, dl_, cn_, old_mu_w, lt_, 
+                                  first, out_, rc_, hadw, ata, so_, havel, tw, 
+                                  allr, omw, fca, sorw, all, old_c, tws, alr, 
+                                  rmq, dl, cn, gen, old_cv, lt_c, rc_c, so, 
+                                  out, ndl, old, wq, dw, k >>
 
 ls_3_cas(self) == /\ pc[self] = "ls_3_cas"
                   /\ IF word = old_[self]
@@ -841,16 +845,17 @@ ls_3_cas(self) == /\ pc[self] = "ls_3_cas"
                   /\ UNCHANGED << queue, cvword, cvq, waiting, rmc, cvmu, wl, 
                                   wc, sc, nww, nwsem, sem, data, now, note, 
                                   nreg, held, ret, sres, picked, sleeps, 
-                                  inlock, ip, mw, pool, nalloc, muFreed, refs, 
-                                  nwalive, taint3, stack, lt_l, clear, old_, 
-                                  zlo, zhi, wcnt, lw, lt_u, old_u, tc, nwl, 
-                                  wtrs, wake, wty, sor, cor, rmq_, late, lt_m, 
-                                  old_m, lt_mu, old_mu, lt_mu_, ww, old_mu_, 
-                                  sdl, scn, lt, rc, old_t, c, dl_, cn_, 
-                                  old_mu_w, lt_, first, out_, rc_, hadw, ata, 
-                                  so_, havel, tw, allr, omw, fca, sorw, all, 
-                                  old_c, tws, alr, rmq, dl, cn, gen, old_cv, 
-                                  lt_c, rc_c, so, out, ndl, old, wq, dw, k >>
+                                  inlock, ip, mw, pool, nalloc, nq, muFreed, 
+                                  refs, nwalive, taint3, stack, lt_l, clear, 
+                                  old_, zlo, zhi, wcnt, lw, lt_u, old_u, tc, 
+                                  nwl, wtrs, wake, wty, sor, cor, rmq_, late, 
+                                  lt_m, old_m, lt_mu, old_mu, lt_mu_, ww, 
+                                  old_mu_, sdl, scn, lt, rc, old_t, c, dl_, 
+                                  cn_, old_mu_w, lt_, first, out_, rc_, hadw, 
+                                  ata, so_, havel, tw, allr, omw, fca, sorw, 
+                                  all, old_c, tws, alr, rmq, dl, cn, gen, 
+                                  old_cv, lt_c, rc_c, so, out, ndl, old, wq, 
+                                  dw, k >>
 
 ls_4_st(self) == /\ pc[self] = "ls_4_st"
                  /\ waiting' = [waiting EXCEPT ![W(self)] = 1]
@@ -859,10 +864,10 @@ ls_4_st(self) == /\ pc[self] = "ls_4_st"
                  /\ UNCHANGED << word, cvword, cvq, rmc, cvmu, wl, wc, sc, nww, 
                                  nwsem, sem, data, now, note, nreg, held, ret, 
                                  sres, picked, sleeps, inlock, ip, mw, pool, 
-                                 nalloc, muFreed, refs, nwalive, taint3, stack, 
-                                 lt_l, clear, old_, zlo, zhi, wcnt, lw, lt_u, 
-                                 old_u, tc, nwl, wtrs, wake, wty, sor, cor, 
-                                 rmq_, late, lt_m, old_m, lt_mu, old_mu, 
+                                 nalloc, nq, muFreed, refs, nwalive, taint3, 
+                                 stack, lt_l, clear, old_, zlo, zhi, wcnt, lw, 
+                                 lt_u, old_u, tc, nwl, wtrs, wake, wty, sor, 
+                                 cor, rmq_, late, lt_m, old_m, lt_mu, old_mu, 
                                  lt_mu_, ww, old_mu_, sdl, scn, lt, rc, old_t, 
                                  c, dl_, cn_, old_mu_w, lt_, first, out_, rc_, 
                                  hadw, ata, so_, havel, tw, allr, omw, fca, 
@@ -876,10 +881,10 @@ ls_5_ld(self) == /\ pc[self] = "ls_5_ld"
                  /\ UNCHANGED << word, queue, cvword, cvq, waiting, rmc, cvmu, 
                                  wl, wc, sc, nww, nwsem, sem, data, now, note, 
                                  nreg, held, ret, sres, picked, sleeps, inlock, 
-                                 ip, mw, pool, nalloc, muFreed, refs, nwalive, 
-                                 taint3, stack, lt_l, clear, zlo, zhi, wcnt, 
-                                 lw, lt_u, old_u, tc, nwl, wtrs, wake, wty, 
-                                 sor, cor, rmq_, late, lt_m, old_m, lt_mu, 
+                                 ip, mw, pool, nalloc, nq, muFreed, refs, 
+                                 nwalive, taint3, stack, lt_l, clear, zlo, zhi, 
+                                 wcnt, lw, lt_u, old_u, tc, nwl, wtrs, wake, 
+                                 wty, sor, cor, rmq_, late, lt_m, old_m, lt_mu, 
                                  old_mu, lt_mu_, ww, old_mu_, sdl, scn, lt, rc, 
                                  old_t, c, dl_, cn_, old_mu_w, lt_, first, 
                                  out_, rc_, hadw, ata, so_, havel, tw, allr, 
@@ -896,16 +901,17 @@ ls_6_cas(self) == /\ pc[self] = "ls_6_cas"
                   /\ UNCHANGED << queue, cvword, cvq, waiting, rmc, cvmu, wl, 
                                   wc, sc, nww, nwsem, sem, data, now, note, 
                                   nreg, held, ret, sres, picked, sleeps, 
-                                  inlock, ip, mw, pool, nalloc, muFreed, refs, 
-                                  nwalive, taint3, stack, lt_l, clear, old_, 
-                                  zlo, zhi, wcnt, lw, lt_u, old_u, tc, nwl, 
-                                  wtrs, wake, wty, sor, cor, rmq_, late, lt_m, 
-                                  old_m, lt_mu, old_mu, lt_mu_, ww, old_mu_, 
-                                  sdl, scn, lt, rc, old_t, c, dl_, cn_, 
-                                  old_mu_w, lt_, first, out_, rc_, hadw, ata, 
-                                  so_, havel, tw, allr, omw, fca, sorw, all, 
-                                  old_c, tws, alr, rmq, dl, cn, gen, old_cv, 
-                                  lt_c, rc_c, so, out, ndl, old, wq, dw, k >>
+                                  inlock, ip, mw, pool, nalloc, nq, muFreed, 
+                                  refs, nwalive, taint3, stack, lt_l, clear, 
+                                  old_, zlo, zhi, wcnt, lw, lt_u, old_u, tc, 
+                                  nwl, wtrs, wake, wty, sor, cor, rmq_, late, 
+                                  lt_m, old_m, lt_mu, old_mu, lt_mu_, ww, 
+                                  old_mu_, sdl, scn, lt, rc, old_t, c, dl_, 
+                                  cn_, old_mu_w, lt_, first, out_, rc_, hadw, 
+                                  ata, so_, havel, tw, allr, omw, fca, sorw, 
+                                  all, old_c, tws, alr, rmq, dl, cn, gen, 
+                                  old_cv, lt_c, rc_c, so, out, ndl, old, wq, 
+                                  dw, k >>
 
 ls_7_ld(self) == /\ pc[self] = "ls_7_ld"
                  /\ IF waiting[W(self)] # 0
@@ -918,10 +924,10 @@ ls_7_ld(self) == /\ pc[self] = "ls_7_ld"
                  /\ UNCHANGED << word, queue, cvword, cvq, waiting, rmc, cvmu, 
                                  wl, wc, sc, nww, nwsem, sem, data, now, note, 
                                  nreg, held, ret, sres, picked, sleeps, inlock, 
-                                 ip, mw, pool, nalloc, muFreed, refs, nwalive, 
-                                 taint3, stack, lt_l, old_, zlo, zhi, lt_u, 
-                                 old_u, tc, nwl, wtrs, wake, wty, sor, cor, 
-                                 rmq_, late, lt_m, old_m, lt_mu, old_mu, 
+                                 ip, mw, pool, nalloc, nq, muFreed, refs, 
+                                 nwalive, taint3, stack, lt_l, old_, zlo, zhi, 
+                                 lt_u, old_u, tc, nwl, wtrs, wake, wty, sor, 
+                                 cor, rmq_, late, lt_m, old_m, lt_mu, old_mu, 
                                  lt_mu_, ww, old_mu_, sdl, scn, lt, rc, old_t, 
                                  c, dl_, cn_, old_mu_w, lt_, first, out_, rc_, 
                                  hadw, ata, so_, havel, tw, allr, omw, fca, 
@@ -937,15 +943,16 @@ ls_8_p(self) == /\ pc[self] = "ls_8_p"
                 /\ UNCHANGED << word, queue, cvword, cvq, waiting, rmc, cvmu, 
                                 wl, wc, sc, nww, nwsem, data, now, note, nreg, 
                                 held, ret, sres, picked, inlock, ip, mw, pool, 
-                                nalloc, muFreed, refs, nwalive, taint3, stack, 
-                                lt_l, clear, old_, zlo, zhi, wcnt, lw, lt_u, 
-                                old_u, tc, nwl, wtrs, wake, wty, sor, cor, 
-                                rmq_, late, lt_m, old_m, lt_mu, old_mu, lt_mu_, 
-                                ww, old_mu_, sdl, scn, lt, rc, old_t, c, dl_, 
-                                cn_, old_mu_w, lt_, first, out_, rc_, hadw, 
-                                ata, so_, havel, tw, allr, omw, fca, sorw, all, 
-                                old_c, tws, alr, rmq, dl, cn, gen, old_cv, 
-                                lt_c, rc_c, so, out, ndl, old, wq, dw, k >>
+                                nalloc, nq, muFreed, refs, nwalive, taint3, 
+                                stack, lt_l, clear, old_, zlo, zhi, wcnt, lw, 
+                                lt_u, old_u, tc, nwl, wtrs, wake, wty, sor, 
+                                cor, rmq_, late, lt_m, old_m, lt_mu, old_mu, 
+                                lt_mu_, ww, old_mu_, sdl, scn, lt, rc, old_t, 
+                                c, dl_, cn_, old_mu_w, lt_, first, out_, rc_, 
+                                hadw, ata, so_, havel, tw, allr, omw, fca, 
+                                sorw, all, old_c, tws, alr, rmq, dl, cn, gen, 
+                                old_cv, lt_c, rc_c, so, out, ndl, old, wq, dw, 
+                                k >>
 
 lock_slow(self) == ls_1_ld(self) \/ ls_d(self) \/ ls_2_cas(self)
                       \/ ls_3_cas(self) \/ ls_4_st(self) \/ ls_5_ld(self)
@@ -963,23 +970,23 @@ us_1_ld(self) == /\ pc[self] = "us_1_ld"
                  /\ UNCHANGED << word, queue, cvword, cvq, waiting, rmc, cvmu, 
                                  wl, wc, sc, nww, nwsem, sem, data, now, note, 
                                  nreg, held, ret, sres, picked, sleeps, inlock, 
-                                 ip, mw, pool, nalloc, muFreed, refs, nwalive, 
-                                 taint3, stack, lt_l, clear, old_, zlo, zhi, 
-                                 wcnt, lw, lt_u, nwl, wtrs, wake, wty, sor, 
-                                 cor, rmq_, late, lt_m, old_m, lt_mu, old_mu, 
-                                 lt_mu_, ww, old_mu_, sdl, scn, lt, rc, old_t, 
-                                 c, dl_, cn_, old_mu_w, lt_, first, out_, rc_, 
-                                 hadw, ata, so_, havel, tw, allr, omw, fca, 
-                                 sorw, all, old_c, tws, alr, rmq, dl, cn, gen, 
-                                 old_cv, lt_c, rc_c, so, out, ndl, old, wq, dw, 
-                                 k >>
+                                 ip, mw, pool, nalloc, nq, muFreed, refs, 
+                                 nwalive, taint3, stack, lt_l, clear, old_, 
+                                 zlo, zhi, wcnt, lw, lt_u, nwl, wtrs, wake, 
+                                 wty, sor, cor, rmq_, late, lt_m, old_m, lt_mu, 
+                                 old_mu, lt_mu_, ww, old_mu_, sdl, scn, lt, rc, 
+                                 old_t, c, dl_, cn_, old_mu_w, lt_, first, 
+                                 out_, rc_, hadw, ata, so_, havel, tw, allr, 
+                                 omw, fca, sorw, all, old_c, tws, alr, rmq, dl, 
+                                 cn, gen, old_cv, lt_c, rc_c, so, out, ndl, 
+                                 old, wq, dw, k >>
 
 us_d(self) == /\ pc[self] = "us_d"
               /\ pc' = [pc EXCEPT ![self] = "us_1_ld"]
               /\ UNCHANGED << word, queue, cvword, cvq, waiting, rmc, cvmu, wl, 
                               wc, sc, nww, nwsem, sem, data, now, note, nreg, 
                               held, ret, sres, picked, sleeps, inlock, ip, mw, 
-                              pool, nalloc, muFreed, refs, nwalive, taint3, 
+                              pool, nalloc, nq, muFreed, refs, nwalive, taint3, 
                               stack, lt_l, clear, old_, zlo, zhi, wcnt, lw, 
                               lt_u, old_u, tc, nwl, wtrs, wake, wty, sor, cor, 
                               rmq_, late, lt_m, old_m, lt_mu, old_mu, lt_mu_, 
@@ -1012,15 +1019,15 @@ us_2_cas(self) == /\ pc[self] = "us_2_cas"
                   /\ UNCHANGED << queue, cvword, cvq, waiting, rmc, cvmu, wl, 
                                   wc, sc, nww, nwsem, sem, data, now, note, 
                                   nreg, held, ret, sres, picked, sleeps, 
-                                  inlock, ip, mw, pool, nalloc, muFreed, refs, 
-                                  nwalive, taint3, lt_l, clear, old_, zlo, zhi, 
-                                  wcnt, lw, lt_m, old_m, lt_mu, old_mu, lt_mu_, 
-                                  ww, old_mu_, sdl, scn, lt, rc, old_t, c, dl_, 
-                                  cn_, old_mu_w, lt_, first, out_, rc_, hadw, 
-                                  ata, so_, havel, tw, allr, omw, fca, sorw, 
-                                  all, old_c, tws, alr, rmq, dl, cn, gen, 
-                                  old_cv, lt_c, rc_c, so, out, ndl, old, wq, 
-                                  dw, k >>
+                                  inlock, ip, mw, pool, nalloc, nq, muFreed, 
+                                  refs, nwalive, taint3, lt_l, clear, old_, 
+                                  zlo, zhi, wcnt, lw, lt_m, old_m, lt_mu, 
+                                  old_mu, lt_mu_, ww, old_mu_, sdl, scn, lt, 
+                                  rc, old_t, c, dl_, cn_, old_mu_w, lt_, first, 
+                                  out_, rc_, hadw, ata, so_, havel, tw, allr, 
+                                  omw, fca, sorw, all, old_c, tws, alr, rmq, 
+                                  dl, cn, gen, old_cv, lt_c, rc_c, so, out, 
+                                  ndl, old, wq, dw, k >>
 
 us_3_cas(self) == /\ pc[self] = "us_3_cas"
                   /\ IF word = old_u[self]
@@ -1039,15 +1046,15 @@ us_3_cas(self) == /\ pc[self] = "us_3_cas"
                   /\ UNCHANGED << cvword, cvq, waiting, rmc, cvmu, wl, wc, sc, 
                                   nww, nwsem, sem, data, now, note, nreg, held, 
                                   ret, sres, picked, sleeps, inlock, ip, mw, 
-                                  pool, nalloc, muFreed, refs, nwalive, taint3, 
-                                  stack, lt_l, clear, old_, zlo, zhi, wcnt, lw, 
-                                  lt_u, old_u, tc, cor, rmq_, lt_m, old_m, 
-                                  lt_mu, old_mu, lt_mu_, ww, old_mu_, sdl, scn, 
-                                  lt, rc, old_t, c, dl_, cn_, old_mu_w, lt_, 
-                                  first, out_, rc_, hadw, ata, so_, havel, tw, 
-                                  allr, omw, fca, sorw, all, old_c, tws, alr, 
-                                  rmq, dl, cn, gen, old_cv, lt_c, rc_c, so, 
-                                  out, ndl, old, wq, dw, k >>
+                                  pool, nalloc, nq, muFreed, refs, nwalive, 
+                                  taint3, stack, lt_l, clear, old_, zlo, zhi, 
+                                  wcnt, lw, lt_u, old_u, tc, cor, rmq_, lt_m, 
+                                  old_m, lt_mu, old_mu, lt_mu_, ww, old_mu_, 
+                                  sdl, scn, lt, rc, old_t, c, dl_, cn_, 
+                                  old_mu_w, lt_, first, out_, rc_, hadw, ata, 
+                                  so_, havel, tw, allr, omw, fca, sorw, all, 
+                                  old_c, tws, alr, rmq, dl, cn, gen, old_cv, 
+                                  lt_c, rc_c, so, out, ndl, old, wq, dw, k >>
 
 us_pass_l(self) == /\ pc[self] = "us_pass_l"
                    /\ IF nwl[self] = <<>>
@@ -1062,16 +1069,16 @@ us_pass_l(self) == /\ pc[self] = "us_pass_l"
                    /\ UNCHANGED << word, cvword, cvq, waiting, rmc, cvmu, wl, 
                                    wc, sc, nww, nwsem, sem, data, now, note, 
                                    nreg, held, ret, sres, picked, sleeps, 
-                                   inlock, ip, mw, pool, nalloc, muFreed, refs, 
-                                   nwalive, taint3, stack, lt_l, clear, old_, 
-                                   zlo, zhi, wcnt, lw, lt_u, old_u, nwl, wtrs, 
-                                   wake, wty, sor, rmq_, late, lt_m, old_m, 
-                                   lt_mu, old_mu, lt_mu_, ww, old_mu_, sdl, 
-                                   scn, lt, rc, old_t, c, dl_, cn_, old_mu_w, 
-                                   lt_, first, out_, rc_, hadw, ata, so_, 
-                                   havel, tw, allr, omw, fca, sorw, all, old_c, 
-                                   tws, alr, rmq, dl, cn, gen, old_cv, lt_c, 
-                                   rc_c, so, out, ndl, old, wq, dw, k >>
+                                   inlock, ip, mw, pool, nalloc, nq, muFreed, 
+                                   refs, nwalive, taint3, stack, lt_l, clear, 
+                                   old_, zlo, zhi, wcnt, lw, lt_u, old_u, nwl, 
+                                   wtrs, wake, wty, sor, rmq_, late, lt_m, 
+                                   old_m, lt_mu, old_mu, lt_mu_, ww, old_mu_, 
+                                   sdl, scn, lt, rc, old_t, c, dl_, cn_, 
+                                   old_mu_w, lt_, first, out_, rc_, hadw, ata, 
+                                   so_, havel, tw, allr, omw, fca, sorw, all, 
+                                   old_c, tws, alr, rmq, dl, cn, gen, old_cv, 
+                                   lt_c, rc_c, so, out, ndl, old, wq, dw, k >>
 
 us_rel_l(self) == /\ pc[self] = "us_rel_l"
                   /\ IF tc[self]
@@ -1080,16 +1087,17 @@ us_rel_l(self) == /\ pc[self] = "us_rel_l"
                   /\ UNCHANGED << word, queue, cvword, cvq, waiting, rmc, cvmu, 
                                   wl, wc, sc, nww, nwsem, sem, data, now, note, 
                                   nreg, held, ret, sres, picked, sleeps, 
-                                  inlock, ip, mw, pool, nalloc, muFreed, refs, 
-                                  nwalive, taint3, stack, lt_l, clear, old_, 
-                                  zlo, zhi, wcnt, lw, lt_u, old_u, tc, nwl, 
-                                  wtrs, wake, wty, sor, cor, rmq_, late, lt_m, 
-                                  old_m, lt_mu, old_mu, lt_mu_, ww, old_mu_, 
-                                  sdl, scn, lt, rc, old_t, c, dl_, cn_, 
-                                  old_mu_w, lt_, first, out_, rc_, hadw, ata, 
-                                  so_, havel, tw, allr, omw, fca, sorw, all, 
-                                  old_c, tws, alr, rmq, dl, cn, gen, old_cv, 
-                                  lt_c, rc_c, so, out, ndl, old, wq, dw, k >>
+                                  inlock, ip, mw, pool, nalloc, nq, muFreed, 
+                                  refs, nwalive, taint3, stack, lt_l, clear, 
+                                  old_, zlo, zhi, wcnt, lw, lt_u, old_u, tc, 
+                                  nwl, wtrs, wake, wty, sor, cor, rmq_, late, 
+                                  lt_m, old_m, lt_mu, old_mu, lt_mu_, ww, 
+                                  old_mu_, sdl, scn, lt, rc, old_t, c, dl_, 
+                                  cn_, old_mu_w, lt_, first, out_, rc_, hadw, 
+                                  ata, so_, havel, tw, allr, omw, fca, sorw, 
+                                  all, old_c, tws, alr, rmq, dl, cn, gen, 
+                                  old_cv, lt_c, rc_c, so, out, ndl, old, wq, 
+                                  dw, k >>
 
 us_rs_ld(self) == /\ pc[self] = "us_rs_ld"
                   /\ old_u' = [old_u EXCEPT ![self] = word]
@@ -1097,16 +1105,16 @@ us_rs_ld(self) == /\ pc[self] = "us_rs_ld"
                   /\ UNCHANGED << word, queue, cvword, cvq, waiting, rmc, cvmu, 
                                   wl, wc, sc, nww, nwsem, sem, data, now, note, 
                                   nreg, held, ret, sres, picked, sleeps, 
-                                  inlock, ip, mw, pool, nalloc, muFreed, refs, 
-                                  nwalive, taint3, stack, lt_l, clear, old_, 
-                                  zlo, zhi, wcnt, lw, lt_u, tc, nwl, wtrs, 
-                                  wake, wty, sor, cor, rmq_, late, lt_m, old_m, 
-                                  lt_mu, old_mu, lt_mu_, ww, old_mu_, sdl, scn, 
-                                  lt, rc, old_t, c, dl_, cn_, old_mu_w, lt_, 
-                                  first, out_, rc_, hadw, ata, so_, havel, tw, 
-                                  allr, omw, fca, sorw, all, old_c, tws, alr, 
-                                  rmq, dl, cn, gen, old_cv, lt_c, rc_c, so, 
-                                  out, ndl, old, wq, dw, k >>
+                                  inlock, ip, mw, pool, nalloc, nq, muFreed, 
+                                  refs, nwalive, taint3, stack, lt_l, clear, 
+                                  old_, zlo, zhi, wcnt, lw, lt_u, tc, nwl, 
+                                  wtrs, wake, wty, sor, cor, rmq_, late, lt_m, 
+                                  old_m, lt_mu, old_mu, lt_mu_, ww, old_mu_, 
+                                  sdl, scn, lt, rc, old_t, c, dl_, cn_, 
+                                  old_mu_w, lt_, first, out_, rc_, hadw, ata, 
+                                  so_, havel, tw, allr, omw, fca, sorw, all, 
+                                  old_c, tws, alr, rmq, dl, cn, gen, old_cv, 
+                                  lt_c, rc_c, so, out, ndl, old, wq, dw, k >>
 
 us_rs_cas(self) == /\ pc[self] = "us_rs_cas"
                    /\ IF word = old_u[self]
@@ -1117,21 +1125,22 @@ us_rs_cas(self) == /\ pc[self] = "us_rs_cas"
                    /\ UNCHANGED << queue, cvword, cvq, waiting, rmc, cvmu, wl, 
                                    wc, sc, nww, nwsem, sem, data, now, note, 
                                    nreg, held, ret, sres, picked, sleeps, 
-                                   inlock, ip, mw, pool, nalloc, muFreed, refs, 
-                                   nwalive, taint3, stack, lt_l, clear, old_, 
-                                   zlo, zhi, wcnt, lw, lt_u, old_u, tc, nwl, 
-                                   wtrs, wake, wty, sor, cor, rmq_, late, lt_m, 
-                                   old_m, lt_mu, old_mu, lt_mu_, ww, old_mu_, 
-                                   sdl, scn, lt, rc, old_t, c, dl_, cn_, 
-                                   old_mu_w, lt_, first, out_, rc_, hadw, ata, 
-                                   so_, havel, tw, allr, omw, fca, sorw, all, 
-                                   old_c, tws, alr, rmq, dl, cn, gen, old_cv, 
-                                   lt_c, rc_c, so, out, ndl, old, wq, dw, k >>
+                                   inlock, ip, mw, pool, nalloc, nq, muFreed, 
+                                   refs, nwalive, taint3, stack, lt_l, clear, 
+                                   old_, zlo, zhi, wcnt, lw, lt_u, old_u, tc, 
+                                   nwl, wtrs, wake, wty, sor, cor, rmq_, late, 
+                                   lt_m, old_m, lt_mu, old_mu, lt_mu_, ww, 
+                                   old_mu_, sdl, scn, lt, rc, old_t, c, dl_, 
+                                   cn_, old_mu_w, lt_, first, out_, rc_, hadw, 
+                                   ata, so_, havel, tw, allr, omw, fca, sorw, 
+                                   all, old_c, tws, alr, rmq, dl, cn, gen, 
+                                   old_cv, lt_c, rc_c, so, out, ndl, old, wq, 
+                                   dw, k >>
 
 us_scan_l(self) == /\ pc[self] = "us_scan_l"
                    /\ LET r == Scan(nwl[self], 1, <<>>, wty[self], sor[self], sc, wc, wl, data, tc[self]) IN
                         /\ Assert(tc[self] => ((word & WLOCK) # 0 /\ \A u \in Threads : held[u] = 0), 
-                                  "Failure of assertion at line 247, column 16.")
+                                  "Failure of assertion at line 248, column 16.")
                         /\ nwl' = [nwl EXCEPT ![self] = r.l]
                         /\ rmq_' = [rmq_ EXCEPT ![self] = r.wake]
                         /\ wake' = [wake EXCEPT ![self] = wake[self] \o r.wake]
@@ -1142,10 +1151,10 @@ us_scan_l(self) == /\ pc[self] = "us_scan_l"
                    /\ UNCHANGED << word, queue, cvword, cvq, waiting, rmc, 
                                    cvmu, wl, wc, nww, nwsem, sem, data, now, 
                                    note, nreg, held, ret, sres, picked, sleeps, 
-                                   inlock, ip, mw, pool, nalloc, muFreed, refs, 
-                                   nwalive, taint3, stack, lt_l, clear, old_, 
-                                   zlo, zhi, wcnt, lw, lt_u, old_u, tc, wtrs, 
-                                   cor, late, lt_m, old_m, lt_mu, old_mu, 
+                                   inlock, ip, mw, pool, nalloc, nq, muFreed, 
+                                   refs, nwalive, taint3, stack, lt_l, clear, 
+                                   old_, zlo, zhi, wcnt, lw, lt_u, old_u, tc, 
+                                   wtrs, cor, late, lt_m, old_m, lt_mu, old_mu, 
                                    lt_mu_, ww, old_mu_, sdl, scn, lt, rc, 
                                    old_t, c, dl_, cn_, old_mu_w, lt_, first, 
                                    out_, rc_, hadw, ata, so_, havel, tw, allr, 
@@ -1160,16 +1169,17 @@ us_rmq_l(self) == /\ pc[self] = "us_rmq_l"
                   /\ UNCHANGED << word, queue, cvword, cvq, waiting, rmc, cvmu, 
                                   wl, wc, sc, nww, nwsem, sem, data, now, note, 
                                   nreg, held, ret, sres, picked, sleeps, 
-                                  inlock, ip, mw, pool, nalloc, muFreed, refs, 
-                                  nwalive, taint3, stack, lt_l, clear, old_, 
-                                  zlo, zhi, wcnt, lw, lt_u, old_u, tc, nwl, 
-                                  wtrs, wake, wty, sor, cor, rmq_, late, lt_m, 
-                                  old_m, lt_mu, old_mu, lt_mu_, ww, old_mu_, 
-                                  sdl, scn, lt, rc, old_t, c, dl_, cn_, 
-                                  old_mu_w, lt_, first, out_, rc_, hadw, ata, 
-                                  so_, havel, tw, allr, omw, fca, sorw, all, 
-                                  old_c, tws, alr, rmq, dl, cn, gen, old_cv, 
-                                  lt_c, rc_c, so, out, ndl, old, wq, dw, k >>
+                                  inlock, ip, mw, pool, nalloc, nq, muFreed, 
+                                  refs, nwalive, taint3, stack, lt_l, clear, 
+                                  old_, zlo, zhi, wcnt, lw, lt_u, old_u, tc, 
+                                  nwl, wtrs, wake, wty, sor, cor, rmq_, late, 
+                                  lt_m, old_m, lt_mu, old_mu, lt_mu_, ww, 
+                                  old_mu_, sdl, scn, lt, rc, old_t, c, dl_, 
+                                  cn_, old_mu_w, lt_, first, out_, rc_, hadw, 
+                                  ata, so_, havel, tw, allr, omw, fca, sorw, 
+                                  all, old_c, tws, alr, rmq, dl, cn, gen, 
+                                  old_cv, lt_c, rc_c, so, out, ndl, old, wq, 
+                                  dw, k >>
 
 us_rm_ld(self) == /\ pc[self] = "us_rm_ld"
                   /\ TRUE
@@ -1177,16 +1187,17 @@ us_rm_ld(self) == /\ pc[self] = "us_rm_ld"
                   /\ UNCHANGED << word, queue, cvword, cvq, waiting, rmc, cvmu, 
                                   wl, wc, sc, nww, nwsem, sem, data, now, note, 
                                   nreg, held, ret, sres, picked, sleeps, 
-                                  inlock, ip, mw, pool, nalloc, muFreed, refs, 
-                                  nwalive, taint3, stack, lt_l, clear, old_, 
-                                  zlo, zhi, wcnt, lw, lt_u, old_u, tc, nwl, 
-                                  wtrs, wake, wty, sor, cor, rmq_, late, lt_m, 
-                                  old_m, lt_mu, old_mu, lt_mu_, ww, old_mu_, 
-                                  sdl, scn, lt, rc, old_t, c, dl_, cn_, 
-                                  old_mu_w, lt_, first, out_, rc_, hadw, ata, 
-                                  so_, havel, tw, allr, omw, fca, sorw, all, 
-                                  old_c, tws, alr, rmq, dl, cn, gen, old_cv, 
-                                  lt_c, rc_c, so, out, ndl, old, wq, dw, k >>
+                                  inlock, ip, mw, pool, nalloc, nq, muFreed, 
+                                  refs, nwalive, taint3, stack, lt_l, clear, 
+                                  old_, zlo, zhi, wcnt, lw, lt_u, old_u, tc, 
+                                  nwl, wtrs, wake, wty, sor, cor, rmq_, late, 
+                                  lt_m, old_m, lt_mu, old_mu, lt_mu_, ww, 
+                                  old_mu_, sdl, scn, lt, rc, old_t, c, dl_, 
+                                  cn_, old_mu_w, lt_, first, out_, rc_, hadw, 
+                                  ata, so_, havel, tw, allr, omw, fca, sorw, 
+                                  all, old_c, tws, alr, rmq, dl, cn, gen, 
+                                  old_cv, lt_c, rc_c, so, out, ndl, old, wq, 
+                                  dw, k >>
 
 us_rm_cas(self) == /\ pc[self] = "us_rm_cas"
                    /\ rmc' = [rmc EXCEPT ![Head(rmq_[self])] = rmc[Head(rmq_[self])] + 1]
@@ -1195,10 +1206,10 @@ us_rm_cas(self) == /\ pc[self] = "us_rm_cas"
                    /\ UNCHANGED << word, queue, cvword, cvq, waiting, cvmu, wl, 
                                    wc, sc, nww, nwsem, sem, data, now, note, 
                                    nreg, held, ret, sres, picked, sleeps, 
-                                   inlock, ip, mw, pool, nalloc, muFreed, refs, 
-                                   nwalive, taint3, stack, lt_l, clear, old_, 
-                                   zlo, zhi, wcnt, lw, lt_u, old_u, tc, nwl, 
-                                   wtrs, wake, wty, sor, cor, late, lt_m, 
+                                   inlock, ip, mw, pool, nalloc, nq, muFreed, 
+                                   refs, nwalive, taint3, stack, lt_l, clear, 
+                                   old_, zlo, zhi, wcnt, lw, lt_u, old_u, tc, 
+                                   nwl, wtrs, wake, wty, sor, cor, late, lt_m, 
                                    old_m, lt_mu, old_mu, lt_mu_, ww, old_mu_, 
                                    sdl, scn, lt, rc, old_t, c, dl_, cn_, 
                                    old_mu_w, lt_, first, out_, rc_, hadw, ata, 
@@ -1213,7 +1224,7 @@ us_after_l(self) == /\ pc[self] = "us_after_l"
                     /\ UNCHANGED << word, queue, cvword, cvq, waiting, rmc, 
                                     cvmu, wl, wc, sc, nww, nwsem, sem, data, 
                                     now, note, nreg, held, ret, sres, picked, 
-                                    sleeps, inlock, ip, mw, pool, nalloc, 
+                                    sleeps, inlock, ip, mw, pool, nalloc, nq, 
                                     muFreed, refs, nwalive, taint3, stack, 
                                     lt_l, clear, old_, zlo, zhi, wcnt, lw, 
                                     lt_u, old_u, tc, nwl, wtrs, wake, wty, sor, 
@@ -1233,16 +1244,16 @@ us_ts_ld(self) == /\ pc[self] = "us_ts_ld"
                   /\ UNCHANGED << word, queue, cvword, cvq, waiting, rmc, cvmu, 
                                   wl, wc, sc, nww, nwsem, sem, data, now, note, 
                                   nreg, held, ret, sres, picked, sleeps, 
-                                  inlock, ip, mw, pool, nalloc, muFreed, refs, 
-                                  nwalive, taint3, stack, lt_l, clear, old_, 
-                                  zlo, zhi, wcnt, lw, lt_u, tc, nwl, wtrs, 
-                                  wake, wty, sor, cor, rmq_, late, lt_m, old_m, 
-                                  lt_mu, old_mu, lt_mu_, ww, old_mu_, sdl, scn, 
-                                  lt, rc, old_t, c, dl_, cn_, old_mu_w, lt_, 
-                                  first, out_, rc_, hadw, ata, so_, havel, tw, 
-                                  allr, omw, fca, sorw, all, old_c, tws, alr, 
-                                  rmq, dl, cn, gen, old_cv, lt_c, rc_c, so, 
-                                  out, ndl, old, wq, dw, k >>
+                                  inlock, ip, mw, pool, nalloc, nq, muFreed, 
+                                  refs, nwalive, taint3, stack, lt_l, clear, 
+                                  old_, zlo, zhi, wcnt, lw, lt_u, tc, nwl, 
+                                  wtrs, wake, wty, sor, cor, rmq_, late, lt_m, 
+                                  old_m, lt_mu, old_mu, lt_mu_, ww, old_mu_, 
+                                  sdl, scn, lt, rc, old_t, c, dl_, cn_, 
+                                  old_mu_w, lt_, first, out_, rc_, hadw, ata, 
+                                  so_, havel, tw, allr, omw, fca, sorw, all, 
+                                  old_c, tws, alr, rmq, dl, cn, gen, old_cv, 
+                                  lt_c, rc_c, so, out, ndl, old, wq, dw, k >>
 
 us_ts_cas(self) == /\ pc[self] = "us_ts_cas"
                    /\ IF word = old_u[self]
@@ -1253,32 +1264,33 @@ us_ts_cas(self) == /\ pc[self] = "us_ts_cas"
                    /\ UNCHANGED << queue, cvword, cvq, waiting, rmc, cvmu, wl, 
                                    wc, sc, nww, nwsem, sem, data, now, note, 
                                    nreg, held, ret, sres, picked, sleeps, 
-                                   inlock, ip, mw, pool, nalloc, muFreed, refs, 
-                                   nwalive, taint3, stack, lt_l, clear, old_, 
-                                   zlo, zhi, wcnt, lw, lt_u, old_u, tc, nwl, 
-                                   wtrs, wake, wty, sor, cor, rmq_, late, lt_m, 
-                                   old_m, lt_mu, old_mu, lt_mu_, ww, old_mu_, 
-                                   sdl, scn, lt, rc, old_t, c, dl_, cn_, 
-                                   old_mu_w, lt_, first, out_, rc_, hadw, ata, 
-                                   so_, havel, tw, allr, omw, fca, sorw, all, 
-                                   old_c, tws, alr, rmq, dl, cn, gen, old_cv, 
-                                   lt_c, rc_c, so, out, ndl, old, wq, dw, k >>
+                                   inlock, ip, mw, pool, nalloc, nq, muFreed, 
+                                   refs, nwalive, taint3, stack, lt_l, clear, 
+                                   old_, zlo, zhi, wcnt, lw, lt_u, old_u, tc, 
+                                   nwl, wtrs, wake, wty, sor, cor, rmq_, late, 
+                                   lt_m, old_m, lt_mu, old_mu, lt_mu_, ww, 
+                                   old_mu_, sdl, scn, lt, rc, old_t, c, dl_, 
+                                   cn_, old_mu_w, lt_, first, out_, rc_, hadw, 
+                                   ata, so_, havel, tw, allr, omw, fca, sorw, 
+                                   all, old_c, tws, alr, rmq, dl, cn, gen, 
+                                   old_cv, lt_c, rc_c, so, out, ndl, old, wq, 
+                                   dw, k >>
 
 us_ts_d(self) == /\ pc[self] = "us_ts_d"
                  /\ pc' = [pc EXCEPT ![self] = "us_ts_ld"]
                  /\ UNCHANGED << word, queue, cvword, cvq, waiting, rmc, cvmu, 
                                  wl, wc, sc, nww, nwsem, sem, data, now, note, 
                                  nreg, held, ret, sres, picked, sleeps, inlock, 
-                                 ip, mw, pool, nalloc, muFreed, refs, nwalive, 
-                                 taint3, stack, lt_l, clear, old_, zlo, zhi, 
-                                 wcnt, lw, lt_u, old_u, tc, nwl, wtrs, wake, 
-                                 wty, sor, cor, rmq_, late, lt_m, old_m, lt_mu, 
-                                 old_mu, lt_mu_, ww, old_mu_, sdl, scn, lt, rc, 
-                                 old_t, c, dl_, cn_, old_mu_w, lt_, first, 
-                                 out_, rc_, hadw, ata, so_, havel, tw, allr, 
-                                 omw, fca, sorw, all, old_c, tws, alr, rmq, dl, 
-                                 cn, gen, old_cv, lt_c, rc_c, so, out, ndl, 
-                                 old, wq, dw, k >>
+                                 ip, mw, pool, nalloc, nq, muFreed, refs, 
+                                 nwalive, taint3, stack, lt_l, clear, old_, 
+                                 zlo, zhi, wcnt, lw, lt_u, old_u, tc, nwl, 
+                                 wtrs, wake, wty, sor, cor, rmq_, late, lt_m, 
+                                 old_m, lt_mu, old_mu, lt_mu_, ww, old_mu_, 
+                                 sdl, scn, lt, rc, old_t, c, dl_, cn_, 
+                                 old_mu_w, lt_, first, out_, rc_, hadw, ata, 
+                                 so_, havel, tw, allr, omw, fca, sorw, all, 
+                                 old_c, tws, alr, rmq, dl, cn, gen, old_cv, 
+                                 lt_c, rc_c, so, out, ndl, old, wq, dw, k >>
 
 us_merge_l(self) == /\ pc[self] = "us_merge_l"
                     /\ sc' = Merge(sc, wc, Last(wtrs[self]), First(nwl[self]))
@@ -1289,7 +1301,7 @@ us_merge_l(self) == /\ pc[self] = "us_merge_l"
                     /\ UNCHANGED << word, cvword, cvq, waiting, rmc, cvmu, wl, 
                                     wc, nww, nwsem, sem, data, now, note, nreg, 
                                     held, ret, sres, picked, sleeps, inlock, 
-                                    ip, mw, pool, nalloc, muFreed, refs, 
+                                    ip, mw, pool, nalloc, nq, muFreed, refs, 
                                     nwalive, taint3, stack, lt_l, clear, old_, 
                                     zlo, zhi, wcnt, lw, lt_u, old_u, tc, wake, 
                                     wty, sor, cor, rmq_, late, lt_m, old_m, 
@@ -1306,16 +1318,16 @@ us_4_ld(self) == /\ pc[self] = "us_4_ld"
                  /\ UNCHANGED << word, queue, cvword, cvq, waiting, rmc, cvmu, 
                                  wl, wc, sc, nww, nwsem, sem, data, now, note, 
                                  nreg, held, ret, sres, picked, sleeps, inlock, 
-                                 ip, mw, pool, nalloc, muFreed, refs, nwalive, 
-                                 taint3, stack, lt_l, clear, old_, zlo, zhi, 
-                                 wcnt, lw, lt_u, tc, nwl, wtrs, wake, wty, sor, 
-                                 cor, rmq_, late, lt_m, old_m, lt_mu, old_mu, 
-                                 lt_mu_, ww, old_mu_, sdl, scn, lt, rc, old_t, 
-                                 c, dl_, cn_, old_mu_w, lt_, first, out_, rc_, 
-                                 hadw, ata, so_, havel, tw, allr, omw, fca, 
-                                 sorw, all, old_c, tws, alr, rmq, dl, cn, gen, 
-                                 old_cv, lt_c, rc_c, so, out, ndl, old, wq, dw, 
-                                 k >>
+                                 ip, mw, pool, nalloc, nq, muFreed, refs, 
+                                 nwalive, taint3, stack, lt_l, clear, old_, 
+                                 zlo, zhi, wcnt, lw, lt_u, tc, nwl, wtrs, wake, 
+                                 wty, sor, cor, rmq_, late, lt_m, old_m, lt_mu, 
+                                 old_mu, lt_mu_, ww, old_mu_, sdl, scn, lt, rc, 
+                                 old_t, c, dl_, cn_, old_mu_w, lt_, first, 
+                                 out_, rc_, hadw, ata, so_, havel, tw, allr, 
+                                 omw, fca, sorw, all, old_c, tws, alr, rmq, dl, 
+                                 cn, gen, old_cv, lt_c, rc_c, so, out, ndl, 
+                                 old, wq, dw, k >>
 
 us_5_cas(self) == /\ pc[self] = "us_5_cas"
                   /\ IF word = old_u[self]
@@ -1345,15 +1357,15 @@ us_5_cas(self) == /\ pc[self] = "us_5_cas"
                   /\ UNCHANGED << queue, cvword, cvq, waiting, rmc, cvmu, wl, 
                                   wc, sc, nww, nwsem, sem, data, now, note, 
                                   nreg, held, ret, sres, picked, sleeps, 
-                                  inlock, ip, mw, pool, nalloc, muFreed, refs, 
-                                  nwalive, taint3, lt_l, clear, old_, zlo, zhi, 
-                                  wcnt, lw, lt_m, old_m, lt_mu, old_mu, lt_mu_, 
-                                  ww, old_mu_, sdl, scn, lt, rc, old_t, c, dl_, 
-                                  cn_, old_mu_w, lt_, first, out_, rc_, hadw, 
-                                  ata, so_, havel, tw, allr, omw, fca, sorw, 
-                                  all, old_c, tws, alr, rmq, dl, cn, gen, 
-                                  old_cv, lt_c, rc_c, so, out, ndl, old, wq, 
-                                  dw, k >>
+                                  inlock, ip, mw, pool, nalloc, nq, muFreed, 
+                                  refs, nwalive, taint3, lt_l, clear, old_, 
+                                  zlo, zhi, wcnt, lw, lt_m, old_m, lt_mu, 
+                                  old_mu, lt_mu_, ww, old_mu_, sdl, scn, lt, 
+                                  rc, old_t, c, dl_, cn_, old_mu_w, lt_, first, 
+                                  out_, rc_, hadw, ata, so_, havel, tw, allr, 
+                                  omw, fca, sorw, all, old_c, tws, alr, rmq, 
+                                  dl, cn, gen, old_cv, lt_c, rc_c, so, out, 
+                                  ndl, old, wq, dw, k >>
 
 us_6_st(self) == /\ pc[self] = "us_6_st"
                  /\ waiting' = [waiting EXCEPT ![Head(wake[self])] = 0]
@@ -1361,7 +1373,7 @@ us_6_st(self) == /\ pc[self] = "us_6_st"
                  /\ UNCHANGED << word, queue, cvword, cvq, rmc, cvmu, wl, wc, 
                                  sc, nww, nwsem, sem, data, now, note, nreg, 
                                  held, ret, sres, picked, sleeps, inlock, ip, 
-                                 mw, pool, nalloc, muFreed, refs, nwalive, 
+                                 mw, pool, nalloc, nq, muFreed, refs, nwalive, 
                                  taint3, stack, lt_l, clear, old_, zlo, zhi, 
                                  wcnt, lw, lt_u, old_u, tc, nwl, wtrs, wake, 
                                  wty, sor, cor, rmq_, late, lt_m, old_m, lt_mu, 
@@ -1395,7 +1407,7 @@ us_7_v(self) == /\ pc[self] = "us_7_v"
                 /\ UNCHANGED << word, queue, cvword, cvq, waiting, rmc, cvmu, 
                                 wl, wc, sc, nww, nwsem, data, now, note, nreg, 
                                 held, ret, sres, picked, sleeps, inlock, ip, 
-                                mw, pool, nalloc, muFreed, refs, nwalive, 
+                                mw, pool, nalloc, nq, muFreed, refs, nwalive, 
                                 taint3, lt_l, clear, old_, zlo, zhi, wcnt, lw, 
                                 lt_m, old_m, lt_mu, old_mu, lt_mu_, ww, 
                                 old_mu_, sdl, scn, lt, rc, old_t, c, dl_, cn_, 
@@ -1430,11 +1442,11 @@ lk_1_cas(self) == /\ pc[self] = "lk_1_cas"
                   /\ UNCHANGED << queue, cvword, cvq, waiting, rmc, cvmu, wl, 
                                   wc, sc, nww, nwsem, sem, data, now, note, 
                                   nreg, ret, sres, picked, sleeps, ip, mw, 
-                                  pool, nalloc, muFreed, refs, nwalive, taint3, 
-                                  lt_l, clear, old_, zlo, zhi, wcnt, lw, lt_u, 
-                                  old_u, tc, nwl, wtrs, wake, wty, sor, cor, 
-                                  rmq_, late, lt_mu, old_mu, lt_mu_, ww, 
-                                  old_mu_, sdl, scn, lt, rc, old_t, c, dl_, 
+                                  pool, nalloc, nq, muFreed, refs, nwalive, 
+                                  taint3, lt_l, clear, old_, zlo, zhi, wcnt, 
+                                  lw, lt_u, old_u, tc, nwl, wtrs, wake, wty, 
+                                  sor, cor, rmq_, late, lt_mu, old_mu, lt_mu_, 
+                                  ww, old_mu_, sdl, scn, lt, rc, old_t, c, dl_, 
                                   cn_, old_mu_w, lt_, first, out_, rc_, hadw, 
                                   ata, so_, havel, tw, allr, omw, fca, sorw, 
                                   all, old_c, tws, alr, rmq, dl, cn, gen, 
@@ -1479,7 +1491,7 @@ lk_2_ld(self) == /\ pc[self] = "lk_2_ld"
                  /\ UNCHANGED << word, queue, cvword, cvq, waiting, rmc, cvmu, 
                                  wl, wc, sc, nww, nwsem, sem, data, now, note, 
                                  nreg, held, ret, sres, picked, sleeps, inlock, 
-                                 ip, muFreed, refs, nwalive, taint3, lt_u, 
+                                 ip, nq, muFreed, refs, nwalive, taint3, lt_u, 
                                  old_u, tc, nwl, wtrs, wake, wty, sor, cor, 
                                  rmq_, late, lt_m, lt_mu, old_mu, lt_mu_, ww, 
                                  old_mu_, sdl, scn, lt, rc, old_t, c, dl_, cn_, 
@@ -1531,15 +1543,15 @@ lk_3_cas(self) == /\ pc[self] = "lk_3_cas"
                              /\ UNCHANGED << word, held, inlock, lt_m >>
                   /\ UNCHANGED << queue, cvword, cvq, waiting, rmc, cvmu, wl, 
                                   wc, sc, nww, nwsem, sem, data, now, note, 
-                                  nreg, ret, sres, picked, sleeps, ip, muFreed, 
-                                  refs, nwalive, taint3, lt_u, old_u, tc, nwl, 
-                                  wtrs, wake, wty, sor, cor, rmq_, late, lt_mu, 
-                                  old_mu, lt_mu_, ww, old_mu_, sdl, scn, lt, 
-                                  rc, old_t, c, dl_, cn_, old_mu_w, lt_, first, 
-                                  out_, rc_, hadw, ata, so_, havel, tw, allr, 
-                                  omw, fca, sorw, all, old_c, tws, alr, rmq, 
-                                  dl, cn, gen, old_cv, lt_c, rc_c, so, out, 
-                                  ndl, old, wq, dw, k >>
+                                  nreg, ret, sres, picked, sleeps, ip, nq, 
+                                  muFreed, refs, nwalive, taint3, lt_u, old_u, 
+                                  tc, nwl, wtrs, wake, wty, sor, cor, rmq_, 
+                                  late, lt_mu, old_mu, lt_mu_, ww, old_mu_, 
+                                  sdl, scn, lt, rc, old_t, c, dl_, cn_, 
+                                  old_mu_w, lt_, first, out_, rc_, hadw, ata, 
+                                  so_, havel, tw, allr, omw, fca, sorw, all, 
+                                  old_c, tws, alr, rmq, dl, cn, gen, old_cv, 
+                                  lt_c, rc_c, so, out, ndl, old, wq, dw, k >>
 
 mu_lock(self) == lk_1_cas(self) \/ lk_2_ld(self) \/ lk_3_cas(self)
 
@@ -1558,15 +1570,16 @@ tl_1_cas(self) == /\ pc[self] = "tl_1_cas"
                   /\ UNCHANGED << queue, cvword, cvq, waiting, rmc, cvmu, wl, 
                                   wc, sc, nww, nwsem, sem, data, now, note, 
                                   nreg, sres, picked, sleeps, inlock, ip, mw, 
-                                  pool, nalloc, muFreed, refs, nwalive, taint3, 
-                                  lt_l, clear, old_, zlo, zhi, wcnt, lw, lt_u, 
-                                  old_u, tc, nwl, wtrs, wake, wty, sor, cor, 
-                                  rmq_, late, lt_m, old_m, lt_mu_, ww, old_mu_, 
-                                  sdl, scn, lt, rc, old_t, c, dl_, cn_, 
-                                  old_mu_w, lt_, first, out_, rc_, hadw, ata, 
-                                  so_, havel, tw, allr, omw, fca, sorw, all, 
-                                  old_c, tws, alr, rmq, dl, cn, gen, old_cv, 
-                                  lt_c, rc_c, so, out, ndl, old, wq, dw, k >>
+                                  pool, nalloc, nq, muFreed, refs, nwalive, 
+                                  taint3, lt_l, clear, old_, zlo, zhi, wcnt, 
+                                  lw, lt_u, old_u, tc, nwl, wtrs, wake, wty, 
+                                  sor, cor, rmq_, late, lt_m, old_m, lt_mu_, 
+                                  ww, old_mu_, sdl, scn, lt, rc, old_t, c, dl_, 
+                                  cn_, old_mu_w, lt_, first, out_, rc_, hadw, 
+                                  ata, so_, havel, tw, allr, omw, fca, sorw, 
+                                  all, old_c, tws, alr, rmq, dl, cn, gen, 
+                                  old_cv, lt_c, rc_c, so, out, ndl, old, wq, 
+                                  dw, k >>
 
 tl_2_ld(self) == /\ pc[self] = "tl_2_ld"
                  /\ IF AndZ(word, IF lt_mu[self] = 1 THEN WZLO ELSE RZLO, IF lt_mu[self] = 1 THEN WZHI ELSE RZHI) # 0
@@ -1581,7 +1594,7 @@ tl_2_ld(self) == /\ pc[self] = "tl_2_ld"
                  /\ UNCHANGED << word, queue, cvword, cvq, waiting, rmc, cvmu, 
                                  wl, wc, sc, nww, nwsem, sem, data, now, note, 
                                  nreg, held, sres, picked, sleeps, inlock, ip, 
-                                 mw, pool, nalloc, muFreed, refs, nwalive, 
+                                 mw, pool, nalloc, nq, muFreed, refs, nwalive, 
                                  taint3, lt_l, clear, old_, zlo, zhi, wcnt, lw, 
                                  lt_u, old_u, tc, nwl, wtrs, wake, wty, sor, 
                                  cor, rmq_, late, lt_m, old_m, lt_mu_, ww, 
@@ -1609,15 +1622,16 @@ tl_3_cas(self) == /\ pc[self] = "tl_3_cas"
                   /\ UNCHANGED << queue, cvword, cvq, waiting, rmc, cvmu, wl, 
                                   wc, sc, nww, nwsem, sem, data, now, note, 
                                   nreg, sres, picked, sleeps, inlock, ip, mw, 
-                                  pool, nalloc, muFreed, refs, nwalive, taint3, 
-                                  lt_l, clear, old_, zlo, zhi, wcnt, lw, lt_u, 
-                                  old_u, tc, nwl, wtrs, wake, wty, sor, cor, 
-                                  rmq_, late, lt_m, old_m, lt_mu_, ww, old_mu_, 
-                                  sdl, scn, lt, rc, old_t, c, dl_, cn_, 
-                                  old_mu_w, lt_, first, out_, rc_, hadw, ata, 
-                                  so_, havel, tw, allr, omw, fca, sorw, all, 
-                                  old_c, tws, alr, rmq, dl, cn, gen, old_cv, 
-                                  lt_c, rc_c, so, out, ndl, old, wq, dw, k >>
+                                  pool, nalloc, nq, muFreed, refs, nwalive, 
+                                  taint3, lt_l, clear, old_, zlo, zhi, wcnt, 
+                                  lw, lt_u, old_u, tc, nwl, wtrs, wake, wty, 
+                                  sor, cor, rmq_, late, lt_m, old_m, lt_mu_, 
+                                  ww, old_mu_, sdl, scn, lt, rc, old_t, c, dl_, 
+                                  cn_, old_mu_w, lt_, first, out_, rc_, hadw, 
+                                  ata, so_, havel, tw, allr, omw, fca, sorw, 
+                                  all, old_c, tws, alr, rmq, dl, cn, gen, 
+                                  old_cv, lt_c, rc_c, so, out, ndl, old, wq, 
+                                  dw, k >>
 
 mu_trylock(self) == tl_1_cas(self) \/ tl_2_ld(self) \/ tl_3_cas(self)
 
@@ -1634,16 +1648,16 @@ ul_1_cas(self) == /\ pc[self] = "ul_1_cas"
                   /\ UNCHANGED << queue, cvword, cvq, waiting, rmc, cvmu, wl, 
                                   wc, sc, nww, nwsem, sem, data, now, note, 
                                   nreg, held, ret, sres, picked, sleeps, 
-                                  inlock, ip, mw, pool, nalloc, muFreed, refs, 
-                                  nwalive, taint3, lt_l, clear, old_, zlo, zhi, 
-                                  wcnt, lw, lt_u, old_u, tc, nwl, wtrs, wake, 
-                                  wty, sor, cor, rmq_, late, lt_m, old_m, 
-                                  lt_mu, old_mu, sdl, scn, lt, rc, old_t, c, 
-                                  dl_, cn_, old_mu_w, lt_, first, out_, rc_, 
-                                  hadw, ata, so_, havel, tw, allr, omw, fca, 
-                                  sorw, all, old_c, tws, alr, rmq, dl, cn, gen, 
-                                  old_cv, lt_c, rc_c, so, out, ndl, old, wq, 
-                                  dw, k >>
+                                  inlock, ip, mw, pool, nalloc, nq, muFreed, 
+                                  refs, nwalive, taint3, lt_l, clear, old_, 
+                                  zlo, zhi, wcnt, lw, lt_u, old_u, tc, nwl, 
+                                  wtrs, wake, wty, sor, cor, rmq_, late, lt_m, 
+                                  old_m, lt_mu, old_mu, sdl, scn, lt, rc, 
+                                  old_t, c, dl_, cn_, old_mu_w, lt_, first, 
+                                  out_, rc_, hadw, ata, so_, havel, tw, allr, 
+                                  omw, fca, sorw, all, old_c, tws, alr, rmq, 
+                                  dl, cn, gen, old_cv, lt_c, rc_c, so, out, 
+                                  ndl, old, wq, dw, k >>
 
 ul_2_ld(self) == /\ pc[self] = "ul_2_ld"
                  /\ IF lt_mu_[self] = 1 /\ ~ww[self] /\ (word & (WAITING + DESIG)) = WAITING
@@ -1741,14 +1755,14 @@ ul_2_ld(self) == /\ pc[self] = "ul_2_ld"
                  /\ UNCHANGED << word, queue, cvword, cvq, waiting, rmc, cvmu, 
                                  wl, wc, sc, nww, nwsem, sem, data, now, note, 
                                  nreg, held, ret, sres, picked, sleeps, inlock, 
-                                 ip, mw, pool, nalloc, muFreed, refs, nwalive, 
-                                 taint3, lt_l, clear, old_, zlo, zhi, wcnt, lw, 
-                                 lt_m, old_m, lt_mu, old_mu, lt_mu_, ww, sdl, 
-                                 scn, lt, rc, old_t, c, dl_, cn_, old_mu_w, 
-                                 lt_, first, out_, rc_, hadw, ata, so_, havel, 
-                                 tw, allr, omw, fca, sorw, all, old_c, tws, 
-                                 alr, rmq, dl, cn, gen, old_cv, lt_c, rc_c, so, 
-                                 out, ndl, old, wq, dw, k >>
+                                 ip, mw, pool, nalloc, nq, muFreed, refs, 
+                                 nwalive, taint3, lt_l, clear, old_, zlo, zhi, 
+                                 wcnt, lw, lt_m, old_m, lt_mu, old_mu, lt_mu_, 
+                                 ww, sdl, scn, lt, rc, old_t, c, dl_, cn_, 
+                                 old_mu_w, lt_, first, out_, rc_, hadw, ata, 
+                                 so_, havel, tw, allr, omw, fca, sorw, all, 
+                                 old_c, tws, alr, rmq, dl, cn, gen, old_cv, 
+                                 lt_c, rc_c, so, out, ndl, old, wq, dw, k >>
 
 ul_3_cas(self) == /\ pc[self] = "ul_3_cas"
                   /\ IF word = old_mu_[self]
@@ -1791,14 +1805,14 @@ ul_3_cas(self) == /\ pc[self] = "ul_3_cas"
                   /\ UNCHANGED << queue, cvword, cvq, waiting, rmc, cvmu, wl, 
                                   wc, sc, nww, nwsem, sem, data, now, note, 
                                   nreg, held, ret, sres, picked, sleeps, 
-                                  inlock, ip, mw, pool, nalloc, muFreed, refs, 
-                                  nwalive, taint3, lt_l, clear, old_, zlo, zhi, 
-                                  wcnt, lw, lt_m, old_m, lt_mu, old_mu, sdl, 
-                                  scn, lt, rc, old_t, c, dl_, cn_, old_mu_w, 
-                                  lt_, first, out_, rc_, hadw, ata, so_, havel, 
-                                  tw, allr, omw, fca, sorw, all, old_c, tws, 
-                                  alr, rmq, dl, cn, gen, old_cv, lt_c, rc_c, 
-                                  so, out, ndl, old, wq, dw, k >>
+                                  inlock, ip, mw, pool, nalloc, nq, muFreed, 
+                                  refs, nwalive, taint3, lt_l, clear, old_, 
+                                  zlo, zhi, wcnt, lw, lt_m, old_m, lt_mu, 
+                                  old_mu, sdl, scn, lt, rc, old_t, c, dl_, cn_, 
+                                  old_mu_w, lt_, first, out_, rc_, hadw, ata, 
+                                  so_, havel, tw, allr, omw, fca, sorw, all, 
+                                  old_c, tws, alr, rmq, dl, cn, gen, old_cv, 
+                                  lt_c, rc_c, so, out, ndl, old, wq, dw, k >>
 
 mu_unlock(self) == ul_1_cas(self) \/ ul_2_ld(self) \/ ul_3_cas(self)
 
@@ -1819,13 +1833,13 @@ sw_1_r(self) == /\ pc[self] = "sw_1_r"
                 /\ UNCHANGED << word, queue, cvword, cvq, waiting, rmc, cvmu, 
                                 wl, wc, sc, nww, nwsem, sem, data, now, note, 
                                 held, ret, picked, sleeps, inlock, ip, mw, 
-                                pool, nalloc, muFreed, refs, nwalive, taint3, 
-                                lt_l, clear, old_, zlo, zhi, wcnt, lw, lt_u, 
-                                old_u, tc, nwl, wtrs, wake, wty, sor, cor, 
-                                rmq_, late, lt_m, old_m, lt_mu, old_mu, lt_mu_, 
-                                ww, old_mu_, lt, rc, old_t, c, dl_, cn_, 
-                                old_mu_w, lt_, first, out_, rc_, hadw, ata, 
-                                so_, havel, tw, allr, omw, fca, sorw, all, 
+                                pool, nalloc, nq, muFreed, refs, nwalive, 
+                                taint3, lt_l, clear, old_, zlo, zhi, wcnt, lw, 
+                                lt_u, old_u, tc, nwl, wtrs, wake, wty, sor, 
+                                cor, rmq_, late, lt_m, old_m, lt_mu, old_mu, 
+                                lt_mu_, ww, old_mu_, lt, rc, old_t, c, dl_, 
+                                cn_, old_mu_w, lt_, first, out_, rc_, hadw, 
+                                ata, so_, havel, tw, allr, omw, fca, sorw, all, 
                                 old_c, tws, alr, rmq, dl, cn, gen, old_cv, 
                                 lt_c, rc_c, so, out, ndl, old, wq, dw, k >>
 
@@ -1844,15 +1858,16 @@ sw_2_pd(self) == /\ pc[self] = "sw_2_pd"
                  /\ UNCHANGED << word, queue, cvword, cvq, waiting, rmc, cvmu, 
                                  wl, wc, sc, nww, nwsem, data, now, note, held, 
                                  ret, picked, sleeps, inlock, ip, mw, pool, 
-                                 nalloc, muFreed, refs, nwalive, taint3, lt_l, 
-                                 clear, old_, zlo, zhi, wcnt, lw, lt_u, old_u, 
-                                 tc, nwl, wtrs, wake, wty, sor, cor, rmq_, 
-                                 late, lt_m, old_m, lt_mu, old_mu, lt_mu_, ww, 
-                                 old_mu_, lt, rc, old_t, c, dl_, cn_, old_mu_w, 
-                                 lt_, first, out_, rc_, hadw, ata, so_, havel, 
-                                 tw, allr, omw, fca, sorw, all, old_c, tws, 
-                                 alr, rmq, dl, cn, gen, old_cv, lt_c, rc_c, so, 
-                                 out, ndl, old, wq, dw, k >>
+                                 nalloc, nq, muFreed, refs, nwalive, taint3, 
+                                 lt_l, clear, old_, zlo, zhi, wcnt, lw, lt_u, 
+                                 old_u, tc, nwl, wtrs, wake, wty, sor, cor, 
+                                 rmq_, late, lt_m, old_m, lt_mu, old_mu, 
+                                 lt_mu_, ww, old_mu_, lt, rc, old_t, c, dl_, 
+                                 cn_, old_mu_w, lt_, first, out_, rc_, hadw, 
+                                 ata, so_, havel, tw, allr, omw, fca, sorw, 
+                                 all, old_c, tws, alr, rmq, dl, cn, gen, 
+                                 old_cv, lt_c, rc_c, so, out, ndl, old, wq, dw, 
+                                 k >>
 
 sem_wait(self) == sw_1_r(self) \/ sw_2_pd(self)
 
@@ -1866,16 +1881,16 @@ ta_1_ld(self) == /\ pc[self] = "ta_1_ld"
                  /\ UNCHANGED << word, queue, cvword, cvq, waiting, rmc, cvmu, 
                                  wl, wc, sc, nww, nwsem, sem, data, now, note, 
                                  nreg, held, ret, sres, picked, sleeps, inlock, 
-                                 ip, mw, pool, nalloc, muFreed, refs, nwalive, 
-                                 taint3, stack, lt_l, clear, old_, zlo, zhi, 
-                                 wcnt, lw, lt_u, old_u, tc, nwl, wtrs, wake, 
-                                 wty, sor, cor, rmq_, late, lt_m, old_m, lt_mu, 
-                                 old_mu, lt_mu_, ww, old_mu_, sdl, scn, lt, rc, 
-                                 c, dl_, cn_, old_mu_w, lt_, first, out_, rc_, 
-                                 hadw, ata, so_, havel, tw, allr, omw, fca, 
-                                 sorw, all, old_c, tws, alr, rmq, dl, cn, gen, 
-                                 old_cv, lt_c, rc_c, so, out, ndl, old, wq, dw, 
-                                 k >>
+                                 ip, mw, pool, nalloc, nq, muFreed, refs, 
+                                 nwalive, taint3, stack, lt_l, clear, old_, 
+                                 zlo, zhi, wcnt, lw, lt_u, old_u, tc, nwl, 
+                                 wtrs, wake, wty, sor, cor, rmq_, late, lt_m, 
+                                 old_m, lt_mu, old_mu, lt_mu_, ww, old_mu_, 
+                                 sdl, scn, lt, rc, c, dl_, cn_, old_mu_w, lt_, 
+                                 first, out_, rc_, hadw, ata, so_, havel, tw, 
+                                 allr, omw, fca, sorw, all, old_c, tws, alr, 
+                                 rmq, dl, cn, gen, old_cv, lt_c, rc_c, so, out, 
+                                 ndl, old, wq, dw, k >>
 
 ta_2_cas(self) == /\ pc[self] = "ta_2_cas"
                   /\ IF word = old_t[self]
@@ -1888,16 +1903,17 @@ ta_2_cas(self) == /\ pc[self] = "ta_2_cas"
                   /\ UNCHANGED << queue, cvword, cvq, waiting, rmc, cvmu, wl, 
                                   wc, sc, nww, nwsem, sem, data, now, note, 
                                   nreg, held, ret, sres, picked, sleeps, 
-                                  inlock, ip, mw, pool, nalloc, muFreed, refs, 
-                                  nwalive, taint3, stack, lt_l, clear, old_, 
-                                  zlo, zhi, wcnt, lw, lt_u, old_u, tc, nwl, 
-                                  wtrs, wake, wty, sor, cor, rmq_, late, lt_m, 
-                                  old_m, lt_mu, old_mu, lt_mu_, ww, old_mu_, 
-                                  sdl, scn, lt, rc, old_t, c, dl_, cn_, 
-                                  old_mu_w, lt_, first, out_, rc_, hadw, ata, 
-                                  so_, havel, tw, allr, omw, fca, sorw, all, 
-                                  old_c, tws, alr, rmq, dl, cn, gen, old_cv, 
-                                  lt_c, rc_c, so, out, ndl, old, wq, dw, k >>
+                                  inlock, ip, mw, pool, nalloc, nq, muFreed, 
+                                  refs, nwalive, taint3, stack, lt_l, clear, 
+                                  old_, zlo, zhi, wcnt, lw, lt_u, old_u, tc, 
+                                  nwl, wtrs, wake, wty, sor, cor, rmq_, late, 
+                                  lt_m, old_m, lt_mu, old_mu, lt_mu_, ww, 
+                                  old_mu_, sdl, scn, lt, rc, old_t, c, dl_, 
+                                  cn_, old_mu_w, lt_, first, out_, rc_, hadw, 
+                                  ata, so_, havel, tw, allr, omw, fca, sorw, 
+                                  all, old_c, tws, alr, rmq, dl, cn, gen, 
+                                  old_cv, lt_c, rc_c, so, out, ndl, old, wq, 
+                                  dw, k >>
 
 ta_3_cas(self) == /\ pc[self] = "ta_3_cas"
                   /\ IF word = old_t[self]
@@ -1908,23 +1924,24 @@ ta_3_cas(self) == /\ pc[self] = "ta_3_cas"
                   /\ UNCHANGED << queue, cvword, cvq, waiting, rmc, cvmu, wl, 
                                   wc, sc, nww, nwsem, sem, data, now, note, 
                                   nreg, held, ret, sres, picked, sleeps, 
-                                  inlock, ip, mw, pool, nalloc, muFreed, refs, 
-                                  nwalive, taint3, stack, lt_l, clear, old_, 
-                                  zlo, zhi, wcnt, lw, lt_u, old_u, tc, nwl, 
-                                  wtrs, wake, wty, sor, cor, rmq_, late, lt_m, 
-                                  old_m, lt_mu, old_mu, lt_mu_, ww, old_mu_, 
-                                  sdl, scn, lt, rc, old_t, c, dl_, cn_, 
-                                  old_mu_w, lt_, first, out_, rc_, hadw, ata, 
-                                  so_, havel, tw, allr, omw, fca, sorw, all, 
-                                  old_c, tws, alr, rmq, dl, cn, gen, old_cv, 
-                                  lt_c, rc_c, so, out, ndl, old, wq, dw, k >>
+                                  inlock, ip, mw, pool, nalloc, nq, muFreed, 
+                                  refs, nwalive, taint3, stack, lt_l, clear, 
+                                  old_, zlo, zhi, wcnt, lw, lt_u, old_u, tc, 
+                                  nwl, wtrs, wake, wty, sor, cor, rmq_, late, 
+                                  lt_m, old_m, lt_mu, old_mu, lt_mu_, ww, 
+                                  old_mu_, sdl, scn, lt, rc, old_t, c, dl_, 
+                                  cn_, old_mu_w, lt_, first, out_, rc_, hadw, 
+                                  ata, so_, havel, tw, allr, omw, fca, sorw, 
+                                  all, old_c, tws, alr, rmq, dl, cn, gen, 
+                                  old_cv, lt_c, rc_c, so, out, ndl, old, wq, 
+                                  dw, k >>
 
 ta_d(self) == /\ pc[self] = "ta_d"
               /\ pc' = [pc EXCEPT ![self] = "ta_1_ld"]
               /\ UNCHANGED << word, queue, cvword, cvq, waiting, rmc, cvmu, wl, 
                               wc, sc, nww, nwsem, sem, data, now, note, nreg, 
                               held, ret, sres, picked, sleeps, inlock, ip, mw, 
-                              pool, nalloc, muFreed, refs, nwalive, taint3, 
+                              pool, nalloc, nq, muFreed, refs, nwalive, taint3, 
                               stack, lt_l, clear, old_, zlo, zhi, wcnt, lw, 
                               lt_u, old_u, tc, nwl, wtrs, wake, wty, sor, cor, 
                               rmq_, late, lt_m, old_m, lt_mu, old_mu, lt_mu_, 
@@ -1941,16 +1958,16 @@ ta_5_ld(self) == /\ pc[self] = "ta_5_ld"
                  /\ UNCHANGED << word, queue, cvword, cvq, waiting, rmc, cvmu, 
                                  wl, wc, sc, nww, nwsem, sem, data, now, note, 
                                  nreg, held, ret, sres, picked, sleeps, inlock, 
-                                 ip, mw, pool, nalloc, muFreed, refs, nwalive, 
-                                 taint3, stack, lt_l, clear, old_, zlo, zhi, 
-                                 wcnt, lw, lt_u, old_u, tc, nwl, wtrs, wake, 
-                                 wty, sor, cor, rmq_, late, lt_m, old_m, lt_mu, 
-                                 old_mu, lt_mu_, ww, old_mu_, sdl, scn, lt, rc, 
-                                 old_t, c, dl_, cn_, old_mu_w, lt_, first, 
-                                 out_, rc_, hadw, ata, so_, havel, tw, allr, 
-                                 omw, fca, sorw, all, old_c, tws, alr, rmq, dl, 
-                                 cn, gen, old_cv, lt_c, rc_c, so, out, ndl, 
-                                 old, wq, dw, k >>
+                                 ip, mw, pool, nalloc, nq, muFreed, refs, 
+                                 nwalive, taint3, stack, lt_l, clear, old_, 
+                                 zlo, zhi, wcnt, lw, lt_u, old_u, tc, nwl, 
+                                 wtrs, wake, wty, sor, cor, rmq_, late, lt_m, 
+                                 old_m, lt_mu, old_mu, lt_mu_, ww, old_mu_, 
+                                 sdl, scn, lt, rc, old_t, c, dl_, cn_, 
+                                 old_mu_w, lt_, first, out_, rc_, hadw, ata, 
+                                 so_, havel, tw, allr, omw, fca, sorw, all, 
+                                 old_c, tws, alr, rmq, dl, cn, gen, old_cv, 
+                                 lt_c, rc_c, so, out, ndl, old, wq, dw, k >>
 
 ta_6_ld(self) == /\ pc[self] = "ta_6_ld"
                  /\ IF rc[self] # rmc[W(self)]
@@ -1963,24 +1980,7 @@ ta_6_ld(self) == /\ pc[self] = "ta_6_ld"
                  /\ UNCHANGED << word, cvword, cvq, waiting, rmc, cvmu, wl, wc, 
                                  nww, nwsem, sem, data, now, note, nreg, held, 
                                  ret, sres, picked, sleeps, inlock, ip, mw, 
-                                 pool, nalloc, muFreed, refs, nwalive, taint3, 
-                                 stack, lt_l, clear, old_, zlo, zhi, wcnt, lw, 
-                                 lt_u, old_u, tc, nwl, wtrs, wake, wty, sor, 
-                                 cor, rmq_, late, lt_m, old_m, lt_mu, old_mu, 
-                                 lt_mu_, ww, old_mu_, sdl, scn, lt, rc, old_t, 
-                                 c, dl_, cn_, old_mu_w, lt_, first, out_, rc_, 
-                                 hadw, ata, so_, havel, tw, allr, omw, fca, 
-                                 sorw, all, old_c, tws, alr, rmq, dl, cn, gen, 
-                                 old_cv, lt_c, rc_c, so, out, ndl, old, wq, dw, 
-                                 k >>
-
-ta_7_ld(self) == /\ pc[self] = "ta_7_ld"
-                 /\ TRUE
-                 /\ pc' = [pc EXCEPT ![self] = "ta_7_cas"]
-                 /\ UNCHANGED << word, queue, cvword, cvq, waiting, rmc, cvmu, 
-                                 wl, wc, sc, nww, nwsem, sem, data, now, note, 
-                                 nreg, held, ret, sres, picked, sleeps, inlock, 
-                                 ip, mw, pool, nalloc, muFreed, refs, nwalive, 
+                                 pool, nalloc, nq, muFreed, refs, nwalive, 
                                  taint3, stack, lt_l, clear, old_, zlo, zhi, 
                                  wcnt, lw, lt_u, old_u, tc, nwl, wtrs, wake, 
                                  wty, sor, cor, rmq_, late, lt_m, old_m, lt_mu, 
@@ -1991,22 +1991,40 @@ ta_7_ld(self) == /\ pc[self] = "ta_7_ld"
                                  cn, gen, old_cv, lt_c, rc_c, so, out, ndl, 
                                  old, wq, dw, k >>
 
+ta_7_ld(self) == /\ pc[self] = "ta_7_ld"
+                 /\ TRUE
+                 /\ pc' = [pc EXCEPT ![self] = "ta_7_cas"]
+                 /\ UNCHANGED << word, queue, cvword, cvq, waiting, rmc, cvmu, 
+                                 wl, wc, sc, nww, nwsem, sem, data, now, note, 
+                                 nreg, held, ret, sres, picked, sleeps, inlock, 
+                                 ip, mw, pool, nalloc, nq, muFreed, refs, 
+                                 nwalive, taint3, stack, lt_l, clear, old_, 
+                                 zlo, zhi, wcnt, lw, lt_u, old_u, tc, nwl, 
+                                 wtrs, wake, wty, sor, cor, rmq_, late, lt_m, 
+                                 old_m, lt_mu, old_mu, lt_mu_, ww, old_mu_, 
+                                 sdl, scn, lt, rc, old_t, c, dl_, cn_, 
+                                 old_mu_w, lt_, first, out_, rc_, hadw, ata, 
+                                 so_, havel, tw, allr, omw, fca, sorw, all, 
+                                 old_c, tws, alr, rmq, dl, cn, gen, old_cv, 
+                                 lt_c, rc_c, so, out, ndl, old, wq, dw, k >>
+
 ta_7_cas(self) == /\ pc[self] = "ta_7_cas"
                   /\ rmc' = [rmc EXCEPT ![W(self)] = rmc[W(self)] + 1]
                   /\ pc' = [pc EXCEPT ![self] = "ta_8_st"]
                   /\ UNCHANGED << word, queue, cvword, cvq, waiting, cvmu, wl, 
                                   wc, sc, nww, nwsem, sem, data, now, note, 
                                   nreg, held, ret, sres, picked, sleeps, 
-                                  inlock, ip, mw, pool, nalloc, muFreed, refs, 
-                                  nwalive, taint3, stack, lt_l, clear, old_, 
-                                  zlo, zhi, wcnt, lw, lt_u, old_u, tc, nwl, 
-                                  wtrs, wake, wty, sor, cor, rmq_, late, lt_m, 
-                                  old_m, lt_mu, old_mu, lt_mu_, ww, old_mu_, 
-                                  sdl, scn, lt, rc, old_t, c, dl_, cn_, 
-                                  old_mu_w, lt_, first, out_, rc_, hadw, ata, 
-                                  so_, havel, tw, allr, omw, fca, sorw, all, 
-                                  old_c, tws, alr, rmq, dl, cn, gen, old_cv, 
-                                  lt_c, rc_c, so, out, ndl, old, wq, dw, k >>
+                                  inlock, ip, mw, pool, nalloc, nq, muFreed, 
+                                  refs, nwalive, taint3, stack, lt_l, clear, 
+                                  old_, zlo, zhi, wcnt, lw, lt_u, old_u, tc, 
+                                  nwl, wtrs, wake, wty, sor, cor, rmq_, late, 
+                                  lt_m, old_m, lt_mu, old_mu, lt_mu_, ww, 
+                                  old_mu_, sdl, scn, lt, rc, old_t, c, dl_, 
+                                  cn_, old_mu_w, lt_, first, out_, rc_, hadw, 
+                                  ata, so_, havel, tw, allr, omw, fca, sorw, 
+                                  all, old_c, tws, alr, rmq, dl, cn, gen, 
+                                  old_cv, lt_c, rc_c, so, out, ndl, old, wq, 
+                                  dw, k >>
 
 ta_8_st(self) == /\ pc[self] = "ta_8_st"
                  /\ waiting' = [waiting EXCEPT ![W(self)] = 0]
@@ -2014,7 +2032,7 @@ ta_8_st(self) == /\ pc[self] = "ta_8_st"
                  /\ UNCHANGED << word, queue, cvword, cvq, rmc, cvmu, wl, wc, 
                                  sc, nww, nwsem, sem, data, now, note, nreg, 
                                  held, ret, sres, picked, sleeps, inlock, ip, 
-                                 mw, pool, nalloc, muFreed, refs, nwalive, 
+                                 mw, pool, nalloc, nq, muFreed, refs, nwalive, 
                                  taint3, stack, lt_l, clear, old_, zlo, zhi, 
                                  wcnt, lw, lt_u, old_u, tc, nwl, wtrs, wake, 
                                  wty, sor, cor, rmq_, late, lt_m, old_m, lt_mu, 
@@ -2037,15 +2055,16 @@ ta_8b_st(self) == /\ pc[self] = "ta_8b_st"
                   /\ UNCHANGED << queue, cvword, cvq, waiting, rmc, cvmu, wl, 
                                   wc, sc, nww, nwsem, sem, data, now, note, 
                                   nreg, ret, picked, sleeps, inlock, ip, mw, 
-                                  pool, nalloc, muFreed, refs, nwalive, taint3, 
-                                  lt_l, clear, old_, zlo, zhi, wcnt, lw, lt_u, 
-                                  old_u, tc, nwl, wtrs, wake, wty, sor, cor, 
-                                  rmq_, late, lt_m, old_m, lt_mu, old_mu, 
-                                  lt_mu_, ww, old_mu_, sdl, scn, c, dl_, cn_, 
-                                  old_mu_w, lt_, first, out_, rc_, hadw, ata, 
-                                  so_, havel, tw, allr, omw, fca, sorw, all, 
-                                  old_c, tws, alr, rmq, dl, cn, gen, old_cv, 
-                                  lt_c, rc_c, so, out, ndl, old, wq, dw, k >>
+                                  pool, nalloc, nq, muFreed, refs, nwalive, 
+                                  taint3, lt_l, clear, old_, zlo, zhi, wcnt, 
+                                  lw, lt_u, old_u, tc, nwl, wtrs, wake, wty, 
+                                  sor, cor, rmq_, late, lt_m, old_m, lt_mu, 
+                                  old_mu, lt_mu_, ww, old_mu_, sdl, scn, c, 
+                                  dl_, cn_, old_mu_w, lt_, first, out_, rc_, 
+                                  hadw, ata, so_, havel, tw, allr, omw, fca, 
+                                  sorw, all, old_c, tws, alr, rmq, dl, cn, gen, 
+                                  old_cv, lt_c, rc_c, so, out, ndl, old, wq, 
+                                  dw, k >>
 
 ta_9_st(self) == /\ pc[self] = "ta_9_st"
                  /\ word' = old_t[self]
@@ -2058,7 +2077,7 @@ ta_9_st(self) == /\ pc[self] = "ta_9_st"
                  /\ UNCHANGED << queue, cvword, cvq, waiting, rmc, cvmu, wl, 
                                  wc, sc, nww, nwsem, sem, data, now, note, 
                                  nreg, held, ret, picked, sleeps, inlock, ip, 
-                                 mw, pool, nalloc, muFreed, refs, nwalive, 
+                                 mw, pool, nalloc, nq, muFreed, refs, nwalive, 
                                  taint3, lt_l, clear, old_, zlo, zhi, wcnt, lw, 
                                  lt_u, old_u, tc, nwl, wtrs, wake, wty, sor, 
                                  cor, rmq_, late, lt_m, old_m, lt_mu, old_mu, 
@@ -2109,10 +2128,10 @@ mw_1_ld(self) == /\ pc[self] = "mw_1_ld"
                  /\ UNCHANGED << word, queue, cvword, cvq, waiting, rmc, cvmu, 
                                  wl, wc, sc, nww, nwsem, sem, data, now, note, 
                                  nreg, held, sres, picked, sleeps, inlock, ip, 
-                                 muFreed, refs, nwalive, taint3, lt_l, clear, 
-                                 old_, zlo, zhi, wcnt, lw, lt_u, old_u, tc, 
-                                 nwl, wtrs, wake, wty, sor, cor, rmq_, late, 
-                                 lt_m, old_m, lt_mu, old_mu, lt_mu_, ww, 
+                                 nq, muFreed, refs, nwalive, taint3, lt_l, 
+                                 clear, old_, zlo, zhi, wcnt, lw, lt_u, old_u, 
+                                 tc, nwl, wtrs, wake, wty, sor, cor, rmq_, 
+                                 late, lt_m, old_m, lt_mu, old_mu, lt_mu_, ww, 
                                  old_mu_, sdl, scn, lt, rc, old_t, tw, allr, 
                                  omw, fca, sorw, all, old_c, tws, alr, rmq, dl, 
                                  cn, gen, old_cv, lt_c, rc_c, so, out, ndl, 
@@ -2127,15 +2146,16 @@ mw_2_st(self) == /\ pc[self] = "mw_2_st"
                  /\ UNCHANGED << word, queue, cvword, cvq, rmc, sc, nww, nwsem, 
                                  sem, data, now, note, nreg, held, ret, sres, 
                                  picked, sleeps, inlock, ip, mw, pool, nalloc, 
-                                 muFreed, refs, nwalive, taint3, stack, lt_l, 
-                                 clear, old_, zlo, zhi, wcnt, lw, lt_u, old_u, 
-                                 tc, nwl, wtrs, wake, wty, sor, cor, rmq_, 
-                                 late, lt_m, old_m, lt_mu, old_mu, lt_mu_, ww, 
-                                 old_mu_, sdl, scn, lt, rc, old_t, c, dl_, cn_, 
-                                 old_mu_w, lt_, first, out_, rc_, hadw, ata, 
-                                 so_, havel, tw, allr, omw, fca, sorw, all, 
-                                 old_c, tws, alr, rmq, dl, cn, gen, old_cv, 
-                                 lt_c, rc_c, so, out, ndl, old, wq, dw, k >>
+                                 nq, muFreed, refs, nwalive, taint3, stack, 
+                                 lt_l, clear, old_, zlo, zhi, wcnt, lw, lt_u, 
+                                 old_u, tc, nwl, wtrs, wake, wty, sor, cor, 
+                                 rmq_, late, lt_m, old_m, lt_mu, old_mu, 
+                                 lt_mu_, ww, old_mu_, sdl, scn, lt, rc, old_t, 
+                                 c, dl_, cn_, old_mu_w, lt_, first, out_, rc_, 
+                                 hadw, ata, so_, havel, tw, allr, omw, fca, 
+                                 sorw, all, old_c, tws, alr, rmq, dl, cn, gen, 
+                                 old_cv, lt_c, rc_c, so, out, ndl, old, wq, dw, 
+                                 k >>
 
 mw_3_ld(self) == /\ pc[self] = "mw_3_ld"
                  /\ rc_' = [rc_ EXCEPT ![self] = rmc[W(self)]]
@@ -2143,16 +2163,16 @@ mw_3_ld(self) == /\ pc[self] = "mw_3_ld"
                  /\ UNCHANGED << word, queue, cvword, cvq, waiting, rmc, cvmu, 
                                  wl, wc, sc, nww, nwsem, sem, data, now, note, 
                                  nreg, held, ret, sres, picked, sleeps, inlock, 
-                                 ip, mw, pool, nalloc, muFreed, refs, nwalive, 
-                                 taint3, stack, lt_l, clear, old_, zlo, zhi, 
-                                 wcnt, lw, lt_u, old_u, tc, nwl, wtrs, wake, 
-                                 wty, sor, cor, rmq_, late, lt_m, old_m, lt_mu, 
-                                 old_mu, lt_mu_, ww, old_mu_, sdl, scn, lt, rc, 
-                                 old_t, c, dl_, cn_, old_mu_w, lt_, first, 
-                                 out_, hadw, ata, so_, havel, tw, allr, omw, 
-                                 fca, sorw, all, old_c, tws, alr, rmq, dl, cn, 
-                                 gen, old_cv, lt_c, rc_c, so, out, ndl, old, 
-                                 wq, dw, k >>
+                                 ip, mw, pool, nalloc, nq, muFreed, refs, 
+                                 nwalive, taint3, stack, lt_l, clear, old_, 
+                                 zlo, zhi, wcnt, lw, lt_u, old_u, tc, nwl, 
+                                 wtrs, wake, wty, sor, cor, rmq_, late, lt_m, 
+                                 old_m, lt_mu, old_mu, lt_mu_, ww, old_mu_, 
+                                 sdl, scn, lt, rc, old_t, c, dl_, cn_, 
+                                 old_mu_w, lt_, first, out_, hadw, ata, so_, 
+                                 havel, tw, allr, omw, fca, sorw, all, old_c, 
+                                 tws, alr, rmq, dl, cn, gen, old_cv, lt_c, 
+                                 rc_c, so, out, ndl, old, wq, dw, k >>
 
 mw_4_ld(self) == /\ pc[self] = "mw_4_ld"
                  /\ old_mu_w' = [old_mu_w EXCEPT ![self] = word]
@@ -2162,16 +2182,16 @@ mw_4_ld(self) == /\ pc[self] = "mw_4_ld"
                  /\ UNCHANGED << word, queue, cvword, cvq, waiting, rmc, cvmu, 
                                  wl, wc, sc, nww, nwsem, sem, data, now, note, 
                                  nreg, held, ret, sres, picked, sleeps, inlock, 
-                                 ip, mw, pool, nalloc, muFreed, refs, nwalive, 
-                                 taint3, stack, lt_l, clear, old_, zlo, zhi, 
-                                 wcnt, lw, lt_u, old_u, tc, nwl, wtrs, wake, 
-                                 wty, sor, cor, rmq_, late, lt_m, old_m, lt_mu, 
-                                 old_mu, lt_mu_, ww, old_mu_, sdl, scn, lt, rc, 
-                                 old_t, c, dl_, cn_, lt_, first, out_, rc_, 
-                                 hadw, ata, so_, havel, tw, allr, omw, fca, 
-                                 sorw, all, old_c, tws, alr, rmq, dl, cn, gen, 
-                                 old_cv, lt_c, rc_c, so, out, ndl, old, wq, dw, 
-                                 k >>
+                                 ip, mw, pool, nalloc, nq, muFreed, refs, 
+                                 nwalive, taint3, stack, lt_l, clear, old_, 
+                                 zlo, zhi, wcnt, lw, lt_u, old_u, tc, nwl, 
+                                 wtrs, wake, wty, sor, cor, rmq_, late, lt_m, 
+                                 old_m, lt_mu, old_mu, lt_mu_, ww, old_mu_, 
+                                 sdl, scn, lt, rc, old_t, c, dl_, cn_, lt_, 
+                                 first, out_, rc_, hadw, ata, so_, havel, tw, 
+                                 allr, omw, fca, sorw, all, old_c, tws, alr, 
+                                 rmq, dl, cn, gen, old_cv, lt_c, rc_c, so, out, 
+                                 ndl, old, wq, dw, k >>
 
 mw_5_cas(self) == /\ pc[self] = "mw_5_cas"
                   /\ IF word = old_mu_w[self]
@@ -2180,13 +2200,15 @@ mw_5_cas(self) == /\ pc[self] = "mw_5_cas"
                              /\ IF first[self]
                                    THEN /\ sc' = Merge(sc, wc, Last(queue), W(self))
                                         /\ queue' = Append(queue, W(self))
+                                        /\ nq' = (IF nq < N THEN nq + 1 ELSE nq)
                                    ELSE /\ sc' = Merge(sc, wc, W(self), First(queue))
                                         /\ queue' = <<W(self)>> \o queue
+                                        /\ nq' = nq
                              /\ first' = [first EXCEPT ![self] = FALSE]
                              /\ held' = [held EXCEPT ![self] = 0]
                              /\ pc' = [pc EXCEPT ![self] = "mw_6_ld"]
                         ELSE /\ pc' = [pc EXCEPT ![self] = "mw_4_d"]
-                             /\ UNCHANGED << word, queue, sc, held, first, 
+                             /\ UNCHANGED << word, queue, sc, held, nq, first, 
                                              hadw >>
                   /\ UNCHANGED << cvword, cvq, waiting, rmc, cvmu, wl, wc, nww, 
                                   nwsem, sem, data, now, note, nreg, ret, sres, 
@@ -2206,16 +2228,16 @@ mw_4_d(self) == /\ pc[self] = "mw_4_d"
                 /\ UNCHANGED << word, queue, cvword, cvq, waiting, rmc, cvmu, 
                                 wl, wc, sc, nww, nwsem, sem, data, now, note, 
                                 nreg, held, ret, sres, picked, sleeps, inlock, 
-                                ip, mw, pool, nalloc, muFreed, refs, nwalive, 
-                                taint3, stack, lt_l, clear, old_, zlo, zhi, 
-                                wcnt, lw, lt_u, old_u, tc, nwl, wtrs, wake, 
-                                wty, sor, cor, rmq_, late, lt_m, old_m, lt_mu, 
-                                old_mu, lt_mu_, ww, old_mu_, sdl, scn, lt, rc, 
-                                old_t, c, dl_, cn_, old_mu_w, lt_, first, out_, 
-                                rc_, hadw, ata, so_, havel, tw, allr, omw, fca, 
-                                sorw, all, old_c, tws, alr, rmq, dl, cn, gen, 
-                                old_cv, lt_c, rc_c, so, out, ndl, old, wq, dw, 
-                                k >>
+                                ip, mw, pool, nalloc, nq, muFreed, refs, 
+                                nwalive, taint3, stack, lt_l, clear, old_, zlo, 
+                                zhi, wcnt, lw, lt_u, old_u, tc, nwl, wtrs, 
+                                wake, wty, sor, cor, rmq_, late, lt_m, old_m, 
+                                lt_mu, old_mu, lt_mu_, ww, old_mu_, sdl, scn, 
+                                lt, rc, old_t, c, dl_, cn_, old_mu_w, lt_, 
+                                first, out_, rc_, hadw, ata, so_, havel, tw, 
+                                allr, omw, fca, sorw, all, old_c, tws, alr, 
+                                rmq, dl, cn, gen, old_cv, lt_c, rc_c, so, out, 
+                                ndl, old, wq, dw, k >>
 
 mw_6_ld(self) == /\ pc[self] = "mw_6_ld"
                  /\ old_mu_w' = [old_mu_w EXCEPT ![self] = word]
@@ -2224,16 +2246,16 @@ mw_6_ld(self) == /\ pc[self] = "mw_6_ld"
                  /\ UNCHANGED << word, queue, cvword, cvq, waiting, rmc, cvmu, 
                                  wl, wc, sc, nww, nwsem, sem, data, now, note, 
                                  nreg, held, ret, sres, picked, sleeps, inlock, 
-                                 ip, mw, pool, nalloc, muFreed, refs, nwalive, 
-                                 taint3, stack, lt_l, clear, old_, zlo, zhi, 
-                                 wcnt, lw, lt_u, old_u, tc, nwl, wtrs, wake, 
-                                 wty, sor, cor, rmq_, late, lt_m, old_m, lt_mu, 
-                                 old_mu, lt_mu_, ww, old_mu_, sdl, scn, lt, rc, 
-                                 old_t, c, dl_, cn_, lt_, first, out_, rc_, 
-                                 hadw, so_, havel, tw, allr, omw, fca, sorw, 
-                                 all, old_c, tws, alr, rmq, dl, cn, gen, 
-                                 old_cv, lt_c, rc_c, so, out, ndl, old, wq, dw, 
-                                 k >>
+                                 ip, mw, pool, nalloc, nq, muFreed, refs, 
+                                 nwalive, taint3, stack, lt_l, clear, old_, 
+                                 zlo, zhi, wcnt, lw, lt_u, old_u, tc, nwl, 
+                                 wtrs, wake, wty, sor, cor, rmq_, late, lt_m, 
+                                 old_m, lt_mu, old_mu, lt_mu_, ww, old_mu_, 
+                                 sdl, scn, lt, rc, old_t, c, dl_, cn_, lt_, 
+                                 first, out_, rc_, hadw, so_, havel, tw, allr, 
+                                 omw, fca, sorw, all, old_c, tws, alr, rmq, dl, 
+                                 cn, gen, old_cv, lt_c, rc_c, so, out, ndl, 
+                                 old, wq, dw, k >>
 
 mw_7_cas(self) == /\ pc[self] = "mw_7_cas"
                   /\ IF word = old_mu_w[self]
@@ -2278,14 +2300,15 @@ mw_7_cas(self) == /\ pc[self] = "mw_7_cas"
                   /\ UNCHANGED << queue, cvword, cvq, waiting, rmc, cvmu, wl, 
                                   wc, sc, nww, nwsem, sem, data, now, note, 
                                   nreg, held, ret, sres, picked, sleeps, 
-                                  inlock, ip, mw, pool, nalloc, muFreed, refs, 
-                                  nwalive, taint3, lt_l, clear, old_, zlo, zhi, 
-                                  wcnt, lw, lt_m, old_m, lt_mu, old_mu, lt_mu_, 
-                                  ww, old_mu_, sdl, scn, lt, rc, old_t, c, dl_, 
-                                  cn_, old_mu_w, lt_, first, out_, rc_, hadw, 
-                                  ata, tw, allr, omw, fca, sorw, all, old_c, 
-                                  tws, alr, rmq, dl, cn, gen, old_cv, lt_c, 
-                                  rc_c, so, out, ndl, old, wq, dw, k >>
+                                  inlock, ip, mw, pool, nalloc, nq, muFreed, 
+                                  refs, nwalive, taint3, lt_l, clear, old_, 
+                                  zlo, zhi, wcnt, lw, lt_m, old_m, lt_mu, 
+                                  old_mu, lt_mu_, ww, old_mu_, sdl, scn, lt, 
+                                  rc, old_t, c, dl_, cn_, old_mu_w, lt_, first, 
+                                  out_, rc_, hadw, ata, tw, allr, omw, fca, 
+                                  sorw, all, old_c, tws, alr, rmq, dl, cn, gen, 
+                                  old_cv, lt_c, rc_c, so, out, ndl, old, wq, 
+                                  dw, k >>
 
 mw_8_ld(self) == /\ pc[self] = "mw_8_ld"
                  /\ IF waiting[W(self)] = 0
@@ -2305,14 +2328,14 @@ mw_8_ld(self) == /\ pc[self] = "mw_8_ld"
                  /\ UNCHANGED << word, queue, cvword, cvq, waiting, rmc, cvmu, 
                                  wl, wc, sc, nww, nwsem, sem, data, now, note, 
                                  nreg, held, ret, sres, picked, sleeps, inlock, 
-                                 ip, mw, pool, nalloc, muFreed, refs, nwalive, 
-                                 taint3, lt_l, clear, old_, zlo, zhi, wcnt, lw, 
-                                 lt_u, old_u, tc, nwl, wtrs, wake, wty, sor, 
-                                 cor, rmq_, late, lt_m, old_m, lt_mu, old_mu, 
-                                 lt_mu_, ww, old_mu_, lt, rc, old_t, c, dl_, 
-                                 cn_, old_mu_w, lt_, first, out_, rc_, hadw, 
-                                 ata, so_, havel, tw, allr, omw, fca, sorw, 
-                                 all, old_c, tws, alr, rmq, dl, cn, gen, 
+                                 ip, mw, pool, nalloc, nq, muFreed, refs, 
+                                 nwalive, taint3, lt_l, clear, old_, zlo, zhi, 
+                                 wcnt, lw, lt_u, old_u, tc, nwl, wtrs, wake, 
+                                 wty, sor, cor, rmq_, late, lt_m, old_m, lt_mu, 
+                                 old_mu, lt_mu_, ww, old_mu_, lt, rc, old_t, c, 
+                                 dl_, cn_, old_mu_w, lt_, first, out_, rc_, 
+                                 hadw, ata, so_, havel, tw, allr, omw, fca, 
+                                 sorw, all, old_c, tws, alr, rmq, dl, cn, gen, 
                                  old_cv, lt_c, rc_c, so, out, ndl, old, wq, dw, 
                                  k >>
 
@@ -2324,16 +2347,16 @@ mw_9b_l(self) == /\ pc[self] = "mw_9b_l"
                  /\ UNCHANGED << word, queue, cvword, cvq, waiting, rmc, cvmu, 
                                  wl, wc, sc, nww, nwsem, sem, data, now, note, 
                                  nreg, held, ret, sres, picked, sleeps, inlock, 
-                                 ip, mw, pool, nalloc, muFreed, refs, nwalive, 
-                                 taint3, stack, lt_l, clear, old_, zlo, zhi, 
-                                 wcnt, lw, lt_u, old_u, tc, nwl, wtrs, wake, 
-                                 wty, sor, cor, rmq_, late, lt_m, old_m, lt_mu, 
-                                 old_mu, lt_mu_, ww, old_mu_, sdl, scn, lt, rc, 
-                                 old_t, c, dl_, cn_, old_mu_w, lt_, first, 
-                                 out_, rc_, hadw, ata, havel, tw, allr, omw, 
-                                 fca, sorw, all, old_c, tws, alr, rmq, dl, cn, 
-                                 gen, old_cv, lt_c, rc_c, so, out, ndl, old, 
-                                 wq, dw, k >>
+                                 ip, mw, pool, nalloc, nq, muFreed, refs, 
+                                 nwalive, taint3, stack, lt_l, clear, old_, 
+                                 zlo, zhi, wcnt, lw, lt_u, old_u, tc, nwl, 
+                                 wtrs, wake, wty, sor, cor, rmq_, late, lt_m, 
+                                 old_m, lt_mu, old_mu, lt_mu_, ww, old_mu_, 
+                                 sdl, scn, lt, rc, old_t, c, dl_, cn_, 
+                                 old_mu_w, lt_, first, out_, rc_, hadw, ata, 
+                                 havel, tw, allr, omw, fca, sorw, all, old_c, 
+                                 tws, alr, rmq, dl, cn, gen, old_cv, lt_c, 
+                                 rc_c, so, out, ndl, old, wq, dw, k >>
 
 mw_10_ld(self) == /\ pc[self] = "mw_10_ld"
                   /\ IF waiting[W(self)] = 0
@@ -2342,16 +2365,17 @@ mw_10_ld(self) == /\ pc[self] = "mw_10_ld"
                   /\ UNCHANGED << word, queue, cvword, cvq, waiting, rmc, cvmu, 
                                   wl, wc, sc, nww, nwsem, sem, data, now, note, 
                                   nreg, held, ret, sres, picked, sleeps, 
-                                  inlock, ip, mw, pool, nalloc, muFreed, refs, 
-                                  nwalive, taint3, stack, lt_l, clear, old_, 
-                                  zlo, zhi, wcnt, lw, lt_u, old_u, tc, nwl, 
-                                  wtrs, wake, wty, sor, cor, rmq_, late, lt_m, 
-                                  old_m, lt_mu, old_mu, lt_mu_, ww, old_mu_, 
-                                  sdl, scn, lt, rc, old_t, c, dl_, cn_, 
-                                  old_mu_w, lt_, first, out_, rc_, hadw, ata, 
-                                  so_, havel, tw, allr, omw, fca, sorw, all, 
-                                  old_c, tws, alr, rmq, dl, cn, gen, old_cv, 
-                                  lt_c, rc_c, so, out, ndl, old, wq, dw, k >>
+                                  inlock, ip, mw, pool, nalloc, nq, muFreed, 
+                                  refs, nwalive, taint3, stack, lt_l, clear, 
+                                  old_, zlo, zhi, wcnt, lw, lt_u, old_u, tc, 
+                                  nwl, wtrs, wake, wty, sor, cor, rmq_, late, 
+                                  lt_m, old_m, lt_mu, old_mu, lt_mu_, ww, 
+                                  old_mu_, sdl, scn, lt, rc, old_t, c, dl_, 
+                                  cn_, old_mu_w, lt_, first, out_, rc_, hadw, 
+                                  ata, so_, havel, tw, allr, omw, fca, sorw, 
+                                  all, old_c, tws, alr, rmq, dl, cn, gen, 
+                                  old_cv, lt_c, rc_c, so, out, ndl, old, wq, 
+                                  dw, k >>
 
 mw_11_l(self) == /\ pc[self] = "mw_11_l"
                  /\ /\ lt' = [lt EXCEPT ![self] = lt_[self]]
@@ -2367,15 +2391,16 @@ mw_11_l(self) == /\ pc[self] = "mw_11_l"
                  /\ UNCHANGED << word, queue, cvword, cvq, waiting, rmc, cvmu, 
                                  wl, wc, sc, nww, nwsem, sem, data, now, note, 
                                  nreg, held, ret, sres, picked, sleeps, inlock, 
-                                 ip, mw, pool, nalloc, muFreed, refs, nwalive, 
-                                 taint3, lt_l, clear, old_, zlo, zhi, wcnt, lw, 
-                                 lt_u, old_u, tc, nwl, wtrs, wake, wty, sor, 
-                                 cor, rmq_, late, lt_m, old_m, lt_mu, old_mu, 
-                                 lt_mu_, ww, old_mu_, sdl, scn, c, dl_, cn_, 
-                                 old_mu_w, lt_, first, out_, rc_, hadw, ata, 
-                                 so_, havel, tw, allr, omw, fca, sorw, all, 
-                                 old_c, tws, alr, rmq, dl, cn, gen, old_cv, 
-                                 lt_c, rc_c, so, out, ndl, old, wq, dw, k >>
+                                 ip, mw, pool, nalloc, nq, muFreed, refs, 
+                                 nwalive, taint3, lt_l, clear, old_, zlo, zhi, 
+                                 wcnt, lw, lt_u, old_u, tc, nwl, wtrs, wake, 
+                                 wty, sor, cor, rmq_, late, lt_m, old_m, lt_mu, 
+                                 old_mu, lt_mu_, ww, old_mu_, sdl, scn, c, dl_, 
+                                 cn_, old_mu_w, lt_, first, out_, rc_, hadw, 
+                                 ata, so_, havel, tw, allr, omw, fca, sorw, 
+                                 all, old_c, tws, alr, rmq, dl, cn, gen, 
+                                 old_cv, lt_c, rc_c, so, out, ndl, old, wq, dw, 
+                                 k >>
 
 mw_11b_l(self) == /\ pc[self] = "mw_11b_l"
                   /\ havel' = [havel EXCEPT ![self] = (sres[self] = 1)]
@@ -2387,16 +2412,16 @@ mw_11b_l(self) == /\ pc[self] = "mw_11b_l"
                   /\ UNCHANGED << word, queue, cvword, cvq, waiting, rmc, cvmu, 
                                   wl, wc, sc, nww, nwsem, sem, data, now, note, 
                                   nreg, held, ret, sres, picked, sleeps, 
-                                  inlock, ip, mw, pool, nalloc, muFreed, refs, 
-                                  nwalive, taint3, stack, lt_l, clear, old_, 
-                                  zlo, zhi, wcnt, lw, lt_u, old_u, tc, nwl, 
-                                  wtrs, wake, wty, sor, cor, rmq_, late, lt_m, 
-                                  old_m, lt_mu, old_mu, lt_mu_, ww, old_mu_, 
-                                  sdl, scn, lt, rc, old_t, c, dl_, cn_, 
-                                  old_mu_w, lt_, first, rc_, hadw, ata, so_, 
-                                  tw, allr, omw, fca, sorw, all, old_c, tws, 
-                                  alr, rmq, dl, cn, gen, old_cv, lt_c, rc_c, 
-                                  so, out, ndl, old, wq, dw, k >>
+                                  inlock, ip, mw, pool, nalloc, nq, muFreed, 
+                                  refs, nwalive, taint3, stack, lt_l, clear, 
+                                  old_, zlo, zhi, wcnt, lw, lt_u, old_u, tc, 
+                                  nwl, wtrs, wake, wty, sor, cor, rmq_, late, 
+                                  lt_m, old_m, lt_mu, old_mu, lt_mu_, ww, 
+                                  old_mu_, sdl, scn, lt, rc, old_t, c, dl_, 
+                                  cn_, old_mu_w, lt_, first, rc_, hadw, ata, 
+                                  so_, tw, allr, omw, fca, sorw, all, old_c, 
+                                  tws, alr, rmq, dl, cn, gen, old_cv, lt_c, 
+                                  rc_c, so, out, ndl, old, wq, dw, k >>
 
 mw_12_ld(self) == /\ pc[self] = "mw_12_ld"
                   /\ IF waiting[W(self)] # 0
@@ -2405,32 +2430,33 @@ mw_12_ld(self) == /\ pc[self] = "mw_12_ld"
                   /\ UNCHANGED << word, queue, cvword, cvq, waiting, rmc, cvmu, 
                                   wl, wc, sc, nww, nwsem, sem, data, now, note, 
                                   nreg, held, ret, sres, picked, sleeps, 
-                                  inlock, ip, mw, pool, nalloc, muFreed, refs, 
-                                  nwalive, taint3, stack, lt_l, clear, old_, 
-                                  zlo, zhi, wcnt, lw, lt_u, old_u, tc, nwl, 
-                                  wtrs, wake, wty, sor, cor, rmq_, late, lt_m, 
-                                  old_m, lt_mu, old_mu, lt_mu_, ww, old_mu_, 
-                                  sdl, scn, lt, rc, old_t, c, dl_, cn_, 
-                                  old_mu_w, lt_, first, out_, rc_, hadw, ata, 
-                                  so_, havel, tw, allr, omw, fca, sorw, all, 
-                                  old_c, tws, alr, rmq, dl, cn, gen, old_cv, 
-                                  lt_c, rc_c, so, out, ndl, old, wq, dw, k >>
+                                  inlock, ip, mw, pool, nalloc, nq, muFreed, 
+                                  refs, nwalive, taint3, stack, lt_l, clear, 
+                                  old_, zlo, zhi, wcnt, lw, lt_u, old_u, tc, 
+                                  nwl, wtrs, wake, wty, sor, cor, rmq_, late, 
+                                  lt_m, old_m, lt_mu, old_mu, lt_mu_, ww, 
+                                  old_mu_, sdl, scn, lt, rc, old_t, c, dl_, 
+                                  cn_, old_mu_w, lt_, first, out_, rc_, hadw, 
+                                  ata, so_, havel, tw, allr, omw, fca, sorw, 
+                                  all, old_c, tws, alr, rmq, dl, cn, gen, 
+                                  old_cv, lt_c, rc_c, so, out, ndl, old, wq, 
+                                  dw, k >>
 
 mw_12_d(self) == /\ pc[self] = "mw_12_d"
                  /\ pc' = [pc EXCEPT ![self] = "mw_8_ld"]
                  /\ UNCHANGED << word, queue, cvword, cvq, waiting, rmc, cvmu, 
                                  wl, wc, sc, nww, nwsem, sem, data, now, note, 
                                  nreg, held, ret, sres, picked, sleeps, inlock, 
-                                 ip, mw, pool, nalloc, muFreed, refs, nwalive, 
-                                 taint3, stack, lt_l, clear, old_, zlo, zhi, 
-                                 wcnt, lw, lt_u, old_u, tc, nwl, wtrs, wake, 
-                                 wty, sor, cor, rmq_, late, lt_m, old_m, lt_mu, 
-                                 old_mu, lt_mu_, ww, old_mu_, sdl, scn, lt, rc, 
-                                 old_t, c, dl_, cn_, old_mu_w, lt_, first, 
-                                 out_, rc_, hadw, ata, so_, havel, tw, allr, 
-                                 omw, fca, sorw, all, old_c, tws, alr, rmq, dl, 
-                                 cn, gen, old_cv, lt_c, rc_c, so, out, ndl, 
-                                 old, wq, dw, k >>
+                                 ip, mw, pool, nalloc, nq, muFreed, refs, 
+                                 nwalive, taint3, stack, lt_l, clear, old_, 
+                                 zlo, zhi, wcnt, lw, lt_u, old_u, tc, nwl, 
+                                 wtrs, wake, wty, sor, cor, rmq_, late, lt_m, 
+                                 old_m, lt_mu, old_mu, lt_mu_, ww, old_mu_, 
+                                 sdl, scn, lt, rc, old_t, c, dl_, cn_, 
+                                 old_mu_w, lt_, first, out_, rc_, hadw, ata, 
+                                 so_, havel, tw, allr, omw, fca, sorw, all, 
+                                 old_c, tws, alr, rmq, dl, cn, gen, old_cv, 
+                                 lt_c, rc_c, so, out, ndl, old, wq, dw, k >>
 
 mw_13_l(self) == /\ pc[self] = "mw_13_l"
                  /\ IF ~havel[self]
@@ -2458,15 +2484,15 @@ mw_13_l(self) == /\ pc[self] = "mw_13_l"
                  /\ UNCHANGED << word, queue, cvword, cvq, waiting, rmc, cvmu, 
                                  wl, wc, sc, nww, nwsem, sem, data, now, note, 
                                  nreg, held, ret, sres, picked, sleeps, inlock, 
-                                 ip, mw, pool, nalloc, muFreed, refs, nwalive, 
-                                 taint3, lt_u, old_u, tc, nwl, wtrs, wake, wty, 
-                                 sor, cor, rmq_, late, lt_m, old_m, lt_mu, 
-                                 old_mu, lt_mu_, ww, old_mu_, sdl, scn, lt, rc, 
-                                 old_t, c, dl_, cn_, old_mu_w, lt_, first, 
-                                 out_, rc_, hadw, ata, so_, havel, tw, allr, 
-                                 omw, fca, sorw, all, old_c, tws, alr, rmq, dl, 
-                                 cn, gen, old_cv, lt_c, rc_c, so, out, ndl, 
-                                 old, wq, dw, k >>
+                                 ip, mw, pool, nalloc, nq, muFreed, refs, 
+                                 nwalive, taint3, lt_u, old_u, tc, nwl, wtrs, 
+                                 wake, wty, sor, cor, rmq_, late, lt_m, old_m, 
+                                 lt_mu, old_mu, lt_mu_, ww, old_mu_, sdl, scn, 
+                                 lt, rc, old_t, c, dl_, cn_, old_mu_w, lt_, 
+                                 first, out_, rc_, hadw, ata, so_, havel, tw, 
+                                 allr, omw, fca, sorw, all, old_c, tws, alr, 
+                                 rmq, dl, cn, gen, old_cv, lt_c, rc_c, so, out, 
+                                 ndl, old, wq, dw, k >>
 
 mw_14_l(self) == /\ pc[self] = "mw_14_l"
                  /\ IF out_[self] = 0 /\ ~((c[self] = 0) \/ CondTrue(c[self], data))
@@ -2492,7 +2518,7 @@ mw_14_l(self) == /\ pc[self] = "mw_14_l"
                  /\ UNCHANGED << word, queue, cvword, cvq, waiting, rmc, cvmu, 
                                  wl, wc, sc, nww, nwsem, sem, data, now, note, 
                                  nreg, held, sres, picked, sleeps, inlock, ip, 
-                                 mw, pool, nalloc, muFreed, refs, nwalive, 
+                                 mw, pool, nalloc, nq, muFreed, refs, nwalive, 
                                  taint3, lt_l, clear, old_, zlo, zhi, wcnt, lw, 
                                  lt_u, old_u, tc, nwl, wtrs, wake, wty, sor, 
                                  cor, rmq_, late, lt_m, old_m, lt_mu, old_mu, 
@@ -2515,16 +2541,16 @@ ww_0_l(self) == /\ pc[self] = "ww_0_l"
                 /\ UNCHANGED << word, queue, cvword, cvq, waiting, rmc, cvmu, 
                                 wl, wc, sc, nww, nwsem, sem, data, now, note, 
                                 nreg, held, ret, sres, picked, sleeps, inlock, 
-                                ip, mw, pool, nalloc, muFreed, refs, nwalive, 
-                                taint3, stack, lt_l, clear, old_, zlo, zhi, 
-                                wcnt, lw, lt_u, old_u, tc, nwl, wtrs, wake, 
-                                wty, sor, cor, rmq_, late, lt_m, old_m, lt_mu, 
-                                old_mu, lt_mu_, ww, old_mu_, sdl, scn, lt, rc, 
-                                old_t, c, dl_, cn_, old_mu_w, lt_, first, out_, 
-                                rc_, hadw, ata, so_, havel, tw, allr, omw, fca, 
-                                sorw, all, old_c, tws, alr, rmq, dl, cn, gen, 
-                                old_cv, lt_c, rc_c, so, out, ndl, old, wq, dw, 
-                                k >>
+                                ip, mw, pool, nalloc, nq, muFreed, refs, 
+                                nwalive, taint3, stack, lt_l, clear, old_, zlo, 
+                                zhi, wcnt, lw, lt_u, old_u, tc, nwl, wtrs, 
+                                wake, wty, sor, cor, rmq_, late, lt_m, old_m, 
+                                lt_mu, old_mu, lt_mu_, ww, old_mu_, sdl, scn, 
+                                lt, rc, old_t, c, dl_, cn_, old_mu_w, lt_, 
+                                first, out_, rc_, hadw, ata, so_, havel, tw, 
+                                allr, omw, fca, sorw, all, old_c, tws, alr, 
+                                rmq, dl, cn, gen, old_cv, lt_c, rc_c, so, out, 
+                                ndl, old, wq, dw, k >>
 
 ww_1_ld(self) == /\ pc[self] = "ww_1_ld"
                  /\ omw' = [omw EXCEPT ![self] = word]
@@ -2535,16 +2561,16 @@ ww_1_ld(self) == /\ pc[self] = "ww_1_ld"
                  /\ UNCHANGED << word, queue, cvword, cvq, waiting, rmc, cvmu, 
                                  wl, wc, sc, nww, nwsem, sem, data, now, note, 
                                  nreg, held, ret, sres, picked, sleeps, inlock, 
-                                 ip, mw, pool, nalloc, muFreed, refs, nwalive, 
-                                 taint3, stack, lt_l, clear, old_, zlo, zhi, 
-                                 wcnt, lw, lt_u, old_u, tc, nwl, wtrs, wake, 
-                                 wty, sor, cor, rmq_, late, lt_m, old_m, lt_mu, 
-                                 old_mu, lt_mu_, ww, old_mu_, sdl, scn, lt, rc, 
-                                 old_t, c, dl_, cn_, old_mu_w, lt_, first, 
-                                 out_, rc_, hadw, ata, so_, havel, tw, allr, 
-                                 sorw, all, old_c, tws, alr, rmq, dl, cn, gen, 
-                                 old_cv, lt_c, rc_c, so, out, ndl, old, wq, dw, 
-                                 k >>
+                                 ip, mw, pool, nalloc, nq, muFreed, refs, 
+                                 nwalive, taint3, stack, lt_l, clear, old_, 
+                                 zlo, zhi, wcnt, lw, lt_u, old_u, tc, nwl, 
+                                 wtrs, wake, wty, sor, cor, rmq_, late, lt_m, 
+                                 old_m, lt_mu, old_mu, lt_mu_, ww, old_mu_, 
+                                 sdl, scn, lt, rc, old_t, c, dl_, cn_, 
+                                 old_mu_w, lt_, first, out_, rc_, hadw, ata, 
+                                 so_, havel, tw, allr, sorw, all, old_c, tws, 
+                                 alr, rmq, dl, cn, gen, old_cv, lt_c, rc_c, so, 
+                                 out, ndl, old, wq, dw, k >>
 
 ww_2_cas(self) == /\ pc[self] = "ww_2_cas"
                   /\ IF word = omw[self]
@@ -2560,7 +2586,7 @@ ww_2_cas(self) == /\ pc[self] = "ww_2_cas"
                   /\ UNCHANGED << cvword, cvq, waiting, rmc, wl, wc, sc, nww, 
                                   nwsem, sem, data, now, note, nreg, held, ret, 
                                   sres, picked, sleeps, inlock, ip, mw, pool, 
-                                  nalloc, muFreed, refs, nwalive, taint3, 
+                                  nalloc, nq, muFreed, refs, nwalive, taint3, 
                                   stack, lt_l, clear, old_, zlo, zhi, wcnt, lw, 
                                   lt_u, old_u, tc, nwl, wtrs, wake, wty, sor, 
                                   cor, rmq_, late, lt_m, old_m, lt_mu, old_mu, 
@@ -2576,16 +2602,16 @@ ww_3_ld(self) == /\ pc[self] = "ww_3_ld"
                  /\ UNCHANGED << word, queue, cvword, cvq, waiting, rmc, cvmu, 
                                  wl, wc, sc, nww, nwsem, sem, data, now, note, 
                                  nreg, held, ret, sres, picked, sleeps, inlock, 
-                                 ip, mw, pool, nalloc, muFreed, refs, nwalive, 
-                                 taint3, stack, lt_l, clear, old_, zlo, zhi, 
-                                 wcnt, lw, lt_u, old_u, tc, nwl, wtrs, wake, 
-                                 wty, sor, cor, rmq_, late, lt_m, old_m, lt_mu, 
-                                 old_mu, lt_mu_, ww, old_mu_, sdl, scn, lt, rc, 
-                                 old_t, c, dl_, cn_, old_mu_w, lt_, first, 
-                                 out_, rc_, hadw, ata, so_, havel, tw, allr, 
-                                 fca, sorw, all, old_c, tws, alr, rmq, dl, cn, 
-                                 gen, old_cv, lt_c, rc_c, so, out, ndl, old, 
-                                 wq, dw, k >>
+                                 ip, mw, pool, nalloc, nq, muFreed, refs, 
+                                 nwalive, taint3, stack, lt_l, clear, old_, 
+                                 zlo, zhi, wcnt, lw, lt_u, old_u, tc, nwl, 
+                                 wtrs, wake, wty, sor, cor, rmq_, late, lt_m, 
+                                 old_m, lt_mu, old_mu, lt_mu_, ww, old_mu_, 
+                                 sdl, scn, lt, rc, old_t, c, dl_, cn_, 
+                                 old_mu_w, lt_, first, out_, rc_, hadw, ata, 
+                                 so_, havel, tw, allr, fca, sorw, all, old_c, 
+                                 tws, alr, rmq, dl, cn, gen, old_cv, lt_c, 
+                                 rc_c, so, out, ndl, old, wq, dw, k >>
 
 ww_4_cas(self) == /\ pc[self] = "ww_4_cas"
                   /\ IF word = omw[self]
@@ -2596,16 +2622,17 @@ ww_4_cas(self) == /\ pc[self] = "ww_4_cas"
                   /\ UNCHANGED << queue, cvword, cvq, waiting, rmc, cvmu, wl, 
                                   wc, sc, nww, nwsem, sem, data, now, note, 
                                   nreg, held, ret, sres, picked, sleeps, 
-                                  inlock, ip, mw, pool, nalloc, muFreed, refs, 
-                                  nwalive, taint3, stack, lt_l, clear, old_, 
-                                  zlo, zhi, wcnt, lw, lt_u, old_u, tc, nwl, 
-                                  wtrs, wake, wty, sor, cor, rmq_, late, lt_m, 
-                                  old_m, lt_mu, old_mu, lt_mu_, ww, old_mu_, 
-                                  sdl, scn, lt, rc, old_t, c, dl_, cn_, 
-                                  old_mu_w, lt_, first, out_, rc_, hadw, ata, 
-                                  so_, havel, tw, allr, omw, fca, sorw, all, 
-                                  old_c, tws, alr, rmq, dl, cn, gen, old_cv, 
-                                  lt_c, rc_c, so, out, ndl, old, wq, dw, k >>
+                                  inlock, ip, mw, pool, nalloc, nq, muFreed, 
+                                  refs, nwalive, taint3, stack, lt_l, clear, 
+                                  old_, zlo, zhi, wcnt, lw, lt_u, old_u, tc, 
+                                  nwl, wtrs, wake, wty, sor, cor, rmq_, late, 
+                                  lt_m, old_m, lt_mu, old_mu, lt_mu_, ww, 
+                                  old_mu_, sdl, scn, lt, rc, old_t, c, dl_, 
+                                  cn_, old_mu_w, lt_, first, out_, rc_, hadw, 
+                                  ata, so_, havel, tw, allr, omw, fca, sorw, 
+                                  all, old_c, tws, alr, rmq, dl, cn, gen, 
+                                  old_cv, lt_c, rc_c, so, out, ndl, old, wq, 
+                                  dw, k >>
 
 ww_4b_l(self) == /\ pc[self] = "ww_4b_l"
                  /\ IF tw[self] = <<>>
@@ -2621,15 +2648,15 @@ ww_4b_l(self) == /\ pc[self] = "ww_4b_l"
                  /\ UNCHANGED << word, queue, cvword, cvq, waiting, rmc, cvmu, 
                                  wl, wc, sc, nww, nwsem, sem, data, now, note, 
                                  nreg, held, ret, sres, picked, sleeps, inlock, 
-                                 ip, mw, pool, nalloc, muFreed, refs, nwalive, 
-                                 taint3, lt_l, clear, old_, zlo, zhi, wcnt, lw, 
-                                 lt_u, old_u, tc, nwl, wtrs, wake, wty, sor, 
-                                 cor, rmq_, late, lt_m, old_m, lt_mu, old_mu, 
-                                 lt_mu_, ww, old_mu_, sdl, scn, lt, rc, old_t, 
-                                 c, dl_, cn_, old_mu_w, lt_, first, out_, rc_, 
-                                 hadw, ata, so_, havel, all, old_c, tws, alr, 
-                                 rmq, dl, cn, gen, old_cv, lt_c, rc_c, so, out, 
-                                 ndl, old, wq, dw, k >>
+                                 ip, mw, pool, nalloc, nq, muFreed, refs, 
+                                 nwalive, taint3, lt_l, clear, old_, zlo, zhi, 
+                                 wcnt, lw, lt_u, old_u, tc, nwl, wtrs, wake, 
+                                 wty, sor, cor, rmq_, late, lt_m, old_m, lt_mu, 
+                                 old_mu, lt_mu_, ww, old_mu_, sdl, scn, lt, rc, 
+                                 old_t, c, dl_, cn_, old_mu_w, lt_, first, 
+                                 out_, rc_, hadw, ata, so_, havel, all, old_c, 
+                                 tws, alr, rmq, dl, cn, gen, old_cv, lt_c, 
+                                 rc_c, so, out, ndl, old, wq, dw, k >>
 
 ww_5_st(self) == /\ pc[self] = "ww_5_st"
                  /\ IF IsMuCv(Head(tw[self]))
@@ -2641,16 +2668,16 @@ ww_5_st(self) == /\ pc[self] = "ww_5_st"
                  /\ UNCHANGED << word, queue, cvword, cvq, rmc, cvmu, wl, wc, 
                                  sc, nwsem, sem, data, now, note, nreg, held, 
                                  ret, sres, picked, sleeps, inlock, ip, mw, 
-                                 pool, nalloc, muFreed, refs, nwalive, taint3, 
-                                 stack, lt_l, clear, old_, zlo, zhi, wcnt, lw, 
-                                 lt_u, old_u, tc, nwl, wtrs, wake, wty, sor, 
-                                 cor, rmq_, late, lt_m, old_m, lt_mu, old_mu, 
-                                 lt_mu_, ww, old_mu_, sdl, scn, lt, rc, old_t, 
-                                 c, dl_, cn_, old_mu_w, lt_, first, out_, rc_, 
-                                 hadw, ata, so_, havel, tw, allr, omw, fca, 
-                                 sorw, all, old_c, tws, alr, rmq, dl, cn, gen, 
-                                 old_cv, lt_c, rc_c, so, out, ndl, old, wq, dw, 
-                                 k >>
+                                 pool, nalloc, nq, muFreed, refs, nwalive, 
+                                 taint3, stack, lt_l, clear, old_, zlo, zhi, 
+                                 wcnt, lw, lt_u, old_u, tc, nwl, wtrs, wake, 
+                                 wty, sor, cor, rmq_, late, lt_m, old_m, lt_mu, 
+                                 old_mu, lt_mu_, ww, old_mu_, sdl, scn, lt, rc, 
+                                 old_t, c, dl_, cn_, old_mu_w, lt_, first, 
+                                 out_, rc_, hadw, ata, so_, havel, tw, allr, 
+                                 omw, fca, sorw, all, old_c, tws, alr, rmq, dl, 
+                                 cn, gen, old_cv, lt_c, rc_c, so, out, ndl, 
+                                 old, wq, dw, k >>
 
 ww_6_v(self) == /\ pc[self] = "ww_6_v"
                 /\ sem' = [sem EXCEPT ![SemOf(Head(tw[self]))] = SetV(sem[SemOf(Head(tw[self]))])]
@@ -2668,7 +2695,7 @@ ww_6_v(self) == /\ pc[self] = "ww_6_v"
                 /\ UNCHANGED << word, queue, cvword, cvq, waiting, rmc, cvmu, 
                                 wl, wc, sc, nww, nwsem, data, now, note, nreg, 
                                 held, ret, sres, picked, sleeps, inlock, ip, 
-                                mw, pool, nalloc, muFreed, refs, nwalive, 
+                                mw, pool, nalloc, nq, muFreed, refs, nwalive, 
                                 taint3, lt_l, clear, old_, zlo, zhi, wcnt, lw, 
                                 lt_u, old_u, tc, nwl, wtrs, wake, wty, sor, 
                                 cor, rmq_, late, lt_m, old_m, lt_mu, old_mu, 
@@ -2696,15 +2723,15 @@ cs_1_ld(self) == /\ pc[self] = "cs_1_ld"
                  /\ UNCHANGED << word, queue, cvword, cvq, waiting, rmc, cvmu, 
                                  wl, wc, sc, nww, nwsem, sem, data, now, note, 
                                  nreg, held, ret, sres, picked, sleeps, inlock, 
-                                 ip, mw, pool, nalloc, muFreed, refs, nwalive, 
-                                 taint3, lt_l, clear, old_, zlo, zhi, wcnt, lw, 
-                                 lt_u, old_u, tc, nwl, wtrs, wake, wty, sor, 
-                                 cor, rmq_, late, lt_m, old_m, lt_mu, old_mu, 
-                                 lt_mu_, ww, old_mu_, sdl, scn, lt, rc, old_t, 
-                                 c, dl_, cn_, old_mu_w, lt_, first, out_, rc_, 
-                                 hadw, ata, so_, havel, tw, allr, omw, fca, 
-                                 sorw, dl, cn, gen, old_cv, lt_c, rc_c, so, 
-                                 out, ndl, old, wq, dw, k >>
+                                 ip, mw, pool, nalloc, nq, muFreed, refs, 
+                                 nwalive, taint3, lt_l, clear, old_, zlo, zhi, 
+                                 wcnt, lw, lt_u, old_u, tc, nwl, wtrs, wake, 
+                                 wty, sor, cor, rmq_, late, lt_m, old_m, lt_mu, 
+                                 old_mu, lt_mu_, ww, old_mu_, sdl, scn, lt, rc, 
+                                 old_t, c, dl_, cn_, old_mu_w, lt_, first, 
+                                 out_, rc_, hadw, ata, so_, havel, tw, allr, 
+                                 omw, fca, sorw, dl, cn, gen, old_cv, lt_c, 
+                                 rc_c, so, out, ndl, old, wq, dw, k >>
 
 cs_2_ld(self) == /\ pc[self] = "cs_2_ld"
                  /\ old_c' = [old_c EXCEPT ![self] = cvword]
@@ -2714,16 +2741,16 @@ cs_2_ld(self) == /\ pc[self] = "cs_2_ld"
                  /\ UNCHANGED << word, queue, cvword, cvq, waiting, rmc, cvmu, 
                                  wl, wc, sc, nww, nwsem, sem, data, now, note, 
                                  nreg, held, ret, sres, picked, sleeps, inlock, 
-                                 ip, mw, pool, nalloc, muFreed, refs, nwalive, 
-                                 taint3, stack, lt_l, clear, old_, zlo, zhi, 
-                                 wcnt, lw, lt_u, old_u, tc, nwl, wtrs, wake, 
-                                 wty, sor, cor, rmq_, late, lt_m, old_m, lt_mu, 
-                                 old_mu, lt_mu_, ww, old_mu_, sdl, scn, lt, rc, 
-                                 old_t, c, dl_, cn_, old_mu_w, lt_, first, 
-                                 out_, rc_, hadw, ata, so_, havel, tw, allr, 
-                                 omw, fca, sorw, all, tws, alr, rmq, dl, cn, 
-                                 gen, old_cv, lt_c, rc_c, so, out, ndl, old, 
-                                 wq, dw, k >>
+                                 ip, mw, pool, nalloc, nq, muFreed, refs, 
+                                 nwalive, taint3, stack, lt_l, clear, old_, 
+                                 zlo, zhi, wcnt, lw, lt_u, old_u, tc, nwl, 
+                                 wtrs, wake, wty, sor, cor, rmq_, late, lt_m, 
+                                 old_m, lt_mu, old_mu, lt_mu_, ww, old_mu_, 
+                                 sdl, scn, lt, rc, old_t, c, dl_, cn_, 
+                                 old_mu_w, lt_, first, out_, rc_, hadw, ata, 
+                                 so_, havel, tw, allr, omw, fca, sorw, all, 
+                                 tws, alr, rmq, dl, cn, gen, old_cv, lt_c, 
+                                 rc_c, so, out, ndl, old, wq, dw, k >>
 
 cs_3_cas(self) == /\ pc[self] = "cs_3_cas"
                   /\ IF cvword = old_c[self]
@@ -2745,15 +2772,16 @@ cs_3_cas(self) == /\ pc[self] = "cs_3_cas"
                   /\ UNCHANGED << word, queue, waiting, rmc, cvmu, wl, wc, sc, 
                                   nww, nwsem, sem, data, now, note, nreg, held, 
                                   ret, sres, picked, sleeps, inlock, ip, mw, 
-                                  pool, nalloc, muFreed, refs, nwalive, taint3, 
-                                  stack, lt_l, clear, old_, zlo, zhi, wcnt, lw, 
-                                  lt_u, old_u, tc, nwl, wtrs, wake, wty, sor, 
-                                  cor, rmq_, late, lt_m, old_m, lt_mu, old_mu, 
-                                  lt_mu_, ww, old_mu_, sdl, scn, lt, rc, old_t, 
-                                  c, dl_, cn_, old_mu_w, lt_, first, out_, rc_, 
-                                  hadw, ata, so_, havel, tw, allr, omw, fca, 
-                                  sorw, all, old_c, rmq, dl, cn, gen, old_cv, 
-                                  lt_c, rc_c, so, out, ndl, old, wq, dw, k >>
+                                  pool, nalloc, nq, muFreed, refs, nwalive, 
+                                  taint3, stack, lt_l, clear, old_, zlo, zhi, 
+                                  wcnt, lw, lt_u, old_u, tc, nwl, wtrs, wake, 
+                                  wty, sor, cor, rmq_, late, lt_m, old_m, 
+                                  lt_mu, old_mu, lt_mu_, ww, old_mu_, sdl, scn, 
+                                  lt, rc, old_t, c, dl_, cn_, old_mu_w, lt_, 
+                                  first, out_, rc_, hadw, ata, so_, havel, tw, 
+                                  allr, omw, fca, sorw, all, old_c, rmq, dl, 
+                                  cn, gen, old_cv, lt_c, rc_c, so, out, ndl, 
+                                  old, wq, dw, k >>
 
 cs_3b_l(self) == /\ pc[self] = "cs_3b_l"
                  /\ rmq' = [rmq EXCEPT ![self] = IF CvFix THEN tws[self] ELSE SelectSeq(tws[self], IsMuCv)]
@@ -2763,31 +2791,32 @@ cs_3b_l(self) == /\ pc[self] = "cs_3b_l"
                  /\ UNCHANGED << word, queue, cvword, cvq, waiting, rmc, cvmu, 
                                  wl, wc, sc, nww, nwsem, sem, data, now, note, 
                                  nreg, held, ret, sres, sleeps, inlock, ip, mw, 
-                                 pool, nalloc, muFreed, refs, nwalive, taint3, 
-                                 stack, lt_l, clear, old_, zlo, zhi, wcnt, lw, 
-                                 lt_u, old_u, tc, nwl, wtrs, wake, wty, sor, 
-                                 cor, rmq_, late, lt_m, old_m, lt_mu, old_mu, 
-                                 lt_mu_, ww, old_mu_, sdl, scn, lt, rc, old_t, 
-                                 c, dl_, cn_, old_mu_w, lt_, first, out_, rc_, 
-                                 hadw, ata, so_, havel, tw, allr, omw, fca, 
-                                 sorw, all, old_c, alr, dl, cn, gen, old_cv, 
-                                 lt_c, rc_c, so, out, ndl, old, wq, dw, k >>
+                                 pool, nalloc, nq, muFreed, refs, nwalive, 
+                                 taint3, stack, lt_l, clear, old_, zlo, zhi, 
+                                 wcnt, lw, lt_u, old_u, tc, nwl, wtrs, wake, 
+                                 wty, sor, cor, rmq_, late, lt_m, old_m, lt_mu, 
+                                 old_mu, lt_mu_, ww, old_mu_, sdl, scn, lt, rc, 
+                                 old_t, c, dl_, cn_, old_mu_w, lt_, first, 
+                                 out_, rc_, hadw, ata, so_, havel, tw, allr, 
+                                 omw, fca, sorw, all, old_c, alr, dl, cn, gen, 
+                                 old_cv, lt_c, rc_c, so, out, ndl, old, wq, dw, 
+                                 k >>
 
 cs_2_d(self) == /\ pc[self] = "cs_2_d"
                 /\ pc' = [pc EXCEPT ![self] = "cs_2_ld"]
                 /\ UNCHANGED << word, queue, cvword, cvq, waiting, rmc, cvmu, 
                                 wl, wc, sc, nww, nwsem, sem, data, now, note, 
                                 nreg, held, ret, sres, picked, sleeps, inlock, 
-                                ip, mw, pool, nalloc, muFreed, refs, nwalive, 
-                                taint3, stack, lt_l, clear, old_, zlo, zhi, 
-                                wcnt, lw, lt_u, old_u, tc, nwl, wtrs, wake, 
-                                wty, sor, cor, rmq_, late, lt_m, old_m, lt_mu, 
-                                old_mu, lt_mu_, ww, old_mu_, sdl, scn, lt, rc, 
-                                old_t, c, dl_, cn_, old_mu_w, lt_, first, out_, 
-                                rc_, hadw, ata, so_, havel, tw, allr, omw, fca, 
-                                sorw, all, old_c, tws, alr, rmq, dl, cn, gen, 
-                                old_cv, lt_c, rc_c, so, out, ndl, old, wq, dw, 
-                                k >>
+                                ip, mw, pool, nalloc, nq, muFreed, refs, 
+                                nwalive, taint3, stack, lt_l, clear, old_, zlo, 
+                                zhi, wcnt, lw, lt_u, old_u, tc, nwl, wtrs, 
+                                wake, wty, sor, cor, rmq_, late, lt_m, old_m, 
+                                lt_mu, old_mu, lt_mu_, ww, old_mu_, sdl, scn, 
+                                lt, rc, old_t, c, dl_, cn_, old_mu_w, lt_, 
+                                first, out_, rc_, hadw, ata, so_, havel, tw, 
+                                allr, omw, fca, sorw, all, old_c, tws, alr, 
+                                rmq, dl, cn, gen, old_cv, lt_c, rc_c, so, out, 
+                                ndl, old, wq, dw, k >>
 
 cs_rmq_l(self) == /\ pc[self] = "cs_rmq_l"
                   /\ IF rmq[self] = <<>>
@@ -2798,16 +2827,17 @@ cs_rmq_l(self) == /\ pc[self] = "cs_rmq_l"
                   /\ UNCHANGED << word, queue, cvword, cvq, waiting, rmc, cvmu, 
                                   wl, wc, sc, nww, nwsem, sem, data, now, note, 
                                   nreg, held, ret, sres, picked, sleeps, 
-                                  inlock, ip, mw, pool, nalloc, muFreed, refs, 
-                                  nwalive, taint3, stack, lt_l, clear, old_, 
-                                  zlo, zhi, wcnt, lw, lt_u, old_u, tc, nwl, 
-                                  wtrs, wake, wty, sor, cor, rmq_, late, lt_m, 
-                                  old_m, lt_mu, old_mu, lt_mu_, ww, old_mu_, 
-                                  sdl, scn, lt, rc, old_t, c, dl_, cn_, 
-                                  old_mu_w, lt_, first, out_, rc_, hadw, ata, 
-                                  so_, havel, tw, allr, omw, fca, sorw, all, 
-                                  old_c, tws, alr, rmq, dl, cn, gen, old_cv, 
-                                  lt_c, rc_c, so, out, ndl, old, wq, dw, k >>
+                                  inlock, ip, mw, pool, nalloc, nq, muFreed, 
+                                  refs, nwalive, taint3, stack, lt_l, clear, 
+                                  old_, zlo, zhi, wcnt, lw, lt_u, old_u, tc, 
+                                  nwl, wtrs, wake, wty, sor, cor, rmq_, late, 
+                                  lt_m, old_m, lt_mu, old_mu, lt_mu_, ww, 
+                                  old_mu_, sdl, scn, lt, rc, old_t, c, dl_, 
+                                  cn_, old_mu_w, lt_, first, out_, rc_, hadw, 
+                                  ata, so_, havel, tw, allr, omw, fca, sorw, 
+                                  all, old_c, tws, alr, rmq, dl, cn, gen, 
+                                  old_cv, lt_c, rc_c, so, out, ndl, old, wq, 
+                                  dw, k >>
 
 cs_rm_ld(self) == /\ pc[self] = "cs_rm_ld"
                   /\ TRUE
@@ -2815,16 +2845,17 @@ cs_rm_ld(self) == /\ pc[self] = "cs_rm_ld"
                   /\ UNCHANGED << word, queue, cvword, cvq, waiting, rmc, cvmu, 
                                   wl, wc, sc, nww, nwsem, sem, data, now, note, 
                                   nreg, held, ret, sres, picked, sleeps, 
-                                  inlock, ip, mw, pool, nalloc, muFreed, refs, 
-                                  nwalive, taint3, stack, lt_l, clear, old_, 
-                                  zlo, zhi, wcnt, lw, lt_u, old_u, tc, nwl, 
-                                  wtrs, wake, wty, sor, cor, rmq_, late, lt_m, 
-                                  old_m, lt_mu, old_mu, lt_mu_, ww, old_mu_, 
-                                  sdl, scn, lt, rc, old_t, c, dl_, cn_, 
-                                  old_mu_w, lt_, first, out_, rc_, hadw, ata, 
-                                  so_, havel, tw, allr, omw, fca, sorw, all, 
-                                  old_c, tws, alr, rmq, dl, cn, gen, old_cv, 
-                                  lt_c, rc_c, so, out, ndl, old, wq, dw, k >>
+                                  inlock, ip, mw, pool, nalloc, nq, muFreed, 
+                                  refs, nwalive, taint3, stack, lt_l, clear, 
+                                  old_, zlo, zhi, wcnt, lw, lt_u, old_u, tc, 
+                                  nwl, wtrs, wake, wty, sor, cor, rmq_, late, 
+                                  lt_m, old_m, lt_mu, old_mu, lt_mu_, ww, 
+                                  old_mu_, sdl, scn, lt, rc, old_t, c, dl_, 
+                                  cn_, old_mu_w, lt_, first, out_, rc_, hadw, 
+                                  ata, so_, havel, tw, allr, omw, fca, sorw, 
+                                  all, old_c, tws, alr, rmq, dl, cn, gen, 
+                                  old_cv, lt_c, rc_c, so, out, ndl, old, wq, 
+                                  dw, k >>
 
 cs_rm_cas(self) == /\ pc[self] = "cs_rm_cas"
                    /\ rmc' = [rmc EXCEPT ![Head(rmq[self])] = rmc[Head(rmq[self])] + 1]
@@ -2833,16 +2864,16 @@ cs_rm_cas(self) == /\ pc[self] = "cs_rm_cas"
                    /\ UNCHANGED << word, queue, cvword, cvq, waiting, cvmu, wl, 
                                    wc, sc, nww, nwsem, sem, data, now, note, 
                                    nreg, held, ret, sres, picked, sleeps, 
-                                   inlock, ip, mw, pool, nalloc, muFreed, refs, 
-                                   nwalive, taint3, stack, lt_l, clear, old_, 
-                                   zlo, zhi, wcnt, lw, lt_u, old_u, tc, nwl, 
-                                   wtrs, wake, wty, sor, cor, rmq_, late, lt_m, 
-                                   old_m, lt_mu, old_mu, lt_mu_, ww, old_mu_, 
-                                   sdl, scn, lt, rc, old_t, c, dl_, cn_, 
-                                   old_mu_w, lt_, first, out_, rc_, hadw, ata, 
-                                   so_, havel, tw, allr, omw, fca, sorw, all, 
-                                   old_c, tws, alr, dl, cn, gen, old_cv, lt_c, 
-                                   rc_c, so, out, ndl, old, wq, dw, k >>
+                                   inlock, ip, mw, pool, nalloc, nq, muFreed, 
+                                   refs, nwalive, taint3, stack, lt_l, clear, 
+                                   old_, zlo, zhi, wcnt, lw, lt_u, old_u, tc, 
+                                   nwl, wtrs, wake, wty, sor, cor, rmq_, late, 
+                                   lt_m, old_m, lt_mu, old_mu, lt_mu_, ww, 
+                                   old_mu_, sdl, scn, lt, rc, old_t, c, dl_, 
+                                   cn_, old_mu_w, lt_, first, out_, rc_, hadw, 
+                                   ata, so_, havel, tw, allr, omw, fca, sorw, 
+                                   all, old_c, tws, alr, dl, cn, gen, old_cv, 
+                                   lt_c, rc_c, so, out, ndl, old, wq, dw, k >>
 
 cs_f_st(self) == /\ pc[self] = "cs_f_st"
                  /\ nww' = [nww EXCEPT ![-Head(rmq[self])] = 0]
@@ -2850,7 +2881,7 @@ cs_f_st(self) == /\ pc[self] = "cs_f_st"
                  /\ UNCHANGED << word, queue, cvword, cvq, waiting, rmc, cvmu, 
                                  wl, wc, sc, nwsem, sem, data, now, note, nreg, 
                                  held, ret, sres, picked, sleeps, inlock, ip, 
-                                 mw, pool, nalloc, muFreed, refs, nwalive, 
+                                 mw, pool, nalloc, nq, muFreed, refs, nwalive, 
                                  taint3, stack, lt_l, clear, old_, zlo, zhi, 
                                  wcnt, lw, lt_u, old_u, tc, nwl, wtrs, wake, 
                                  wty, sor, cor, rmq_, late, lt_m, old_m, lt_mu, 
@@ -2868,7 +2899,7 @@ cs_f_v(self) == /\ pc[self] = "cs_f_v"
                 /\ UNCHANGED << word, queue, cvword, cvq, waiting, rmc, cvmu, 
                                 wl, wc, sc, nww, nwsem, data, now, note, nreg, 
                                 held, ret, sres, picked, sleeps, inlock, ip, 
-                                mw, pool, nalloc, muFreed, refs, nwalive, 
+                                mw, pool, nalloc, nq, muFreed, refs, nwalive, 
                                 taint3, stack, lt_l, clear, old_, zlo, zhi, 
                                 wcnt, lw, lt_u, old_u, tc, nwl, wtrs, wake, 
                                 wty, sor, cor, rmq_, late, lt_m, old_m, lt_mu, 
@@ -2912,7 +2943,7 @@ cs_4_st(self) == /\ pc[self] = "cs_4_st"
                  /\ UNCHANGED << word, queue, cvq, waiting, rmc, cvmu, wl, wc, 
                                  sc, nww, nwsem, sem, data, now, note, nreg, 
                                  held, ret, sres, picked, sleeps, inlock, ip, 
-                                 mw, pool, nalloc, muFreed, refs, nwalive, 
+                                 mw, pool, nalloc, nq, muFreed, refs, nwalive, 
                                  taint3, lt_l, clear, old_, zlo, zhi, wcnt, lw, 
                                  lt_u, old_u, tc, nwl, wtrs, wake, wty, sor, 
                                  cor, rmq_, late, lt_m, old_m, lt_mu, old_mu, 
@@ -2939,11 +2970,11 @@ cw_1_st(self) == /\ pc[self] = "cw_1_st"
                             /\ UNCHANGED << cvmu, wl, lt_c >>
                  /\ UNCHANGED << word, queue, cvword, cvq, rmc, sc, nww, nwsem, 
                                  sem, data, now, note, nreg, held, ret, sres, 
-                                 sleeps, inlock, ip, mw, pool, nalloc, muFreed, 
-                                 refs, nwalive, taint3, stack, lt_l, clear, 
-                                 old_, zlo, zhi, wcnt, lw, lt_u, old_u, tc, 
-                                 nwl, wtrs, wake, wty, sor, cor, rmq_, late, 
-                                 lt_m, old_m, lt_mu, old_mu, lt_mu_, ww, 
+                                 sleeps, inlock, ip, mw, pool, nalloc, nq, 
+                                 muFreed, refs, nwalive, taint3, stack, lt_l, 
+                                 clear, old_, zlo, zhi, wcnt, lw, lt_u, old_u, 
+                                 tc, nwl, wtrs, wake, wty, sor, cor, rmq_, 
+                                 late, lt_m, old_m, lt_mu, old_mu, lt_mu_, ww, 
                                  old_mu_, sdl, scn, lt, rc, old_t, c, dl_, cn_, 
                                  old_mu_w, lt_, first, out_, rc_, hadw, ata, 
                                  so_, havel, tw, allr, omw, fca, sorw, all, 
@@ -2958,7 +2989,7 @@ cw_2_ld(self) == /\ pc[self] = "cw_2_ld"
                  /\ UNCHANGED << word, queue, cvword, cvq, waiting, rmc, wc, 
                                  sc, nww, nwsem, sem, data, now, note, nreg, 
                                  held, ret, sres, picked, sleeps, inlock, ip, 
-                                 mw, pool, nalloc, muFreed, refs, nwalive, 
+                                 mw, pool, nalloc, nq, muFreed, refs, nwalive, 
                                  taint3, stack, lt_l, clear, old_, zlo, zhi, 
                                  wcnt, lw, lt_u, old_u, tc, nwl, wtrs, wake, 
                                  wty, sor, cor, rmq_, late, lt_m, old_m, lt_mu, 
@@ -2977,24 +3008,25 @@ cw_3_ld(self) == /\ pc[self] = "cw_3_ld"
                  /\ UNCHANGED << word, queue, cvword, cvq, waiting, rmc, cvmu, 
                                  wl, wc, sc, nww, nwsem, sem, data, now, note, 
                                  nreg, held, ret, sres, picked, sleeps, inlock, 
-                                 ip, mw, pool, nalloc, muFreed, refs, nwalive, 
-                                 taint3, stack, lt_l, clear, old_, zlo, zhi, 
-                                 wcnt, lw, lt_u, old_u, tc, nwl, wtrs, wake, 
-                                 wty, sor, cor, rmq_, late, lt_m, old_m, lt_mu, 
-                                 old_mu, lt_mu_, ww, old_mu_, sdl, scn, lt, rc, 
-                                 old_t, c, dl_, cn_, old_mu_w, lt_, first, 
-                                 out_, rc_, hadw, ata, so_, havel, tw, allr, 
-                                 omw, fca, sorw, all, old_c, tws, alr, rmq, dl, 
-                                 cn, gen, lt_c, rc_c, so, out, ndl, old, wq, 
-                                 dw, k >>
+                                 ip, mw, pool, nalloc, nq, muFreed, refs, 
+                                 nwalive, taint3, stack, lt_l, clear, old_, 
+                                 zlo, zhi, wcnt, lw, lt_u, old_u, tc, nwl, 
+                                 wtrs, wake, wty, sor, cor, rmq_, late, lt_m, 
+                                 old_m, lt_mu, old_mu, lt_mu_, ww, old_mu_, 
+                                 sdl, scn, lt, rc, old_t, c, dl_, cn_, 
+                                 old_mu_w, lt_, first, out_, rc_, hadw, ata, 
+                                 so_, havel, tw, allr, omw, fca, sorw, all, 
+                                 old_c, tws, alr, rmq, dl, cn, gen, lt_c, rc_c, 
+                                 so, out, ndl, old, wq, dw, k >>
 
 cw_4_cas(self) == /\ pc[self] = "cw_4_cas"
                   /\ IF cvword = old_cv[self]
                         THEN /\ cvword' = (old_cv[self] | CVSPIN) | CVNE
                              /\ cvq' = Append(cvq, W(self))
+                             /\ nq' = (IF nq < N THEN nq + 1 ELSE nq)
                              /\ pc' = [pc EXCEPT ![self] = "cw_5_ld"]
                         ELSE /\ pc' = [pc EXCEPT ![self] = "cw_3_d"]
-                             /\ UNCHANGED << cvword, cvq >>
+                             /\ UNCHANGED << cvword, cvq, nq >>
                   /\ UNCHANGED << word, queue, waiting, rmc, cvmu, wl, wc, sc, 
                                   nww, nwsem, sem, data, now, note, nreg, held, 
                                   ret, sres, picked, sleeps, inlock, ip, mw, 
@@ -3014,16 +3046,16 @@ cw_3_d(self) == /\ pc[self] = "cw_3_d"
                 /\ UNCHANGED << word, queue, cvword, cvq, waiting, rmc, cvmu, 
                                 wl, wc, sc, nww, nwsem, sem, data, now, note, 
                                 nreg, held, ret, sres, picked, sleeps, inlock, 
-                                ip, mw, pool, nalloc, muFreed, refs, nwalive, 
-                                taint3, stack, lt_l, clear, old_, zlo, zhi, 
-                                wcnt, lw, lt_u, old_u, tc, nwl, wtrs, wake, 
-                                wty, sor, cor, rmq_, late, lt_m, old_m, lt_mu, 
-                                old_mu, lt_mu_, ww, old_mu_, sdl, scn, lt, rc, 
-                                old_t, c, dl_, cn_, old_mu_w, lt_, first, out_, 
-                                rc_, hadw, ata, so_, havel, tw, allr, omw, fca, 
-                                sorw, all, old_c, tws, alr, rmq, dl, cn, gen, 
-                                old_cv, lt_c, rc_c, so, out, ndl, old, wq, dw, 
-                                k >>
+                                ip, mw, pool, nalloc, nq, muFreed, refs, 
+                                nwalive, taint3, stack, lt_l, clear, old_, zlo, 
+                                zhi, wcnt, lw, lt_u, old_u, tc, nwl, wtrs, 
+                                wake, wty, sor, cor, rmq_, late, lt_m, old_m, 
+                                lt_mu, old_mu, lt_mu_, ww, old_mu_, sdl, scn, 
+                                lt, rc, old_t, c, dl_, cn_, old_mu_w, lt_, 
+                                first, out_, rc_, hadw, ata, so_, havel, tw, 
+                                allr, omw, fca, sorw, all, old_c, tws, alr, 
+                                rmq, dl, cn, gen, old_cv, lt_c, rc_c, so, out, 
+                                ndl, old, wq, dw, k >>
 
 cw_5_ld(self) == /\ pc[self] = "cw_5_ld"
                  /\ rc_c' = [rc_c EXCEPT ![self] = rmc[W(self)]]
@@ -3031,16 +3063,16 @@ cw_5_ld(self) == /\ pc[self] = "cw_5_ld"
                  /\ UNCHANGED << word, queue, cvword, cvq, waiting, rmc, cvmu, 
                                  wl, wc, sc, nww, nwsem, sem, data, now, note, 
                                  nreg, held, ret, sres, picked, sleeps, inlock, 
-                                 ip, mw, pool, nalloc, muFreed, refs, nwalive, 
-                                 taint3, stack, lt_l, clear, old_, zlo, zhi, 
-                                 wcnt, lw, lt_u, old_u, tc, nwl, wtrs, wake, 
-                                 wty, sor, cor, rmq_, late, lt_m, old_m, lt_mu, 
-                                 old_mu, lt_mu_, ww, old_mu_, sdl, scn, lt, rc, 
-                                 old_t, c, dl_, cn_, old_mu_w, lt_, first, 
-                                 out_, rc_, hadw, ata, so_, havel, tw, allr, 
-                                 omw, fca, sorw, all, old_c, tws, alr, rmq, dl, 
-                                 cn, gen, old_cv, lt_c, so, out, ndl, old, wq, 
-                                 dw, k >>
+                                 ip, mw, pool, nalloc, nq, muFreed, refs, 
+                                 nwalive, taint3, stack, lt_l, clear, old_, 
+                                 zlo, zhi, wcnt, lw, lt_u, old_u, tc, nwl, 
+                                 wtrs, wake, wty, sor, cor, rmq_, late, lt_m, 
+                                 old_m, lt_mu, old_mu, lt_mu_, ww, old_mu_, 
+                                 sdl, scn, lt, rc, old_t, c, dl_, cn_, 
+                                 old_mu_w, lt_, first, out_, rc_, hadw, ata, 
+                                 so_, havel, tw, allr, omw, fca, sorw, all, 
+                                 old_c, tws, alr, rmq, dl, cn, gen, old_cv, 
+                                 lt_c, so, out, ndl, old, wq, dw, k >>
 
 cw_6_st(self) == /\ pc[self] = "cw_6_st"
                  /\ cvword' = old_cv[self] | CVNE
@@ -3060,15 +3092,15 @@ cw_6_st(self) == /\ pc[self] = "cw_6_st"
                  /\ UNCHANGED << word, queue, cvq, waiting, rmc, cvmu, wl, wc, 
                                  sc, nww, nwsem, sem, data, now, note, nreg, 
                                  ret, sres, picked, sleeps, inlock, ip, mw, 
-                                 pool, nalloc, muFreed, refs, nwalive, taint3, 
-                                 lt_l, clear, old_, zlo, zhi, wcnt, lw, lt_u, 
-                                 old_u, tc, nwl, wtrs, wake, wty, sor, cor, 
-                                 rmq_, late, lt_m, old_m, lt_mu, old_mu, sdl, 
-                                 scn, lt, rc, old_t, c, dl_, cn_, old_mu_w, 
-                                 lt_, first, out_, rc_, hadw, ata, so_, havel, 
-                                 tw, allr, omw, fca, sorw, all, old_c, tws, 
-                                 alr, rmq, dl, cn, gen, old_cv, lt_c, rc_c, 
-                                 ndl, old, wq, dw, k >>
+                                 pool, nalloc, nq, muFreed, refs, nwalive, 
+                                 taint3, lt_l, clear, old_, zlo, zhi, wcnt, lw, 
+                                 lt_u, old_u, tc, nwl, wtrs, wake, wty, sor, 
+                                 cor, rmq_, late, lt_m, old_m, lt_mu, old_mu, 
+                                 sdl, scn, lt, rc, old_t, c, dl_, cn_, 
+                                 old_mu_w, lt_, first, out_, rc_, hadw, ata, 
+                                 so_, havel, tw, allr, omw, fca, sorw, all, 
+                                 old_c, tws, alr, rmq, dl, cn, gen, old_cv, 
+                                 lt_c, rc_c, ndl, old, wq, dw, k >>
 
 cw_7_ld(self) == /\ pc[self] = "cw_7_ld"
                  /\ IF waiting[W(self)] = 0
@@ -3088,14 +3120,14 @@ cw_7_ld(self) == /\ pc[self] = "cw_7_ld"
                  /\ UNCHANGED << word, queue, cvword, cvq, waiting, rmc, cvmu, 
                                  wl, wc, sc, nww, nwsem, sem, data, now, note, 
                                  nreg, held, ret, sres, picked, sleeps, inlock, 
-                                 ip, mw, pool, nalloc, muFreed, refs, nwalive, 
-                                 taint3, lt_l, clear, old_, zlo, zhi, wcnt, lw, 
-                                 lt_u, old_u, tc, nwl, wtrs, wake, wty, sor, 
-                                 cor, rmq_, late, lt_m, old_m, lt_mu, old_mu, 
-                                 lt_mu_, ww, old_mu_, lt, rc, old_t, c, dl_, 
-                                 cn_, old_mu_w, lt_, first, out_, rc_, hadw, 
-                                 ata, so_, havel, tw, allr, omw, fca, sorw, 
-                                 all, old_c, tws, alr, rmq, dl, cn, gen, 
+                                 ip, mw, pool, nalloc, nq, muFreed, refs, 
+                                 nwalive, taint3, lt_l, clear, old_, zlo, zhi, 
+                                 wcnt, lw, lt_u, old_u, tc, nwl, wtrs, wake, 
+                                 wty, sor, cor, rmq_, late, lt_m, old_m, lt_mu, 
+                                 old_mu, lt_mu_, ww, old_mu_, lt, rc, old_t, c, 
+                                 dl_, cn_, old_mu_w, lt_, first, out_, rc_, 
+                                 hadw, ata, so_, havel, tw, allr, omw, fca, 
+                                 sorw, all, old_c, tws, alr, rmq, dl, cn, gen, 
                                  old_cv, lt_c, rc_c, so, out, ndl, old, wq, dw, 
                                  k >>
 
@@ -3107,16 +3139,16 @@ cw_8b_l(self) == /\ pc[self] = "cw_8b_l"
                  /\ UNCHANGED << word, queue, cvword, cvq, waiting, rmc, cvmu, 
                                  wl, wc, sc, nww, nwsem, sem, data, now, note, 
                                  nreg, held, ret, sres, picked, sleeps, inlock, 
-                                 ip, mw, pool, nalloc, muFreed, refs, nwalive, 
-                                 taint3, stack, lt_l, clear, old_, zlo, zhi, 
-                                 wcnt, lw, lt_u, old_u, tc, nwl, wtrs, wake, 
-                                 wty, sor, cor, rmq_, late, lt_m, old_m, lt_mu, 
-                                 old_mu, lt_mu_, ww, old_mu_, sdl, scn, lt, rc, 
-                                 old_t, c, dl_, cn_, old_mu_w, lt_, first, 
-                                 out_, rc_, hadw, ata, so_, havel, tw, allr, 
-                                 omw, fca, sorw, all, old_c, tws, alr, rmq, dl, 
-                                 cn, gen, old_cv, lt_c, rc_c, out, ndl, old, 
-                                 wq, dw, k >>
+                                 ip, mw, pool, nalloc, nq, muFreed, refs, 
+                                 nwalive, taint3, stack, lt_l, clear, old_, 
+                                 zlo, zhi, wcnt, lw, lt_u, old_u, tc, nwl, 
+                                 wtrs, wake, wty, sor, cor, rmq_, late, lt_m, 
+                                 old_m, lt_mu, old_mu, lt_mu_, ww, old_mu_, 
+                                 sdl, scn, lt, rc, old_t, c, dl_, cn_, 
+                                 old_mu_w, lt_, first, out_, rc_, hadw, ata, 
+                                 so_, havel, tw, allr, omw, fca, sorw, all, 
+                                 old_c, tws, alr, rmq, dl, cn, gen, old_cv, 
+                                 lt_c, rc_c, out, ndl, old, wq, dw, k >>
 
 cw_9_ld(self) == /\ pc[self] = "cw_9_ld"
                  /\ IF waiting[W(self)] = 0
@@ -3125,16 +3157,16 @@ cw_9_ld(self) == /\ pc[self] = "cw_9_ld"
                  /\ UNCHANGED << word, queue, cvword, cvq, waiting, rmc, cvmu, 
                                  wl, wc, sc, nww, nwsem, sem, data, now, note, 
                                  nreg, held, ret, sres, picked, sleeps, inlock, 
-                                 ip, mw, pool, nalloc, muFreed, refs, nwalive, 
-                                 taint3, stack, lt_l, clear, old_, zlo, zhi, 
-                                 wcnt, lw, lt_u, old_u, tc, nwl, wtrs, wake, 
-                                 wty, sor, cor, rmq_, late, lt_m, old_m, lt_mu, 
-                                 old_mu, lt_mu_, ww, old_mu_, sdl, scn, lt, rc, 
-                                 old_t, c, dl_, cn_, old_mu_w, lt_, first, 
-                                 out_, rc_, hadw, ata, so_, havel, tw, allr, 
-                                 omw, fca, sorw, all, old_c, tws, alr, rmq, dl, 
-                                 cn, gen, old_cv, lt_c, rc_c, so, out, ndl, 
-                                 old, wq, dw, k >>
+                                 ip, mw, pool, nalloc, nq, muFreed, refs, 
+                                 nwalive, taint3, stack, lt_l, clear, old_, 
+                                 zlo, zhi, wcnt, lw, lt_u, old_u, tc, nwl, 
+                                 wtrs, wake, wty, sor, cor, rmq_, late, lt_m, 
+                                 old_m, lt_mu, old_mu, lt_mu_, ww, old_mu_, 
+                                 sdl, scn, lt, rc, old_t, c, dl_, cn_, 
+                                 old_mu_w, lt_, first, out_, rc_, hadw, ata, 
+                                 so_, havel, tw, allr, omw, fca, sorw, all, 
+                                 old_c, tws, alr, rmq, dl, cn, gen, old_cv, 
+                                 lt_c, rc_c, so, out, ndl, old, wq, dw, k >>
 
 cw_10_ld(self) == /\ pc[self] = "cw_10_ld"
                   /\ old_cv' = [old_cv EXCEPT ![self] = cvword]
@@ -3144,15 +3176,15 @@ cw_10_ld(self) == /\ pc[self] = "cw_10_ld"
                   /\ UNCHANGED << word, queue, cvword, cvq, waiting, rmc, cvmu, 
                                   wl, wc, sc, nww, nwsem, sem, data, now, note, 
                                   nreg, held, ret, sres, picked, sleeps, 
-                                  inlock, ip, mw, pool, nalloc, muFreed, refs, 
-                                  nwalive, taint3, stack, lt_l, clear, old_, 
-                                  zlo, zhi, wcnt, lw, lt_u, old_u, tc, nwl, 
-                                  wtrs, wake, wty, sor, cor, rmq_, late, lt_m, 
-                                  old_m, lt_mu, old_mu, lt_mu_, ww, old_mu_, 
-                                  sdl, scn, lt, rc, old_t, c, dl_, cn_, 
-                                  old_mu_w, lt_, first, out_, rc_, hadw, ata, 
-                                  so_, havel, tw, allr, omw, fca, sorw, all, 
-                                  old_c, tws, alr, rmq, dl, cn, gen, lt_c, 
+                                  inlock, ip, mw, pool, nalloc, nq, muFreed, 
+                                  refs, nwalive, taint3, stack, lt_l, clear, 
+                                  old_, zlo, zhi, wcnt, lw, lt_u, old_u, tc, 
+                                  nwl, wtrs, wake, wty, sor, cor, rmq_, late, 
+                                  lt_m, old_m, lt_mu, old_mu, lt_mu_, ww, 
+                                  old_mu_, sdl, scn, lt, rc, old_t, c, dl_, 
+                                  cn_, old_mu_w, lt_, first, out_, rc_, hadw, 
+                                  ata, so_, havel, tw, allr, omw, fca, sorw, 
+                                  all, old_c, tws, alr, rmq, dl, cn, gen, lt_c, 
                                   rc_c, so, out, ndl, old, wq, dw, k >>
 
 cw_11_cas(self) == /\ pc[self] = "cw_11_cas"
@@ -3164,32 +3196,33 @@ cw_11_cas(self) == /\ pc[self] = "cw_11_cas"
                    /\ UNCHANGED << word, queue, cvq, waiting, rmc, cvmu, wl, 
                                    wc, sc, nww, nwsem, sem, data, now, note, 
                                    nreg, held, ret, sres, picked, sleeps, 
-                                   inlock, ip, mw, pool, nalloc, muFreed, refs, 
-                                   nwalive, taint3, stack, lt_l, clear, old_, 
-                                   zlo, zhi, wcnt, lw, lt_u, old_u, tc, nwl, 
-                                   wtrs, wake, wty, sor, cor, rmq_, late, lt_m, 
-                                   old_m, lt_mu, old_mu, lt_mu_, ww, old_mu_, 
-                                   sdl, scn, lt, rc, old_t, c, dl_, cn_, 
-                                   old_mu_w, lt_, first, out_, rc_, hadw, ata, 
-                                   so_, havel, tw, allr, omw, fca, sorw, all, 
-                                   old_c, tws, alr, rmq, dl, cn, gen, old_cv, 
-                                   lt_c, rc_c, so, out, ndl, old, wq, dw, k >>
+                                   inlock, ip, mw, pool, nalloc, nq, muFreed, 
+                                   refs, nwalive, taint3, stack, lt_l, clear, 
+                                   old_, zlo, zhi, wcnt, lw, lt_u, old_u, tc, 
+                                   nwl, wtrs, wake, wty, sor, cor, rmq_, late, 
+                                   lt_m, old_m, lt_mu, old_mu, lt_mu_, ww, 
+                                   old_mu_, sdl, scn, lt, rc, old_t, c, dl_, 
+                                   cn_, old_mu_w, lt_, first, out_, rc_, hadw, 
+                                   ata, so_, havel, tw, allr, omw, fca, sorw, 
+                                   all, old_c, tws, alr, rmq, dl, cn, gen, 
+                                   old_cv, lt_c, rc_c, so, out, ndl, old, wq, 
+                                   dw, k >>
 
 cw_10_d(self) == /\ pc[self] = "cw_10_d"
                  /\ pc' = [pc EXCEPT ![self] = "cw_10_ld"]
                  /\ UNCHANGED << word, queue, cvword, cvq, waiting, rmc, cvmu, 
                                  wl, wc, sc, nww, nwsem, sem, data, now, note, 
                                  nreg, held, ret, sres, picked, sleeps, inlock, 
-                                 ip, mw, pool, nalloc, muFreed, refs, nwalive, 
-                                 taint3, stack, lt_l, clear, old_, zlo, zhi, 
-                                 wcnt, lw, lt_u, old_u, tc, nwl, wtrs, wake, 
-                                 wty, sor, cor, rmq_, late, lt_m, old_m, lt_mu, 
-                                 old_mu, lt_mu_, ww, old_mu_, sdl, scn, lt, rc, 
-                                 old_t, c, dl_, cn_, old_mu_w, lt_, first, 
-                                 out_, rc_, hadw, ata, so_, havel, tw, allr, 
-                                 omw, fca, sorw, all, old_c, tws, alr, rmq, dl, 
-                                 cn, gen, old_cv, lt_c, rc_c, so, out, ndl, 
-                                 old, wq, dw, k >>
+                                 ip, mw, pool, nalloc, nq, muFreed, refs, 
+                                 nwalive, taint3, stack, lt_l, clear, old_, 
+                                 zlo, zhi, wcnt, lw, lt_u, old_u, tc, nwl, 
+                                 wtrs, wake, wty, sor, cor, rmq_, late, lt_m, 
+                                 old_m, lt_mu, old_mu, lt_mu_, ww, old_mu_, 
+                                 sdl, scn, lt, rc, old_t, c, dl_, cn_, 
+                                 old_mu_w, lt_, first, out_, rc_, hadw, ata, 
+                                 so_, havel, tw, allr, omw, fca, sorw, all, 
+                                 old_c, tws, alr, rmq, dl, cn, gen, old_cv, 
+                                 lt_c, rc_c, so, out, ndl, old, wq, dw, k >>
 
 cw_12_ld(self) == /\ pc[self] = "cw_12_ld"
                   /\ IF waiting[W(self)] = 0
@@ -3198,16 +3231,17 @@ cw_12_ld(self) == /\ pc[self] = "cw_12_ld"
                   /\ UNCHANGED << word, queue, cvword, cvq, waiting, rmc, cvmu, 
                                   wl, wc, sc, nww, nwsem, sem, data, now, note, 
                                   nreg, held, ret, sres, picked, sleeps, 
-                                  inlock, ip, mw, pool, nalloc, muFreed, refs, 
-                                  nwalive, taint3, stack, lt_l, clear, old_, 
-                                  zlo, zhi, wcnt, lw, lt_u, old_u, tc, nwl, 
-                                  wtrs, wake, wty, sor, cor, rmq_, late, lt_m, 
-                                  old_m, lt_mu, old_mu, lt_mu_, ww, old_mu_, 
-                                  sdl, scn, lt, rc, old_t, c, dl_, cn_, 
-                                  old_mu_w, lt_, first, out_, rc_, hadw, ata, 
-                                  so_, havel, tw, allr, omw, fca, sorw, all, 
-                                  old_c, tws, alr, rmq, dl, cn, gen, old_cv, 
-                                  lt_c, rc_c, so, out, ndl, old, wq, dw, k >>
+                                  inlock, ip, mw, pool, nalloc, nq, muFreed, 
+                                  refs, nwalive, taint3, stack, lt_l, clear, 
+                                  old_, zlo, zhi, wcnt, lw, lt_u, old_u, tc, 
+                                  nwl, wtrs, wake, wty, sor, cor, rmq_, late, 
+                                  lt_m, old_m, lt_mu, old_mu, lt_mu_, ww, 
+                                  old_mu_, sdl, scn, lt, rc, old_t, c, dl_, 
+                                  cn_, old_mu_w, lt_, first, out_, rc_, hadw, 
+                                  ata, so_, havel, tw, allr, omw, fca, sorw, 
+                                  all, old_c, tws, alr, rmq, dl, cn, gen, 
+                                  old_cv, lt_c, rc_c, so, out, ndl, old, wq, 
+                                  dw, k >>
 
 cw_13_ld(self) == /\ pc[self] = "cw_13_ld"
                   /\ IF rc_c[self] # rmc[W(self)]
@@ -3219,16 +3253,16 @@ cw_13_ld(self) == /\ pc[self] = "cw_13_ld"
                   /\ UNCHANGED << word, queue, cvword, waiting, rmc, cvmu, wl, 
                                   wc, sc, nww, nwsem, sem, data, now, note, 
                                   nreg, held, ret, sres, picked, sleeps, 
-                                  inlock, ip, mw, pool, nalloc, muFreed, refs, 
-                                  nwalive, taint3, stack, lt_l, clear, old_, 
-                                  zlo, zhi, wcnt, lw, lt_u, old_u, tc, nwl, 
-                                  wtrs, wake, wty, sor, cor, rmq_, late, lt_m, 
-                                  old_m, lt_mu, old_mu, lt_mu_, ww, old_mu_, 
-                                  sdl, scn, lt, rc, old_t, c, dl_, cn_, 
-                                  old_mu_w, lt_, first, out_, rc_, hadw, ata, 
-                                  so_, havel, tw, allr, omw, fca, sorw, all, 
-                                  old_c, tws, alr, rmq, dl, cn, gen, old_cv, 
-                                  lt_c, rc_c, so, ndl, old, wq, dw, k >>
+                                  inlock, ip, mw, pool, nalloc, nq, muFreed, 
+                                  refs, nwalive, taint3, stack, lt_l, clear, 
+                                  old_, zlo, zhi, wcnt, lw, lt_u, old_u, tc, 
+                                  nwl, wtrs, wake, wty, sor, cor, rmq_, late, 
+                                  lt_m, old_m, lt_mu, old_mu, lt_mu_, ww, 
+                                  old_mu_, sdl, scn, lt, rc, old_t, c, dl_, 
+                                  cn_, old_mu_w, lt_, first, out_, rc_, hadw, 
+                                  ata, so_, havel, tw, allr, omw, fca, sorw, 
+                                  all, old_c, tws, alr, rmq, dl, cn, gen, 
+                                  old_cv, lt_c, rc_c, so, ndl, old, wq, dw, k >>
 
 cw_14_ld(self) == /\ pc[self] = "cw_14_ld"
                   /\ TRUE
@@ -3236,16 +3270,17 @@ cw_14_ld(self) == /\ pc[self] = "cw_14_ld"
                   /\ UNCHANGED << word, queue, cvword, cvq, waiting, rmc, cvmu, 
                                   wl, wc, sc, nww, nwsem, sem, data, now, note, 
                                   nreg, held, ret, sres, picked, sleeps, 
-                                  inlock, ip, mw, pool, nalloc, muFreed, refs, 
-                                  nwalive, taint3, stack, lt_l, clear, old_, 
-                                  zlo, zhi, wcnt, lw, lt_u, old_u, tc, nwl, 
-                                  wtrs, wake, wty, sor, cor, rmq_, late, lt_m, 
-                                  old_m, lt_mu, old_mu, lt_mu_, ww, old_mu_, 
-                                  sdl, scn, lt, rc, old_t, c, dl_, cn_, 
-                                  old_mu_w, lt_, first, out_, rc_, hadw, ata, 
-                                  so_, havel, tw, allr, omw, fca, sorw, all, 
-                                  old_c, tws, alr, rmq, dl, cn, gen, old_cv, 
-                                  lt_c, rc_c, so, out, ndl, old, wq, dw, k >>
+                                  inlock, ip, mw, pool, nalloc, nq, muFreed, 
+                                  refs, nwalive, taint3, stack, lt_l, clear, 
+                                  old_, zlo, zhi, wcnt, lw, lt_u, old_u, tc, 
+                                  nwl, wtrs, wake, wty, sor, cor, rmq_, late, 
+                                  lt_m, old_m, lt_mu, old_mu, lt_mu_, ww, 
+                                  old_mu_, sdl, scn, lt, rc, old_t, c, dl_, 
+                                  cn_, old_mu_w, lt_, first, out_, rc_, hadw, 
+                                  ata, so_, havel, tw, allr, omw, fca, sorw, 
+                                  all, old_c, tws, alr, rmq, dl, cn, gen, 
+                                  old_cv, lt_c, rc_c, so, out, ndl, old, wq, 
+                                  dw, k >>
 
 cw_14_cas(self) == /\ pc[self] = "cw_14_cas"
                    /\ rmc' = [rmc EXCEPT ![W(self)] = rmc[W(self)] + 1]
@@ -3254,16 +3289,16 @@ cw_14_cas(self) == /\ pc[self] = "cw_14_cas"
                    /\ UNCHANGED << word, queue, cvword, cvq, waiting, cvmu, wl, 
                                    wc, sc, nww, nwsem, sem, data, now, note, 
                                    nreg, held, ret, sres, picked, sleeps, 
-                                   inlock, ip, mw, pool, nalloc, muFreed, refs, 
-                                   nwalive, taint3, stack, lt_l, clear, old_, 
-                                   zlo, zhi, wcnt, lw, lt_u, old_u, tc, nwl, 
-                                   wtrs, wake, wty, sor, cor, rmq_, late, lt_m, 
-                                   old_m, lt_mu, old_mu, lt_mu_, ww, old_mu_, 
-                                   sdl, scn, lt, rc, old_t, c, dl_, cn_, 
-                                   old_mu_w, lt_, first, out_, rc_, hadw, ata, 
-                                   so_, havel, tw, allr, omw, fca, sorw, all, 
-                                   old_c, tws, alr, rmq, dl, cn, gen, lt_c, 
-                                   rc_c, so, out, ndl, old, wq, dw, k >>
+                                   inlock, ip, mw, pool, nalloc, nq, muFreed, 
+                                   refs, nwalive, taint3, stack, lt_l, clear, 
+                                   old_, zlo, zhi, wcnt, lw, lt_u, old_u, tc, 
+                                   nwl, wtrs, wake, wty, sor, cor, rmq_, late, 
+                                   lt_m, old_m, lt_mu, old_mu, lt_mu_, ww, 
+                                   old_mu_, sdl, scn, lt, rc, old_t, c, dl_, 
+                                   cn_, old_mu_w, lt_, first, out_, rc_, hadw, 
+                                   ata, so_, havel, tw, allr, omw, fca, sorw, 
+                                   all, old_c, tws, alr, rmq, dl, cn, gen, 
+                                   lt_c, rc_c, so, out, ndl, old, wq, dw, k >>
 
 cw_14_st(self) == /\ pc[self] = "cw_14_st"
                   /\ waiting' = [waiting EXCEPT ![W(self)] = 0]
@@ -3271,7 +3306,7 @@ cw_14_st(self) == /\ pc[self] = "cw_14_st"
                   /\ UNCHANGED << word, queue, cvword, cvq, rmc, cvmu, wl, wc, 
                                   sc, nww, nwsem, sem, data, now, note, nreg, 
                                   held, ret, sres, picked, sleeps, inlock, ip, 
-                                  mw, pool, nalloc, muFreed, refs, nwalive, 
+                                  mw, pool, nalloc, nq, muFreed, refs, nwalive, 
                                   taint3, stack, lt_l, clear, old_, zlo, zhi, 
                                   wcnt, lw, lt_u, old_u, tc, nwl, wtrs, wake, 
                                   wty, sor, cor, rmq_, late, lt_m, old_m, 
@@ -3288,7 +3323,7 @@ cw_15_st(self) == /\ pc[self] = "cw_15_st"
                   /\ UNCHANGED << word, queue, cvq, waiting, rmc, cvmu, wl, wc, 
                                   sc, nww, nwsem, sem, data, now, note, nreg, 
                                   held, ret, sres, picked, sleeps, inlock, ip, 
-                                  mw, pool, nalloc, muFreed, refs, nwalive, 
+                                  mw, pool, nalloc, nq, muFreed, refs, nwalive, 
                                   taint3, stack, lt_l, clear, old_, zlo, zhi, 
                                   wcnt, lw, lt_u, old_u, tc, nwl, wtrs, wake, 
                                   wty, sor, cor, rmq_, late, lt_m, old_m, 
@@ -3306,35 +3341,36 @@ cw_16_ld(self) == /\ pc[self] = "cw_16_ld"
                   /\ UNCHANGED << word, queue, cvword, cvq, waiting, rmc, cvmu, 
                                   wl, wc, sc, nww, nwsem, sem, data, now, note, 
                                   nreg, held, ret, sres, picked, sleeps, 
-                                  inlock, ip, mw, pool, nalloc, muFreed, refs, 
-                                  nwalive, taint3, stack, lt_l, clear, old_, 
-                                  zlo, zhi, wcnt, lw, lt_u, old_u, tc, nwl, 
-                                  wtrs, wake, wty, sor, cor, rmq_, late, lt_m, 
-                                  old_m, lt_mu, old_mu, lt_mu_, ww, old_mu_, 
-                                  sdl, scn, lt, rc, old_t, c, dl_, cn_, 
-                                  old_mu_w, lt_, first, out_, rc_, hadw, ata, 
-                                  so_, havel, tw, allr, omw, fca, sorw, all, 
-                                  old_c, tws, alr, rmq, dl, cn, gen, old_cv, 
-                                  lt_c, rc_c, so, out, ndl, old, wq, dw, k >>
+                                  inlock, ip, mw, pool, nalloc, nq, muFreed, 
+                                  refs, nwalive, taint3, stack, lt_l, clear, 
+                                  old_, zlo, zhi, wcnt, lw, lt_u, old_u, tc, 
+                                  nwl, wtrs, wake, wty, sor, cor, rmq_, late, 
+                                  lt_m, old_m, lt_mu, old_mu, lt_mu_, ww, 
+                                  old_mu_, sdl, scn, lt, rc, old_t, c, dl_, 
+                                  cn_, old_mu_w, lt_, first, out_, rc_, hadw, 
+                                  ata, so_, havel, tw, allr, omw, fca, sorw, 
+                                  all, old_c, tws, alr, rmq, dl, cn, gen, 
+                                  old_cv, lt_c, rc_c, so, out, ndl, old, wq, 
+                                  dw, k >>
 
 cw_16_d(self) == /\ pc[self] = "cw_16_d"
                  /\ pc' = [pc EXCEPT ![self] = "cw_7_ld"]
                  /\ UNCHANGED << word, queue, cvword, cvq, waiting, rmc, cvmu, 
                                  wl, wc, sc, nww, nwsem, sem, data, now, note, 
                                  nreg, held, ret, sres, picked, sleeps, inlock, 
-                                 ip, mw, pool, nalloc, muFreed, refs, nwalive, 
-                                 taint3, stack, lt_l, clear, old_, zlo, zhi, 
-                                 wcnt, lw, lt_u, old_u, tc, nwl, wtrs, wake, 
-                                 wty, sor, cor, rmq_, late, lt_m, old_m, lt_mu, 
-                                 old_mu, lt_mu_, ww, old_mu_, sdl, scn, lt, rc, 
-                                 old_t, c, dl_, cn_, old_mu_w, lt_, first, 
-                                 out_, rc_, hadw, ata, so_, havel, tw, allr, 
-                                 omw, fca, sorw, all, old_c, tws, alr, rmq, dl, 
-                                 cn, gen, old_cv, lt_c, rc_c, so, out, ndl, 
-                                 old, wq, dw, k >>
+                                 ip, mw, pool, nalloc, nq, muFreed, refs, 
+                                 nwalive, taint3, stack, lt_l, clear, old_, 
+                                 zlo, zhi, wcnt, lw, lt_u, old_u, tc, nwl, 
+                                 wtrs, wake, wty, sor, cor, rmq_, late, lt_m, 
+                                 old_m, lt_mu, old_mu, lt_mu_, ww, old_mu_, 
+                                 sdl, scn, lt, rc, old_t, c, dl_, cn_, 
+                                 old_mu_w, lt_, first, out_, rc_, hadw, ata, 
+                                 so_, havel, tw, allr, omw, fca, sorw, all, 
+                                 old_c, tws, alr, rmq, dl, cn, gen, old_cv, 
+                                 lt_c, rc_c, so, out, ndl, old, wq, dw, k >>
 
 cw_17_l(self) == /\ pc[self] = "cw_17_l"
-                 /\ IF ~cvmu[W(self)]
+                 /\ IF ~gen[self] /\ ~cvmu[W(self)]
                        THEN /\ /\ clear' = [clear EXCEPT ![self] = DESIG]
                                /\ lt_l' = [lt_l EXCEPT ![self] = lt_c[self]]
                                /\ stack' = [stack EXCEPT ![self] = << [ procedure |->  "lock_slow",
@@ -3367,15 +3403,15 @@ cw_17_l(self) == /\ pc[self] = "cw_17_l"
                  /\ UNCHANGED << word, queue, cvword, cvq, waiting, rmc, cvmu, 
                                  wl, wc, sc, nww, nwsem, sem, data, now, note, 
                                  nreg, held, ret, sres, picked, sleeps, inlock, 
-                                 ip, mw, pool, nalloc, muFreed, refs, nwalive, 
-                                 taint3, lt_u, old_u, tc, nwl, wtrs, wake, wty, 
-                                 sor, cor, rmq_, late, lt_mu, old_mu, lt_mu_, 
-                                 ww, old_mu_, sdl, scn, lt, rc, old_t, c, dl_, 
-                                 cn_, old_mu_w, lt_, first, out_, rc_, hadw, 
-                                 ata, so_, havel, tw, allr, omw, fca, sorw, 
-                                 all, old_c, tws, alr, rmq, dl, cn, gen, 
-                                 old_cv, lt_c, rc_c, so, out, ndl, old, wq, dw, 
-                                 k >>
+                                 ip, mw, pool, nalloc, nq, muFreed, refs, 
+                                 nwalive, taint3, lt_u, old_u, tc, nwl, wtrs, 
+                                 wake, wty, sor, cor, rmq_, late, lt_mu, 
+                                 old_mu, lt_mu_, ww, old_mu_, sdl, scn, lt, rc, 
+                                 old_t, c, dl_, cn_, old_mu_w, lt_, first, 
+                                 out_, rc_, hadw, ata, so_, havel, tw, allr, 
+                                 omw, fca, sorw, all, old_c, tws, alr, rmq, dl, 
+                                 cn, gen, old_cv, lt_c, rc_c, so, out, ndl, 
+                                 old, wq, dw, k >>
 
 cw_18_l(self) == /\ pc[self] = "cw_18_l"
                  /\ ret' = [ret EXCEPT ![self] = out[self]]
@@ -3392,7 +3428,7 @@ cw_18_l(self) == /\ pc[self] = "cw_18_l"
                  /\ UNCHANGED << word, queue, cvword, cvq, waiting, rmc, cvmu, 
                                  wl, wc, sc, nww, nwsem, sem, data, now, note, 
                                  nreg, held, sres, picked, sleeps, inlock, ip, 
-                                 mw, pool, nalloc, muFreed, refs, nwalive, 
+                                 mw, pool, nalloc, nq, muFreed, refs, nwalive, 
                                  taint3, lt_l, clear, old_, zlo, zhi, wcnt, lw, 
                                  lt_u, old_u, tc, nwl, wtrs, wake, wty, sor, 
                                  cor, rmq_, late, lt_m, old_m, lt_mu, old_mu, 
@@ -3420,15 +3456,16 @@ wn_1_st(self) == /\ pc[self] = "wn_1_st"
                  /\ UNCHANGED << word, queue, cvword, cvq, waiting, rmc, cvmu, 
                                  wl, wc, sc, sem, data, now, note, nreg, held, 
                                  ret, sres, sleeps, inlock, ip, mw, pool, 
-                                 nalloc, muFreed, refs, taint3, stack, lt_l, 
-                                 clear, old_, zlo, zhi, wcnt, lw, lt_u, old_u, 
-                                 tc, nwl, wtrs, wake, wty, sor, cor, rmq_, 
-                                 late, lt_m, old_m, lt_mu, old_mu, lt_mu_, ww, 
-                                 old_mu_, sdl, scn, lt, rc, old_t, c, dl_, cn_, 
-                                 old_mu_w, lt_, first, out_, rc_, hadw, ata, 
-                                 so_, havel, tw, allr, omw, fca, sorw, all, 
-                                 old_c, tws, alr, rmq, dl, cn, gen, old_cv, 
-                                 lt_c, rc_c, so, out, ndl, old, wq, dw, k >>
+                                 nalloc, nq, muFreed, refs, taint3, stack, 
+                                 lt_l, clear, old_, zlo, zhi, wcnt, lw, lt_u, 
+                                 old_u, tc, nwl, wtrs, wake, wty, sor, cor, 
+                                 rmq_, late, lt_m, old_m, lt_mu, old_mu, 
+                                 lt_mu_, ww, old_mu_, sdl, scn, lt, rc, old_t, 
+                                 c, dl_, cn_, old_mu_w, lt_, first, out_, rc_, 
+                                 hadw, ata, so_, havel, tw, allr, omw, fca, 
+                                 sorw, all, old_c, tws, alr, rmq, dl, cn, gen, 
+                                 old_cv, lt_c, rc_c, so, out, ndl, old, wq, dw, 
+                                 k >>
 
 wn_2_ld(self) == /\ pc[self] = "wn_2_ld"
                  /\ old' = [old EXCEPT ![self] = cvword]
@@ -3438,24 +3475,25 @@ wn_2_ld(self) == /\ pc[self] = "wn_2_ld"
                  /\ UNCHANGED << word, queue, cvword, cvq, waiting, rmc, cvmu, 
                                  wl, wc, sc, nww, nwsem, sem, data, now, note, 
                                  nreg, held, ret, sres, picked, sleeps, inlock, 
-                                 ip, mw, pool, nalloc, muFreed, refs, nwalive, 
-                                 taint3, stack, lt_l, clear, old_, zlo, zhi, 
-                                 wcnt, lw, lt_u, old_u, tc, nwl, wtrs, wake, 
-                                 wty, sor, cor, rmq_, late, lt_m, old_m, lt_mu, 
-                                 old_mu, lt_mu_, ww, old_mu_, sdl, scn, lt, rc, 
-                                 old_t, c, dl_, cn_, old_mu_w, lt_, first, 
-                                 out_, rc_, hadw, ata, so_, havel, tw, allr, 
-                                 omw, fca, sorw, all, old_c, tws, alr, rmq, dl, 
-                                 cn, gen, old_cv, lt_c, rc_c, so, out, ndl, wq, 
-                                 dw, k >>
+                                 ip, mw, pool, nalloc, nq, muFreed, refs, 
+                                 nwalive, taint3, stack, lt_l, clear, old_, 
+                                 zlo, zhi, wcnt, lw, lt_u, old_u, tc, nwl, 
+                                 wtrs, wake, wty, sor, cor, rmq_, late, lt_m, 
+                                 old_m, lt_mu, old_mu, lt_mu_, ww, old_mu_, 
+                                 sdl, scn, lt, rc, old_t, c, dl_, cn_, 
+                                 old_mu_w, lt_, first, out_, rc_, hadw, ata, 
+                                 so_, havel, tw, allr, omw, fca, sorw, all, 
+                                 old_c, tws, alr, rmq, dl, cn, gen, old_cv, 
+                                 lt_c, rc_c, so, out, ndl, wq, dw, k >>
 
 wn_3_cas(self) == /\ pc[self] = "wn_3_cas"
                   /\ IF cvword = old[self]
                         THEN /\ cvword' = old[self] | CVSPIN
                              /\ cvq' = Append(cvq, -self)
+                             /\ nq' = (IF nq < N THEN nq + 1 ELSE nq)
                              /\ pc' = [pc EXCEPT ![self] = "wn_4_st"]
                         ELSE /\ pc' = [pc EXCEPT ![self] = "wn_2_d"]
-                             /\ UNCHANGED << cvword, cvq >>
+                             /\ UNCHANGED << cvword, cvq, nq >>
                   /\ UNCHANGED << word, queue, waiting, rmc, cvmu, wl, wc, sc, 
                                   nww, nwsem, sem, data, now, note, nreg, held, 
                                   ret, sres, picked, sleeps, inlock, ip, mw, 
@@ -3475,16 +3513,16 @@ wn_2_d(self) == /\ pc[self] = "wn_2_d"
                 /\ UNCHANGED << word, queue, cvword, cvq, waiting, rmc, cvmu, 
                                 wl, wc, sc, nww, nwsem, sem, data, now, note, 
                                 nreg, held, ret, sres, picked, sleeps, inlock, 
-                                ip, mw, pool, nalloc, muFreed, refs, nwalive, 
-                                taint3, stack, lt_l, clear, old_, zlo, zhi, 
-                                wcnt, lw, lt_u, old_u, tc, nwl, wtrs, wake, 
-                                wty, sor, cor, rmq_, late, lt_m, old_m, lt_mu, 
-                                old_mu, lt_mu_, ww, old_mu_, sdl, scn, lt, rc, 
-                                old_t, c, dl_, cn_, old_mu_w, lt_, first, out_, 
-                                rc_, hadw, ata, so_, havel, tw, allr, omw, fca, 
-                                sorw, all, old_c, tws, alr, rmq, dl, cn, gen, 
-                                old_cv, lt_c, rc_c, so, out, ndl, old, wq, dw, 
-                                k >>
+                                ip, mw, pool, nalloc, nq, muFreed, refs, 
+                                nwalive, taint3, stack, lt_l, clear, old_, zlo, 
+                                zhi, wcnt, lw, lt_u, old_u, tc, nwl, wtrs, 
+                                wake, wty, sor, cor, rmq_, late, lt_m, old_m, 
+                                lt_mu, old_mu, lt_mu_, ww, old_mu_, sdl, scn, 
+                                lt, rc, old_t, c, dl_, cn_, old_mu_w, lt_, 
+                                first, out_, rc_, hadw, ata, so_, havel, tw, 
+                                allr, omw, fca, sorw, all, old_c, tws, alr, 
+                                rmq, dl, cn, gen, old_cv, lt_c, rc_c, so, out, 
+                                ndl, old, wq, dw, k >>
 
 wn_4_st(self) == /\ pc[self] = "wn_4_st"
                  /\ nww' = [nww EXCEPT ![self] = 1]
@@ -3492,7 +3530,7 @@ wn_4_st(self) == /\ pc[self] = "wn_4_st"
                  /\ UNCHANGED << word, queue, cvword, cvq, waiting, rmc, cvmu, 
                                  wl, wc, sc, nwsem, sem, data, now, note, nreg, 
                                  held, ret, sres, picked, sleeps, inlock, ip, 
-                                 mw, pool, nalloc, muFreed, refs, nwalive, 
+                                 mw, pool, nalloc, nq, muFreed, refs, nwalive, 
                                  taint3, stack, lt_l, clear, old_, zlo, zhi, 
                                  wcnt, lw, lt_u, old_u, tc, nwl, wtrs, wake, 
                                  wty, sor, cor, rmq_, late, lt_m, old_m, lt_mu, 
@@ -3519,15 +3557,15 @@ wn_5_st(self) == /\ pc[self] = "wn_5_st"
                  /\ UNCHANGED << word, queue, cvq, waiting, rmc, cvmu, wl, wc, 
                                  sc, nww, nwsem, sem, data, now, note, nreg, 
                                  ret, sres, picked, sleeps, inlock, ip, mw, 
-                                 pool, nalloc, muFreed, refs, nwalive, taint3, 
-                                 lt_l, clear, old_, zlo, zhi, wcnt, lw, lt_u, 
-                                 old_u, tc, nwl, wtrs, wake, wty, sor, cor, 
-                                 rmq_, late, lt_m, old_m, lt_mu, old_mu, sdl, 
-                                 scn, lt, rc, old_t, c, dl_, cn_, old_mu_w, 
-                                 lt_, first, out_, rc_, hadw, ata, so_, havel, 
-                                 tw, allr, omw, fca, sorw, all, old_c, tws, 
-                                 alr, rmq, dl, cn, gen, old_cv, lt_c, rc_c, so, 
-                                 out, ndl, old, wq, dw, k >>
+                                 pool, nalloc, nq, muFreed, refs, nwalive, 
+                                 taint3, lt_l, clear, old_, zlo, zhi, wcnt, lw, 
+                                 lt_u, old_u, tc, nwl, wtrs, wake, wty, sor, 
+                                 cor, rmq_, late, lt_m, old_m, lt_mu, old_mu, 
+                                 sdl, scn, lt, rc, old_t, c, dl_, cn_, 
+                                 old_mu_w, lt_, first, out_, rc_, hadw, ata, 
+                                 so_, havel, tw, allr, omw, fca, sorw, all, 
+                                 old_c, tws, alr, rmq, dl, cn, gen, old_cv, 
+                                 lt_c, rc_c, so, out, ndl, old, wq, dw, k >>
 
 wn_6_ld(self) == /\ pc[self] = "wn_6_ld"
                  /\ IF nww[self] = 0
@@ -3536,16 +3574,16 @@ wn_6_ld(self) == /\ pc[self] = "wn_6_ld"
                  /\ UNCHANGED << word, queue, cvword, cvq, waiting, rmc, cvmu, 
                                  wl, wc, sc, nww, nwsem, sem, data, now, note, 
                                  nreg, held, ret, sres, picked, sleeps, inlock, 
-                                 ip, mw, pool, nalloc, muFreed, refs, nwalive, 
-                                 taint3, stack, lt_l, clear, old_, zlo, zhi, 
-                                 wcnt, lw, lt_u, old_u, tc, nwl, wtrs, wake, 
-                                 wty, sor, cor, rmq_, late, lt_m, old_m, lt_mu, 
-                                 old_mu, lt_mu_, ww, old_mu_, sdl, scn, lt, rc, 
-                                 old_t, c, dl_, cn_, old_mu_w, lt_, first, 
-                                 out_, rc_, hadw, ata, so_, havel, tw, allr, 
-                                 omw, fca, sorw, all, old_c, tws, alr, rmq, dl, 
-                                 cn, gen, old_cv, lt_c, rc_c, so, out, ndl, 
-                                 old, wq, dw, k >>
+                                 ip, mw, pool, nalloc, nq, muFreed, refs, 
+                                 nwalive, taint3, stack, lt_l, clear, old_, 
+                                 zlo, zhi, wcnt, lw, lt_u, old_u, tc, nwl, 
+                                 wtrs, wake, wty, sor, cor, rmq_, late, lt_m, 
+                                 old_m, lt_mu, old_mu, lt_mu_, ww, old_mu_, 
+                                 sdl, scn, lt, rc, old_t, c, dl_, cn_, 
+                                 old_mu_w, lt_, first, out_, rc_, hadw, ata, 
+                                 so_, havel, tw, allr, omw, fca, sorw, all, 
+                                 old_c, tws, alr, rmq, dl, cn, gen, old_cv, 
+                                 lt_c, rc_c, so, out, ndl, old, wq, dw, k >>
 
 wn_7_pd(self) == /\ pc[self] = "wn_7_pd"
                  /\ sem[W(self)] > 0 \/ Expired(ndl[self], now)
@@ -3557,7 +3595,7 @@ wn_7_pd(self) == /\ pc[self] = "wn_7_pd"
                  /\ UNCHANGED << word, queue, cvword, cvq, waiting, rmc, cvmu, 
                                  wl, wc, sc, nww, nwsem, data, now, note, nreg, 
                                  held, ret, sres, picked, sleeps, inlock, ip, 
-                                 mw, pool, nalloc, muFreed, refs, nwalive, 
+                                 mw, pool, nalloc, nq, muFreed, refs, nwalive, 
                                  taint3, stack, lt_l, clear, old_, zlo, zhi, 
                                  wcnt, lw, lt_u, old_u, tc, nwl, wtrs, wake, 
                                  wty, sor, cor, rmq_, late, lt_m, old_m, lt_mu, 
@@ -3576,16 +3614,16 @@ wn_8_ld(self) == /\ pc[self] = "wn_8_ld"
                  /\ UNCHANGED << word, queue, cvword, cvq, waiting, rmc, cvmu, 
                                  wl, wc, sc, nww, nwsem, sem, data, now, note, 
                                  nreg, held, ret, sres, picked, sleeps, inlock, 
-                                 ip, mw, pool, nalloc, muFreed, refs, nwalive, 
-                                 taint3, stack, lt_l, clear, old_, zlo, zhi, 
-                                 wcnt, lw, lt_u, old_u, tc, nwl, wtrs, wake, 
-                                 wty, sor, cor, rmq_, late, lt_m, old_m, lt_mu, 
-                                 old_mu, lt_mu_, ww, old_mu_, sdl, scn, lt, rc, 
-                                 old_t, c, dl_, cn_, old_mu_w, lt_, first, 
-                                 out_, rc_, hadw, ata, so_, havel, tw, allr, 
-                                 omw, fca, sorw, all, old_c, tws, alr, rmq, dl, 
-                                 cn, gen, old_cv, lt_c, rc_c, so, out, ndl, wq, 
-                                 dw, k >>
+                                 ip, mw, pool, nalloc, nq, muFreed, refs, 
+                                 nwalive, taint3, stack, lt_l, clear, old_, 
+                                 zlo, zhi, wcnt, lw, lt_u, old_u, tc, nwl, 
+                                 wtrs, wake, wty, sor, cor, rmq_, late, lt_m, 
+                                 old_m, lt_mu, old_mu, lt_mu_, ww, old_mu_, 
+                                 sdl, scn, lt, rc, old_t, c, dl_, cn_, 
+                                 old_mu_w, lt_, first, out_, rc_, hadw, ata, 
+                                 so_, havel, tw, allr, omw, fca, sorw, all, 
+                                 old_c, tws, alr, rmq, dl, cn, gen, old_cv, 
+                                 lt_c, rc_c, so, out, ndl, wq, dw, k >>
 
 wn_9_cas(self) == /\ pc[self] = "wn_9_cas"
                   /\ IF cvword = old[self]
@@ -3596,7 +3634,7 @@ wn_9_cas(self) == /\ pc[self] = "wn_9_cas"
                   /\ UNCHANGED << word, queue, cvq, waiting, rmc, cvmu, wl, wc, 
                                   sc, nww, nwsem, sem, data, now, note, nreg, 
                                   held, ret, sres, picked, sleeps, inlock, ip, 
-                                  mw, pool, nalloc, muFreed, refs, nwalive, 
+                                  mw, pool, nalloc, nq, muFreed, refs, nwalive, 
                                   taint3, stack, lt_l, clear, old_, zlo, zhi, 
                                   wcnt, lw, lt_u, old_u, tc, nwl, wtrs, wake, 
                                   wty, sor, cor, rmq_, late, lt_m, old_m, 
@@ -3612,16 +3650,16 @@ wn_8_d(self) == /\ pc[self] = "wn_8_d"
                 /\ UNCHANGED << word, queue, cvword, cvq, waiting, rmc, cvmu, 
                                 wl, wc, sc, nww, nwsem, sem, data, now, note, 
                                 nreg, held, ret, sres, picked, sleeps, inlock, 
-                                ip, mw, pool, nalloc, muFreed, refs, nwalive, 
-                                taint3, stack, lt_l, clear, old_, zlo, zhi, 
-                                wcnt, lw, lt_u, old_u, tc, nwl, wtrs, wake, 
-                                wty, sor, cor, rmq_, late, lt_m, old_m, lt_mu, 
-                                old_mu, lt_mu_, ww, old_mu_, sdl, scn, lt, rc, 
-                                old_t, c, dl_, cn_, old_mu_w, lt_, first, out_, 
-                                rc_, hadw, ata, so_, havel, tw, allr, omw, fca, 
-                                sorw, all, old_c, tws, alr, rmq, dl, cn, gen, 
-                                old_cv, lt_c, rc_c, so, out, ndl, old, wq, dw, 
-                                k >>
+                                ip, mw, pool, nalloc, nq, muFreed, refs, 
+                                nwalive, taint3, stack, lt_l, clear, old_, zlo, 
+                                zhi, wcnt, lw, lt_u, old_u, tc, nwl, wtrs, 
+                                wake, wty, sor, cor, rmq_, late, lt_m, old_m, 
+                                lt_mu, old_mu, lt_mu_, ww, old_mu_, sdl, scn, 
+                                lt, rc, old_t, c, dl_, cn_, old_mu_w, lt_, 
+                                first, out_, rc_, hadw, ata, so_, havel, tw, 
+                                allr, omw, fca, sorw, all, old_c, tws, alr, 
+                                rmq, dl, cn, gen, old_cv, lt_c, rc_c, so, out, 
+                                ndl, old, wq, dw, k >>
 
 wn_10_ld(self) == /\ pc[self] = "wn_10_ld"
                   /\ IF nww[self] = 0
@@ -3635,10 +3673,10 @@ wn_10_ld(self) == /\ pc[self] = "wn_10_ld"
                   /\ UNCHANGED << word, queue, cvword, waiting, rmc, cvmu, wl, 
                                   wc, sc, nww, nwsem, sem, data, now, note, 
                                   nreg, held, ret, sres, picked, sleeps, 
-                                  inlock, ip, mw, pool, nalloc, muFreed, refs, 
-                                  nwalive, stack, lt_l, clear, old_, zlo, zhi, 
-                                  wcnt, lw, lt_u, old_u, tc, nwl, wtrs, wake, 
-                                  wty, sor, cor, rmq_, late, lt_m, old_m, 
+                                  inlock, ip, mw, pool, nalloc, nq, muFreed, 
+                                  refs, nwalive, stack, lt_l, clear, old_, zlo, 
+                                  zhi, wcnt, lw, lt_u, old_u, tc, nwl, wtrs, 
+                                  wake, wty, sor, cor, rmq_, late, lt_m, old_m, 
                                   lt_mu, old_mu, lt_mu_, ww, old_mu_, sdl, scn, 
                                   lt, rc, old_t, c, dl_, cn_, old_mu_w, lt_, 
                                   first, out_, rc_, hadw, ata, so_, havel, tw, 
@@ -3652,16 +3690,17 @@ wn_11_st(self) == /\ pc[self] = "wn_11_st"
                   /\ UNCHANGED << word, queue, cvword, cvq, waiting, rmc, cvmu, 
                                   wl, wc, sc, nwsem, sem, data, now, note, 
                                   nreg, held, ret, sres, picked, sleeps, 
-                                  inlock, ip, mw, pool, nalloc, muFreed, refs, 
-                                  nwalive, taint3, stack, lt_l, clear, old_, 
-                                  zlo, zhi, wcnt, lw, lt_u, old_u, tc, nwl, 
-                                  wtrs, wake, wty, sor, cor, rmq_, late, lt_m, 
-                                  old_m, lt_mu, old_mu, lt_mu_, ww, old_mu_, 
-                                  sdl, scn, lt, rc, old_t, c, dl_, cn_, 
-                                  old_mu_w, lt_, first, out_, rc_, hadw, ata, 
-                                  so_, havel, tw, allr, omw, fca, sorw, all, 
-                                  old_c, tws, alr, rmq, dl, cn, gen, old_cv, 
-                                  lt_c, rc_c, so, out, ndl, old, wq, dw, k >>
+                                  inlock, ip, mw, pool, nalloc, nq, muFreed, 
+                                  refs, nwalive, taint3, stack, lt_l, clear, 
+                                  old_, zlo, zhi, wcnt, lw, lt_u, old_u, tc, 
+                                  nwl, wtrs, wake, wty, sor, cor, rmq_, late, 
+                                  lt_m, old_m, lt_mu, old_mu, lt_mu_, ww, 
+                                  old_mu_, sdl, scn, lt, rc, old_t, c, dl_, 
+                                  cn_, old_mu_w, lt_, first, out_, rc_, hadw, 
+                                  ata, so_, havel, tw, allr, omw, fca, sorw, 
+                                  all, old_c, tws, alr, rmq, dl, cn, gen, 
+                                  old_cv, lt_c, rc_c, so, out, ndl, old, wq, 
+                                  dw, k >>
 
 wn_12_st(self) == /\ pc[self] = "wn_12_st"
                   /\ cvword' = (IF cvq = <<>> THEN Clr(old[self], CVNE) ELSE old[self])
@@ -3676,7 +3715,7 @@ wn_12_st(self) == /\ pc[self] = "wn_12_st"
                   /\ UNCHANGED << word, queue, cvq, waiting, rmc, cvmu, wl, wc, 
                                   sc, nww, nwsem, sem, data, now, note, nreg, 
                                   held, ret, sres, picked, sleeps, inlock, ip, 
-                                  mw, pool, nalloc, muFreed, refs, nwalive, 
+                                  mw, pool, nalloc, nq, muFreed, refs, nwalive, 
                                   taint3, lt_l, clear, old_, zlo, zhi, wcnt, 
                                   lw, lt_u, old_u, tc, nwl, wtrs, wake, wty, 
                                   sor, cor, rmq_, late, lt_mu, old_mu, lt_mu_, 
@@ -3698,15 +3737,15 @@ wn_13_l(self) == /\ pc[self] = "wn_13_l"
                  /\ UNCHANGED << word, queue, cvword, cvq, waiting, rmc, cvmu, 
                                  wl, wc, sc, nww, nwsem, sem, data, now, note, 
                                  nreg, held, sres, picked, sleeps, inlock, ip, 
-                                 mw, pool, nalloc, muFreed, refs, taint3, lt_l, 
-                                 clear, old_, zlo, zhi, wcnt, lw, lt_u, old_u, 
-                                 tc, nwl, wtrs, wake, wty, sor, cor, rmq_, 
-                                 late, lt_m, old_m, lt_mu, old_mu, lt_mu_, ww, 
-                                 old_mu_, sdl, scn, lt, rc, old_t, c, dl_, cn_, 
-                                 old_mu_w, lt_, first, out_, rc_, hadw, ata, 
-                                 so_, havel, tw, allr, omw, fca, sorw, all, 
-                                 old_c, tws, alr, rmq, dl, cn, gen, old_cv, 
-                                 lt_c, rc_c, so, out, dw, k >>
+                                 mw, pool, nalloc, nq, muFreed, refs, taint3, 
+                                 lt_l, clear, old_, zlo, zhi, wcnt, lw, lt_u, 
+                                 old_u, tc, nwl, wtrs, wake, wty, sor, cor, 
+                                 rmq_, late, lt_m, old_m, lt_mu, old_mu, 
+                                 lt_mu_, ww, old_mu_, sdl, scn, lt, rc, old_t, 
+                                 c, dl_, cn_, old_mu_w, lt_, first, out_, rc_, 
+                                 hadw, ata, so_, havel, tw, allr, omw, fca, 
+                                 sorw, all, old_c, tws, alr, rmq, dl, cn, gen, 
+                                 old_cv, lt_c, rc_c, so, out, dw, k >>
 
 wait_n(self) == wn_1_st(self) \/ wn_2_ld(self) \/ wn_3_cas(self)
                    \/ wn_2_d(self) \/ wn_4_st(self) \/ wn_5_st(self)
@@ -3725,15 +3764,16 @@ db_1_ld(self) == /\ pc[self] = "db_1_ld"
                  /\ UNCHANGED << word, queue, cvword, cvq, waiting, rmc, cvmu, 
                                  wl, wc, sc, nww, nwsem, sem, data, now, note, 
                                  nreg, held, ret, sres, picked, sleeps, inlock, 
-                                 ip, mw, pool, nalloc, muFreed, refs, nwalive, 
-                                 taint3, lt_l, clear, old_, zlo, zhi, wcnt, lw, 
-                                 lt_u, old_u, tc, nwl, wtrs, wake, wty, sor, 
-                                 cor, rmq_, late, lt_m, old_m, lt_mu, old_mu, 
-                                 lt_mu_, ww, old_mu_, sdl, scn, lt, rc, old_t, 
-                                 c, dl_, cn_, old_mu_w, lt_, first, out_, rc_, 
-                                 hadw, ata, so_, havel, tw, allr, omw, fca, 
-                                 sorw, all, old_c, tws, alr, rmq, dl, cn, gen, 
-                                 old_cv, lt_c, rc_c, so, out, ndl, old, wq >>
+                                 ip, mw, pool, nalloc, nq, muFreed, refs, 
+                                 nwalive, taint3, lt_l, clear, old_, zlo, zhi, 
+                                 wcnt, lw, lt_u, old_u, tc, nwl, wtrs, wake, 
+                                 wty, sor, cor, rmq_, late, lt_m, old_m, lt_mu, 
+                                 old_mu, lt_mu_, ww, old_mu_, sdl, scn, lt, rc, 
+                                 old_t, c, dl_, cn_, old_mu_w, lt_, first, 
+                                 out_, rc_, hadw, ata, so_, havel, tw, allr, 
+                                 omw, fca, sorw, all, old_c, tws, alr, rmq, dl, 
+                                 cn, gen, old_cv, lt_c, rc_c, so, out, ndl, 
+                                 old, wq >>
 
 db_2_ld(self) == /\ pc[self] = "db_2_ld"
                  /\ dw' = [dw EXCEPT ![self] = word]
@@ -3743,16 +3783,16 @@ db_2_ld(self) == /\ pc[self] = "db_2_ld"
                  /\ UNCHANGED << word, queue, cvword, cvq, waiting, rmc, cvmu, 
                                  wl, wc, sc, nww, nwsem, sem, data, now, note, 
                                  nreg, held, ret, sres, picked, sleeps, inlock, 
-                                 ip, mw, pool, nalloc, muFreed, refs, nwalive, 
-                                 taint3, stack, lt_l, clear, old_, zlo, zhi, 
-                                 wcnt, lw, lt_u, old_u, tc, nwl, wtrs, wake, 
-                                 wty, sor, cor, rmq_, late, lt_m, old_m, lt_mu, 
-                                 old_mu, lt_mu_, ww, old_mu_, sdl, scn, lt, rc, 
-                                 old_t, c, dl_, cn_, old_mu_w, lt_, first, 
-                                 out_, rc_, hadw, ata, so_, havel, tw, allr, 
-                                 omw, fca, sorw, all, old_c, tws, alr, rmq, dl, 
-                                 cn, gen, old_cv, lt_c, rc_c, so, out, ndl, 
-                                 old, wq, k >>
+                                 ip, mw, pool, nalloc, nq, muFreed, refs, 
+                                 nwalive, taint3, stack, lt_l, clear, old_, 
+                                 zlo, zhi, wcnt, lw, lt_u, old_u, tc, nwl, 
+                                 wtrs, wake, wty, sor, cor, rmq_, late, lt_m, 
+                                 old_m, lt_mu, old_mu, lt_mu_, ww, old_mu_, 
+                                 sdl, scn, lt, rc, old_t, c, dl_, cn_, 
+                                 old_mu_w, lt_, first, out_, rc_, hadw, ata, 
+                                 so_, havel, tw, allr, omw, fca, sorw, all, 
+                                 old_c, tws, alr, rmq, dl, cn, gen, old_cv, 
+                                 lt_c, rc_c, so, out, ndl, old, wq, k >>
 
 db_3_cas(self) == /\ pc[self] = "db_3_cas"
                   /\ IF word = dw[self]
@@ -3764,23 +3804,24 @@ db_3_cas(self) == /\ pc[self] = "db_3_cas"
                   /\ UNCHANGED << queue, cvword, cvq, waiting, rmc, cvmu, wl, 
                                   wc, sc, nww, nwsem, sem, data, now, note, 
                                   nreg, held, ret, sres, picked, sleeps, 
-                                  inlock, ip, mw, pool, nalloc, muFreed, refs, 
-                                  nwalive, taint3, stack, lt_l, clear, old_, 
-                                  zlo, zhi, wcnt, lw, lt_u, old_u, tc, nwl, 
-                                  wtrs, wake, wty, sor, cor, rmq_, late, lt_m, 
-                                  old_m, lt_mu, old_mu, lt_mu_, ww, old_mu_, 
-                                  sdl, scn, lt, rc, old_t, c, dl_, cn_, 
-                                  old_mu_w, lt_, first, out_, rc_, hadw, ata, 
-                                  so_, havel, tw, allr, omw, fca, sorw, all, 
-                                  old_c, tws, alr, rmq, dl, cn, gen, old_cv, 
-                                  lt_c, rc_c, so, out, ndl, old, wq, dw >>
+                                  inlock, ip, mw, pool, nalloc, nq, muFreed, 
+                                  refs, nwalive, taint3, stack, lt_l, clear, 
+                                  old_, zlo, zhi, wcnt, lw, lt_u, old_u, tc, 
+                                  nwl, wtrs, wake, wty, sor, cor, rmq_, late, 
+                                  lt_m, old_m, lt_mu, old_mu, lt_mu_, ww, 
+                                  old_mu_, sdl, scn, lt, rc, old_t, c, dl_, 
+                                  cn_, old_mu_w, lt_, first, out_, rc_, hadw, 
+                                  ata, so_, havel, tw, allr, omw, fca, sorw, 
+                                  all, old_c, tws, alr, rmq, dl, cn, gen, 
+                                  old_cv, lt_c, rc_c, so, out, ndl, old, wq, 
+                                  dw >>
 
 db_d(self) == /\ pc[self] = "db_d"
               /\ pc' = [pc EXCEPT ![self] = "db_2_ld"]
               /\ UNCHANGED << word, queue, cvword, cvq, waiting, rmc, cvmu, wl, 
                               wc, sc, nww, nwsem, sem, data, now, note, nreg, 
                               held, ret, sres, picked, sleeps, inlock, ip, mw, 
-                              pool, nalloc, muFreed, refs, nwalive, taint3, 
+                              pool, nalloc, nq, muFreed, refs, nwalive, taint3, 
                               stack, lt_l, clear, old_, zlo, zhi, wcnt, lw, 
                               lt_u, old_u, tc, nwl, wtrs, wake, wty, sor, cor, 
                               rmq_, late, lt_m, old_m, lt_mu, old_mu, lt_mu_, 
@@ -3797,16 +3838,16 @@ db_w_l(self) == /\ pc[self] = "db_w_l"
                 /\ UNCHANGED << word, queue, cvword, cvq, waiting, rmc, cvmu, 
                                 wl, wc, sc, nww, nwsem, sem, data, now, note, 
                                 nreg, held, ret, sres, picked, sleeps, inlock, 
-                                ip, mw, pool, nalloc, muFreed, refs, nwalive, 
-                                taint3, stack, lt_l, clear, old_, zlo, zhi, 
-                                wcnt, lw, lt_u, old_u, tc, nwl, wtrs, wake, 
-                                wty, sor, cor, rmq_, late, lt_m, old_m, lt_mu, 
-                                old_mu, lt_mu_, ww, old_mu_, sdl, scn, lt, rc, 
-                                old_t, c, dl_, cn_, old_mu_w, lt_, first, out_, 
-                                rc_, hadw, ata, so_, havel, tw, allr, omw, fca, 
-                                sorw, all, old_c, tws, alr, rmq, dl, cn, gen, 
-                                old_cv, lt_c, rc_c, so, out, ndl, old, wq, dw, 
-                                k >>
+                                ip, mw, pool, nalloc, nq, muFreed, refs, 
+                                nwalive, taint3, stack, lt_l, clear, old_, zlo, 
+                                zhi, wcnt, lw, lt_u, old_u, tc, nwl, wtrs, 
+                                wake, wty, sor, cor, rmq_, late, lt_m, old_m, 
+                                lt_mu, old_mu, lt_mu_, ww, old_mu_, sdl, scn, 
+                                lt, rc, old_t, c, dl_, cn_, old_mu_w, lt_, 
+                                first, out_, rc_, hadw, ata, so_, havel, tw, 
+                                allr, omw, fca, sorw, all, old_c, tws, alr, 
+                                rmq, dl, cn, gen, old_cv, lt_c, rc_c, so, out, 
+                                ndl, old, wq, dw, k >>
 
 db_w1_ld(self) == /\ pc[self] = "db_w1_ld"
                   /\ TRUE
@@ -3814,16 +3855,17 @@ db_w1_ld(self) == /\ pc[self] = "db_w1_ld"
                   /\ UNCHANGED << word, queue, cvword, cvq, waiting, rmc, cvmu, 
                                   wl, wc, sc, nww, nwsem, sem, data, now, note, 
                                   nreg, held, ret, sres, picked, sleeps, 
-                                  inlock, ip, mw, pool, nalloc, muFreed, refs, 
-                                  nwalive, taint3, stack, lt_l, clear, old_, 
-                                  zlo, zhi, wcnt, lw, lt_u, old_u, tc, nwl, 
-                                  wtrs, wake, wty, sor, cor, rmq_, late, lt_m, 
-                                  old_m, lt_mu, old_mu, lt_mu_, ww, old_mu_, 
-                                  sdl, scn, lt, rc, old_t, c, dl_, cn_, 
-                                  old_mu_w, lt_, first, out_, rc_, hadw, ata, 
-                                  so_, havel, tw, allr, omw, fca, sorw, all, 
-                                  old_c, tws, alr, rmq, dl, cn, gen, old_cv, 
-                                  lt_c, rc_c, so, out, ndl, old, wq, dw, k >>
+                                  inlock, ip, mw, pool, nalloc, nq, muFreed, 
+                                  refs, nwalive, taint3, stack, lt_l, clear, 
+                                  old_, zlo, zhi, wcnt, lw, lt_u, old_u, tc, 
+                                  nwl, wtrs, wake, wty, sor, cor, rmq_, late, 
+                                  lt_m, old_m, lt_mu, old_mu, lt_mu_, ww, 
+                                  old_mu_, sdl, scn, lt, rc, old_t, c, dl_, 
+                                  cn_, old_mu_w, lt_, first, out_, rc_, hadw, 
+                                  ata, so_, havel, tw, allr, omw, fca, sorw, 
+                                  all, old_c, tws, alr, rmq, dl, cn, gen, 
+                                  old_cv, lt_c, rc_c, so, out, ndl, old, wq, 
+                                  dw, k >>
 
 db_w2_ld(self) == /\ pc[self] = "db_w2_ld"
                   /\ k' = [k EXCEPT ![self] = k[self] - 1]
@@ -3831,16 +3873,17 @@ db_w2_ld(self) == /\ pc[self] = "db_w2_ld"
                   /\ UNCHANGED << word, queue, cvword, cvq, waiting, rmc, cvmu, 
                                   wl, wc, sc, nww, nwsem, sem, data, now, note, 
                                   nreg, held, ret, sres, picked, sleeps, 
-                                  inlock, ip, mw, pool, nalloc, muFreed, refs, 
-                                  nwalive, taint3, stack, lt_l, clear, old_, 
-                                  zlo, zhi, wcnt, lw, lt_u, old_u, tc, nwl, 
-                                  wtrs, wake, wty, sor, cor, rmq_, late, lt_m, 
-                                  old_m, lt_mu, old_mu, lt_mu_, ww, old_mu_, 
-                                  sdl, scn, lt, rc, old_t, c, dl_, cn_, 
-                                  old_mu_w, lt_, first, out_, rc_, hadw, ata, 
-                                  so_, havel, tw, allr, omw, fca, sorw, all, 
-                                  old_c, tws, alr, rmq, dl, cn, gen, old_cv, 
-                                  lt_c, rc_c, so, out, ndl, old, wq, dw >>
+                                  inlock, ip, mw, pool, nalloc, nq, muFreed, 
+                                  refs, nwalive, taint3, stack, lt_l, clear, 
+                                  old_, zlo, zhi, wcnt, lw, lt_u, old_u, tc, 
+                                  nwl, wtrs, wake, wty, sor, cor, rmq_, late, 
+                                  lt_m, old_m, lt_mu, old_mu, lt_mu_, ww, 
+                                  old_mu_, sdl, scn, lt, rc, old_t, c, dl_, 
+                                  cn_, old_mu_w, lt_, first, out_, rc_, hadw, 
+                                  ata, so_, havel, tw, allr, omw, fca, sorw, 
+                                  all, old_c, tws, alr, rmq, dl, cn, gen, 
+                                  old_cv, lt_c, rc_c, so, out, ndl, old, wq, 
+                                  dw >>
 
 db_rel_l(self) == /\ pc[self] = "db_rel_l"
                   /\ IF DbgFixed
@@ -3849,16 +3892,17 @@ db_rel_l(self) == /\ pc[self] = "db_rel_l"
                   /\ UNCHANGED << word, queue, cvword, cvq, waiting, rmc, cvmu, 
                                   wl, wc, sc, nww, nwsem, sem, data, now, note, 
                                   nreg, held, ret, sres, picked, sleeps, 
-                                  inlock, ip, mw, pool, nalloc, muFreed, refs, 
-                                  nwalive, taint3, stack, lt_l, clear, old_, 
-                                  zlo, zhi, wcnt, lw, lt_u, old_u, tc, nwl, 
-                                  wtrs, wake, wty, sor, cor, rmq_, late, lt_m, 
-                                  old_m, lt_mu, old_mu, lt_mu_, ww, old_mu_, 
-                                  sdl, scn, lt, rc, old_t, c, dl_, cn_, 
-                                  old_mu_w, lt_, first, out_, rc_, hadw, ata, 
-                                  so_, havel, tw, allr, omw, fca, sorw, all, 
-                                  old_c, tws, alr, rmq, dl, cn, gen, old_cv, 
-                                  lt_c, rc_c, so, out, ndl, old, wq, dw, k >>
+                                  inlock, ip, mw, pool, nalloc, nq, muFreed, 
+                                  refs, nwalive, taint3, stack, lt_l, clear, 
+                                  old_, zlo, zhi, wcnt, lw, lt_u, old_u, tc, 
+                                  nwl, wtrs, wake, wty, sor, cor, rmq_, late, 
+                                  lt_m, old_m, lt_mu, old_mu, lt_mu_, ww, 
+                                  old_mu_, sdl, scn, lt, rc, old_t, c, dl_, 
+                                  cn_, old_mu_w, lt_, first, out_, rc_, hadw, 
+                                  ata, so_, havel, tw, allr, omw, fca, sorw, 
+                                  all, old_c, tws, alr, rmq, dl, cn, gen, 
+                                  old_cv, lt_c, rc_c, so, out, ndl, old, wq, 
+                                  dw, k >>
 
 db_4_st(self) == /\ pc[self] = "db_4_st"
                  /\ word' = dw[self]
@@ -3869,24 +3913,8 @@ db_4_st(self) == /\ pc[self] = "db_4_st"
                  /\ UNCHANGED << queue, cvword, cvq, waiting, rmc, cvmu, wl, 
                                  wc, sc, nww, nwsem, sem, data, now, note, 
                                  nreg, held, ret, sres, picked, sleeps, inlock, 
-                                 ip, mw, pool, nalloc, muFreed, refs, nwalive, 
-                                 taint3, lt_l, clear, old_, zlo, zhi, wcnt, lw, 
-                                 lt_u, old_u, tc, nwl, wtrs, wake, wty, sor, 
-                                 cor, rmq_, late, lt_m, old_m, lt_mu, old_mu, 
-                                 lt_mu_, ww, old_mu_, sdl, scn, lt, rc, old_t, 
-                                 c, dl_, cn_, old_mu_w, lt_, first, out_, rc_, 
-                                 hadw, ata, so_, havel, tw, allr, omw, fca, 
-                                 sorw, all, old_c, tws, alr, rmq, dl, cn, gen, 
-                                 old_cv, lt_c, rc_c, so, out, ndl, old, wq >>
-
-db_5_ld(self) == /\ pc[self] = "db_5_ld"
-                 /\ dw' = [dw EXCEPT ![self] = word]
-                 /\ pc' = [pc EXCEPT ![self] = "db_6_cas"]
-                 /\ UNCHANGED << word, queue, cvword, cvq, waiting, rmc, cvmu, 
-                                 wl, wc, sc, nww, nwsem, sem, data, now, note, 
-                                 nreg, held, ret, sres, picked, sleeps, inlock, 
-                                 ip, mw, pool, nalloc, muFreed, refs, nwalive, 
-                                 taint3, stack, lt_l, clear, old_, zlo, zhi, 
+                                 ip, mw, pool, nalloc, nq, muFreed, refs, 
+                                 nwalive, taint3, lt_l, clear, old_, zlo, zhi, 
                                  wcnt, lw, lt_u, old_u, tc, nwl, wtrs, wake, 
                                  wty, sor, cor, rmq_, late, lt_m, old_m, lt_mu, 
                                  old_mu, lt_mu_, ww, old_mu_, sdl, scn, lt, rc, 
@@ -3894,7 +3922,24 @@ db_5_ld(self) == /\ pc[self] = "db_5_ld"
                                  out_, rc_, hadw, ata, so_, havel, tw, allr, 
                                  omw, fca, sorw, all, old_c, tws, alr, rmq, dl, 
                                  cn, gen, old_cv, lt_c, rc_c, so, out, ndl, 
-                                 old, wq, k >>
+                                 old, wq >>
+
+db_5_ld(self) == /\ pc[self] = "db_5_ld"
+                 /\ dw' = [dw EXCEPT ![self] = word]
+                 /\ pc' = [pc EXCEPT ![self] = "db_6_cas"]
+                 /\ UNCHANGED << word, queue, cvword, cvq, waiting, rmc, cvmu, 
+                                 wl, wc, sc, nww, nwsem, sem, data, now, note, 
+                                 nreg, held, ret, sres, picked, sleeps, inlock, 
+                                 ip, mw, pool, nalloc, nq, muFreed, refs, 
+                                 nwalive, taint3, stack, lt_l, clear, old_, 
+                                 zlo, zhi, wcnt, lw, lt_u, old_u, tc, nwl, 
+                                 wtrs, wake, wty, sor, cor, rmq_, late, lt_m, 
+                                 old_m, lt_mu, old_mu, lt_mu_, ww, old_mu_, 
+                                 sdl, scn, lt, rc, old_t, c, dl_, cn_, 
+                                 old_mu_w, lt_, first, out_, rc_, hadw, ata, 
+                                 so_, havel, tw, allr, omw, fca, sorw, all, 
+                                 old_c, tws, alr, rmq, dl, cn, gen, old_cv, 
+                                 lt_c, rc_c, so, out, ndl, old, wq, k >>
 
 db_6_cas(self) == /\ pc[self] = "db_6_cas"
                   /\ IF word = dw[self]
@@ -3908,16 +3953,16 @@ db_6_cas(self) == /\ pc[self] = "db_6_cas"
                   /\ UNCHANGED << queue, cvword, cvq, waiting, rmc, cvmu, wl, 
                                   wc, sc, nww, nwsem, sem, data, now, note, 
                                   nreg, held, ret, sres, picked, sleeps, 
-                                  inlock, ip, mw, pool, nalloc, muFreed, refs, 
-                                  nwalive, taint3, lt_l, clear, old_, zlo, zhi, 
-                                  wcnt, lw, lt_u, old_u, tc, nwl, wtrs, wake, 
-                                  wty, sor, cor, rmq_, late, lt_m, old_m, 
-                                  lt_mu, old_mu, lt_mu_, ww, old_mu_, sdl, scn, 
-                                  lt, rc, old_t, c, dl_, cn_, old_mu_w, lt_, 
-                                  first, out_, rc_, hadw, ata, so_, havel, tw, 
-                                  allr, omw, fca, sorw, all, old_c, tws, alr, 
-                                  rmq, dl, cn, gen, old_cv, lt_c, rc_c, so, 
-                                  out, ndl, old, wq >>
+                                  inlock, ip, mw, pool, nalloc, nq, muFreed, 
+                                  refs, nwalive, taint3, lt_l, clear, old_, 
+                                  zlo, zhi, wcnt, lw, lt_u, old_u, tc, nwl, 
+                                  wtrs, wake, wty, sor, cor, rmq_, late, lt_m, 
+                                  old_m, lt_mu, old_mu, lt_mu_, ww, old_mu_, 
+                                  sdl, scn, lt, rc, old_t, c, dl_, cn_, 
+                                  old_mu_w, lt_, first, out_, rc_, hadw, ata, 
+                                  so_, havel, tw, allr, omw, fca, sorw, all, 
+                                  old_c, tws, alr, rmq, dl, cn, gen, old_cv, 
+                                  lt_c, rc_c, so, out, ndl, old, wq >>
 
 debug_state(self) == db_1_ld(self) \/ db_2_ld(self) \/ db_3_cas(self)
                         \/ db_d(self) \/ db_w_l(self) \/ db_w1_ld(self)
@@ -4665,7 +4710,7 @@ c0(self) == /\ pc[self] = "c0"
                                              /\ UNCHANGED << sleeps, inlock, 
                                                              lt_m, old_m >>
             /\ UNCHANGED << word, queue, cvword, cvq, waiting, rmc, cvmu, wl, 
-                            wc, sc, nww, nwsem, now, sres, picked, nwalive, 
+                            wc, sc, nww, nwsem, now, sres, picked, nq, nwalive, 
                             taint3, lt_l, clear, old_, zlo, zhi, wcnt, lw, 
                             lt_u, old_u, tc, nwl, wtrs, wake, wty, sor, cor, 
                             rmq_, late, sdl, scn, lt, rc, old_t, tw, allr, omw, 
@@ -4703,7 +4748,7 @@ TickUseful == \E u \in Threads : \/ (pc[u] = "sw_2_pd" /\ sdl[u] > now)
                                  \/ (pc[u] = "wn_7_pd" /\ ndl[u] > now)
 Tick == /\ now < MaxNow /\ TickUseful
         /\ now' = now + 1
-        /\ UNCHANGED <<pc, word, queue, cvword, cvq, waiting, rmc, cvmu, wl, wc, sc, nww, nwsem, sem, data, note, nreg, held, ret, sres, picked, sleeps, inlock, ip, mw, pool, nalloc, muFreed, refs, nwalive, taint3, stack, lt_l, clear, old_, zlo, zhi, wcnt, lw, lt_u, old_u, tc, nwl, wtrs, wake, wty, sor, cor, rmq_, late, lt_m, old_m, lt_mu, old_mu, lt_mu_, ww, old_mu_, sdl, scn, lt, rc, old_t, c, dl_, cn_, old_mu_w, lt_, first, out_, rc_, hadw, ata, so_, havel, tw, allr, omw, fca, sorw, all, old_c, tws, alr, rmq, dl, cn, gen, old_cv, lt_c, rc_c, so, out, ndl, old, wq, dw, k>>
+        /\ UNCHANGED <<pc, word, queue, cvword, cvq, waiting, rmc, cvmu, wl, wc, sc, nww, nwsem, sem, data, note, nreg, held, ret, sres, picked, sleeps, inlock, ip, mw, pool, nalloc, nq, muFreed, refs, nwalive, taint3, stack, lt_l, clear, old_, zlo, zhi, wcnt, lw, lt_u, old_u, tc, nwl, wtrs, wake, wty, sor, cor, rmq_, late, lt_m, old_m, lt_mu, old_mu, lt_mu_, ww, old_mu_, sdl, scn, lt, rc, old_t, c, dl_, cn_, old_mu_w, lt_, first, out_, rc_, hadw, ata, so_, havel, tw, allr, omw, fca, sorw, all, old_c, tws, alr, rmq, dl, cn, gen, old_cv, lt_c, rc_c, so, out, ndl, old, wq, dw, k>>
 \* Local steps (no shared operation) commute with every step of other threads, so they are taken
 \* eagerly: a thread at a local label runs before anything else happens.
 LocalPending == {u \in Threads : pc[u] \in LocalLabels}
